@@ -16,1712 +16,1831 @@ Definition terms (ts : list tok) (t : pt) : string :=
   digest (show_toks (Some ts)) ++ " " ++ digest (show_pt (Some t)) ++ " " ++ digest (show_pt (parse ts)).
 Definition terms_full (ts : list tok) (t : pt) : string :=
   show_toks (Some ts) ++ nl ++ show_pt (Some t) ++ nl ++ show_pt (parse ts).
-Eval vm_compute in ("<<<M28>>>" ++ check (runes_of_ascii "root packet Packet{ char[]
-    msg_type @calculatedFrom(""a\\"" ) , repeat
-    u16 a1
-`say ""hi""`
-,f32a
-stringy
-`u8 x,` ,
-    uint16 int	, @calculatedFrom( ""// no comment""
-) repeat
-// a // b
-// c
-u8 T, zchar[
-// packet A { u8 x, }
-// " ++ [27880; 37322]%N ++ runes_of_ascii "
-65535
-//x
-//
-]  T , // `tick` ""quote"" 'q'
-repeat chars	{ char[] tag //x
-`" ++ [233]%N ++ runes_of_ascii "`,int64 A	@calculatedFrom(	""\n"" )`// not a comment`
-, match trueish as i8i8 {[ ""a\""b""]	: MetaDataX, } , len {zchar[ 65535 ]o
-    @lengthOf( body  ) `a\`//
-, string options1`two words`
-    , tag
-    // `tick` ""quote"" 'q'
-    { T `{ , }`
-    , charz
-    ,i8 // trailing space 
-uint8x ,} ,char[]packetx// @lengthOf(
-@lengthOf(// c
-roots ) ,} ,
-    }
-,//
-string  x, } // trailing space ")).
-Eval vm_compute in ("<<<M60>>>" ++ check (runes_of_ascii "root packet chars { /// triple
-int16 trueish	@lengthOf( MetaDataX)
-`tab	here`,} MetaData
-T
-// a // b
-// c
-{
-    int64 packetx `doc`
+Eval vm_compute in ("<<<M28>>>" ++ check (runes_of_ascii "options {
+    i8i8 = ""1"" u=
+    ""a	b"" //x
+;a1=zchar[ 00
     // @lengthOf(
-    ,}")).
-Eval vm_compute in ("<<<M92>>>" ++ check (runes_of_ascii "// trailing space 
-packet tag {
-    @rightPad
-    // @lengthOf(
-    ( '0' )
-    u128 ,
-@lengthOf(MetaDataX
-    )
+    ] ;
     // c
-    leftPad, // packet A { u8 x, }
-@tag( 1
-    )calculatedFrom
-    @lengthOf( Logon )  , }
-packet string_	{ } packet u128 {char[	0 // packet A { u8 x, }
-]
-chars `say ""hi""`
-,
-int , @leftPad ( '0'
-// @lengthOf(
-//x
-)T { repeat zchar[ 255]
-int
-,zchar  stringy	, }
-    ,repeat zchar{ match leftPad as packetx
-{ [
-""`tick`""
-    ] :
-    lengthOf //x
-,  [  7,""" ++ [128512]%N ++ runes_of_ascii """
-    ,
-00 , ""x y"" , ""packet"" ] :
-    stringy // @lengthOf(
-, [
-42 ,""\n""
-, ""it's"" ,// " ++ [128512]%N ++ runes_of_ascii " emoji
-65535, 1	]
-: msg_type ""packet"" :	a1 ,} , u16 int
-,
-repeat x_y_z float,
-repeat//x
-u64 A `a\` ,
-} , }
-")).
-Eval vm_compute in ("<<<M124>>>" ++ check (runes_of_ascii "packet
-Pad {
-@lengthOf(stringy)MetaDataX  @calculatedFrom(""" ++ [28040; 24687]%N ++ runes_of_ascii """ ) `{ , }` ,
-//x
-/// triple
-char[ 0123456789 ]leftPad @lengthOf( float
-), asx leftPad `u8 x,` ,
-    @calculatedFrom(""\" ++ [233]%N ++ runes_of_ascii """ )
-    repeat  rootA
-    matchKey `" ++ [28040; 24687; 31867; 22411]%N ++ runes_of_ascii "`, @lengthOf( stringy
-    ) /// triple
-uint8x msg_type `u8 x,`, // c
-char[ 3
-]
-stringy `tab	here`  ,
-}
-MetaData metadata{ string_ zchar , float32 u128	,
-char[]
-    //	t
-    u128//x
-,} options
-    // trailing space 
-    { zchar =""" ++ [28040; 24687]%N ++ runes_of_ascii """ ;
-msg_type = 007 ;	repeatCount = '\x00' ;	} packet
-_x { }  options
-{
-    asx
-=
-true;
-lengthOf =
-'0'  i8i8= '0'  crc =
-""abc""
-    /// triple
-    ; Packet
-// " ++ [128512]%N ++ runes_of_ascii " emoji
-// trailing space 
-= ' ' } // a // b")).
-Eval vm_compute in ("<<<M156>>>" ++ check (runes_of_ascii "packet	crc
-    { }")).
-Eval vm_compute in ("<<<M188>>>" ++ check (runes_of_ascii "MetaData a1 { Foo body
-`{ , }`
-    , int32
-int`` ,i32 a1 `" ++ [28040; 24687; 31867; 22411]%N ++ runes_of_ascii "`
-, int8 msg_type `` , }
-
-")).
-Eval vm_compute in ("<<<T188>>>" ++ terms [mkTok 37 "MetaData" 1 0 false; mkTok 42 "a1" 1 9 false; mkTok 2 "{" 1 12 false; mkTok 42 "Foo" 1 14 false; mkTok 42 "body" 1 18 false; mkTok 43 "`{ , }`" 2 0 false; mkTok 40 "," 3 4 false; mkTok 26 "int32" 3 6 false; mkTok 42 "int" 4 0 false; mkTok 43 "``" 4 3 false; mkTok 40 "," 4 6 false; mkTok 26 "i32" 4 7 false; mkTok 42 "a1" 4 11 false; mkTok 43 (string_of_bytes [96; 230; 182; 136; 230; 129; 175; 231; 177; 187; 229; 158; 139; 96]%N) 4 14 false; mkTok 40 "," 5 0 false; mkTok 24 "int8" 5 2 false; mkTok 42 "msg_type" 5 7 false; mkTok 43 "``" 5 16 false; mkTok 40 "," 5 19 false; mkTok 3 "}" 5 21 false; mkTok 0 "<EOF>" 7 0 false] (mkPacket (mkPtok 37 "MetaData" 1 0 0) (Some (mkPtok 3 "}" 5 21 19)) [(DMeta (mkMetaDef (mkSpan (mkPtok 37 "MetaData" 1 0 0) (mkPtok 3 "}" 5 21 19)) (mkPtok 37 "MetaData" 1 0 0) (mkPtok 42 "a1" 1 9 1) (mkPtok 2 "{" 1 12 2) [(MIRef (mkRefMetaDecl (mkSpan (mkPtok 42 "Foo" 1 14 3) (mkPtok 40 "," 3 4 6)) (mkPtok 42 "Foo" 1 14 3) (mkPtok 42 "body" 1 18 4) (Some (mkPtok 43 "`{ , }`" 2 0 5)) (mkPtok 40 "," 3 4 6))); (MIDecl (mkMetaDecl (mkSpan (mkPtok 26 "int32" 3 6 7) (mkPtok 40 "," 4 6 10)) (TyBasic (mkSpan (mkPtok 26 "int32" 3 6 7) (mkPtok 26 "int32" 3 6 7)) (mkBasicType (mkSpan (mkPtok 26 "int32" 3 6 7) (mkPtok 26 "int32" 3 6 7)) (mkPtok 26 "int32" 3 6 7))) (mkPtok 42 "int" 4 0 8) (Some (mkPtok 43 "``" 4 3 9)) (mkPtok 40 "," 4 6 10))); (MIDecl (mkMetaDecl (mkSpan (mkPtok 26 "i32" 4 7 11) (mkPtok 40 "," 5 0 14)) (TyBasic (mkSpan (mkPtok 26 "i32" 4 7 11) (mkPtok 26 "i32" 4 7 11)) (mkBasicType (mkSpan (mkPtok 26 "i32" 4 7 11) (mkPtok 26 "i32" 4 7 11)) (mkPtok 26 "i32" 4 7 11))) (mkPtok 42 "a1" 4 11 12) (Some (mkPtok 43 (string_of_bytes [96; 230; 182; 136; 230; 129; 175; 231; 177; 187; 229; 158; 139; 96]%N) 4 14 13)) (mkPtok 40 "," 5 0 14))); (MIDecl (mkMetaDecl (mkSpan (mkPtok 24 "int8" 5 2 15) (mkPtok 40 "," 5 19 18)) (TyBasic (mkSpan (mkPtok 24 "int8" 5 2 15) (mkPtok 24 "int8" 5 2 15)) (mkBasicType (mkSpan (mkPtok 24 "int8" 5 2 15) (mkPtok 24 "int8" 5 2 15)) (mkPtok 24 "int8" 5 2 15))) (mkPtok 42 "msg_type" 5 7 16) (Some (mkPtok 43 "``" 5 16 17)) (mkPtok 40 "," 5 19 18)))] (mkPtok 3 "}" 5 21 19)))])).
-Eval vm_compute in ("<<<M220>>>" ++ check (runes_of_ascii "packet f32a
-    { @calculatedFrom(""1"" )
-_x { string
-/// triple
-//	t
-metadata@calculatedFrom( ""`tick`""	) `// not a comment` ,  match // packet A { u8 x, }
-Foo as  len { 42//
-:Z9_ , //x
-}  , }
-,} packet /// triple
-options1{ @lengthOf(A )roots
-@lengthOf(// packet A { u8 x, }
-msg_type ) `line1
-line2` , int32/// triple
-a1 `it's` , @calculatedFrom( ""packet""
-    )repeat string T , @lengthOf( i64_ ) @calculatedFrom(
-""packet""
-) @tag( 007
-) int16 asx@calculatedFrom(
-""it's""
-    )//	t
-`doc` , repeat i32
-charz, metadata // packet A { u8 x, }
-`// not a comment` , }  packet
-Logon{ }
-options {
-}
-root
-packet tag  { @lengthOf(
-    Logon
-)
-charz { string stringy`// not a comment`	,
-uint64 int,char
-    i64_ `it's`
-// packet A { u8 x, }
+    o= ""a	b""
+;  float
+= char[]// a // b
+;
+} root packet chars{
+}packet body // `tick` ""quote"" 'q'
+{ repeat u8x {int16 zchar ,char[
+1
+] o `" ++ [233]%N ++ runes_of_ascii "`	,
+    },}
+    packet  BodyLength {
+    // c
+    @rightPad
+    ('0' )u16 u8x@calculatedFrom( ""// no comment"" ),
+    @tag(
+1 )
 // a // b
-, } ,
-//	t
-//
-u8
-i64_ , zchar[ 1 ] float
-, } /// triple")).
-Eval vm_compute in ("<<<M252>>>" ++ check (runes_of_ascii "// c
-root packet
-calculatedFrom { }
+// " ++ [128512]%N ++ runes_of_ascii " emoji
+match i8i8 as
+u128 { 007 : len ,	""" ++ [128512]%N ++ runes_of_ascii """: u128
+    ,
+    } , repeat
+    repeatCount// " ++ [128512]%N ++ runes_of_ascii " emoji
+`u8 x,` , @calculatedFrom( // c
+""x y""
+)falsey {
+char[ 255]  crc , Logon
+`two words`  ,
+roots options1
+    , }	,
+} root packet
+calculatedFrom
+    { }
 ")).
-Eval vm_compute in ("<<<M284>>>" ++ check (runes_of_ascii "// " ++ [27880; 37322]%N ++ runes_of_ascii "
-options
-    {
-zchar // a // b
-= ""x y""
-; options1 = u16
-;} packet
-Pad{ Z9_@calculatedFrom(
-"""")`
-` , @tag( 42
-    ) //
-@tag( 00 ) @lengthOf( zchar	) match _x// packet A { u8 x, }
-as metadata	{
-007: As ""`tick`""// packet A { u8 x, }
-: lengthOf,255 :lengthOf ""a	b""
-// trailing space 
+Eval vm_compute in ("<<<M60>>>" ++ check (runes_of_ascii "packet
+chars {
+match
+    A as stringy
+    { ""CRC32""
+    // `tick` ""quote"" 'q'
+    : len
+    ,
+    [	""x y""] : BodyLength	, // packet A { u8 x, }
+}	,}
+    options
+{ // @lengthOf(
+string_= '\x00'
+; /// triple
+} packet
+/// triple
+// " ++ [27880; 37322]%N ++ runes_of_ascii "
+crc { @rightPad ( '\x00'
+) match
+    Header  as rootA{
+[ 255	, 42
+    ,""1""
+, ""{,}"" ,
+// 50% %s
+// 50% %s
+10	, ""CRC32"" , 7 ]: leftPad ,}, uint32 crc,// packet A { u8 x, }
+u8x@lengthOf(MetaDataX
+/// triple
+/// triple
+) , i32 o
+    // `tick` ""quote"" 'q'
+    `crlf
+line` , } // packet A { u8 x, }")).
+Eval vm_compute in ("<<<M92>>>" ++ check (runes_of_ascii "MetaData rootA
+    {}
+options{ rootA= '\x00' zchar
+    ='0' rootA= float64 ;  trueish	= 3 i64_
+= float64 ; } options{
+    body
+= '0'
+    ;T= ""CRC32"";matchKey = char[] ; }	packet
+rootA {
+    // " ++ [128512]%N ++ runes_of_ascii " emoji
+    @lengthOf( //
+Z9_)
+    @rightPad('0' ) Packet calculatedFrom , }packet
+body
+    { match metadata
+as asx {
+    3 : Header 3: packetx	, [  10]
+:	Packet, """"
+// 50% %s
 // " ++ [27880; 37322]%N ++ runes_of_ascii "
 :
-Packet 255: a1
-    , // c
-[ 00 ,
-    0 , 10 ,	""a\\"" , ""it's"" ,
-10, 7	]
-: Foo , }
-    , match Header
-as  o{
-[// packet A { u8 x, }
-255 ]
-    : zchar ,0123456789 :leftPad
-    [	007	, 3 ] : leftPad , // c
-0: packetx
-, } , } MetaData
-    Pad { // packet A { u8 x, }
-} packet T
-    // packet A { u8 x, }
-    {
+pack
+//x
+// packet A { u8 x, }
+, 10  : // `tick` ""quote"" 'q'
+pack // `tick` ""quote"" 'q'
+[
+    255 , // a // b
+"""",00 ,
+""it's"" ] :
+x }
+// c
+/// triple
+,
+    }
+")).
+Eval vm_compute in ("<<<M124>>>" ++ check (runes_of_ascii "root packet
+A
+// packet A { u8 x, }
+// `tick` ""quote"" 'q'
+{
+    int64
+    //	t
+    Header@calculatedFrom(
+""packet"" ) , f32 o `it's` ,
+@calculatedFrom(// @lengthOf(
+"""" )zchar[
+0123456789 ] A @calculatedFrom(
+    ""\" ++ [233]%N ++ runes_of_ascii """ )
+    ,@calculatedFrom( ""abc""
+// a // b
+//	t
+) repeat
+    // `tick` ""quote"" 'q'
+    char[] a1,
+    repeat int trueish ,@rightPad
+(
+'\x00'
+) zchar[4294967296] _x , } root packet Z9_ {
+    } packet calculatedFrom { @lengthOf( int )repeat chars // trailing space 
+body, options1// " ++ [27880; 37322]%N ++ runes_of_ascii "
+@lengthOf(int) ,@lengthOf(a1 ) repeat char[
+    //x
+    1 ]  Pad `" ++ [28040; 24687; 31867; 22411]%N ++ runes_of_ascii "` , @calculatedFrom( """" )rootA u
+// " ++ [27880; 37322]%N ++ runes_of_ascii "
+//
+`doc`,
+int8 matchKey @calculatedFrom( ""CRC32""	) , @lengthOf( packetx ) @lengthOf(  msg_type ) u16 Foo	,	packetx crc `u8 x,`, zchar[ 255  ] A	,}")).
+Eval vm_compute in ("<<<M156>>>" ++ check (runes_of_ascii "// " ++ [128512]%N ++ runes_of_ascii " emoji
+packet tag { @lengthOf( matchKey //	t
+)	zchar[
+    7
+    ] i8i8 ,@rightPad
+( //
+'0'	)
+    // " ++ [128512]%N ++ runes_of_ascii " emoji
+    int64//x
+i8i8
+,
+    zchar[	255 ] float ,
+}
+")).
+Eval vm_compute in ("<<<M188>>>" ++ check (runes_of_ascii "MetaData  len {	trueish int ,  i64 charz
+    // " ++ [128512]%N ++ runes_of_ascii " emoji
+    ,	int32 chars , u16
+    Logon `100% of %d`
+, zchar[00
+] zchar
+    ,/// triple
+}")).
+Eval vm_compute in ("<<<T188>>>" ++ terms [mkTok 37 "MetaData" 1 0 false; mkTok 42 "len" 1 10 false; mkTok 2 "{" 1 14 false; mkTok 42 "trueish" 1 16 false; mkTok 42 "int" 1 24 false; mkTok 40 "," 1 28 false; mkTok 27 "i64" 1 31 false; mkTok 42 "charz" 1 35 false; mkTok 44 (string_of_bytes [47; 47; 32; 240; 159; 152; 128; 32; 101; 109; 111; 106; 105]%N) 2 4 true; mkTok 40 "," 3 4 false; mkTok 26 "int32" 3 6 false; mkTok 42 "chars" 3 12 false; mkTok 40 "," 3 18 false; mkTok 21 "u16" 3 20 false; mkTok 42 "Logon" 4 4 false; mkTok 43 "`100% of %d`" 4 10 false; mkTok 40 "," 5 0 false; mkTok 14 "zchar[" 5 2 false; mkTok 30 "00" 5 8 false; mkTok 13 "]" 6 0 false; mkTok 42 "zchar" 6 2 false; mkTok 40 "," 7 4 false; mkTok 44 "/// triple" 7 5 true; mkTok 3 "}" 8 0 false; mkTok 0 "<EOF>" 8 1 false] (mkPacket (mkPtok 37 "MetaData" 1 0 0) (Some (mkPtok 3 "}" 8 0 23)) [(DMeta (mkMetaDef (mkSpan (mkPtok 37 "MetaData" 1 0 0) (mkPtok 3 "}" 8 0 23)) (mkPtok 37 "MetaData" 1 0 0) (mkPtok 42 "len" 1 10 1) (mkPtok 2 "{" 1 14 2) [(MIRef (mkRefMetaDecl (mkSpan (mkPtok 42 "trueish" 1 16 3) (mkPtok 40 "," 1 28 5)) (mkPtok 42 "trueish" 1 16 3) (mkPtok 42 "int" 1 24 4) None (mkPtok 40 "," 1 28 5))); (MIDecl (mkMetaDecl (mkSpan (mkPtok 27 "i64" 1 31 6) (mkPtok 40 "," 3 4 9)) (TyBasic (mkSpan (mkPtok 27 "i64" 1 31 6) (mkPtok 27 "i64" 1 31 6)) (mkBasicType (mkSpan (mkPtok 27 "i64" 1 31 6) (mkPtok 27 "i64" 1 31 6)) (mkPtok 27 "i64" 1 31 6))) (mkPtok 42 "charz" 1 35 7) None (mkPtok 40 "," 3 4 9))); (MIDecl (mkMetaDecl (mkSpan (mkPtok 26 "int32" 3 6 10) (mkPtok 40 "," 3 18 12)) (TyBasic (mkSpan (mkPtok 26 "int32" 3 6 10) (mkPtok 26 "int32" 3 6 10)) (mkBasicType (mkSpan (mkPtok 26 "int32" 3 6 10) (mkPtok 26 "int32" 3 6 10)) (mkPtok 26 "int32" 3 6 10))) (mkPtok 42 "chars" 3 12 11) None (mkPtok 40 "," 3 18 12))); (MIDecl (mkMetaDecl (mkSpan (mkPtok 21 "u16" 3 20 13) (mkPtok 40 "," 5 0 16)) (TyBasic (mkSpan (mkPtok 21 "u16" 3 20 13) (mkPtok 21 "u16" 3 20 13)) (mkBasicType (mkSpan (mkPtok 21 "u16" 3 20 13) (mkPtok 21 "u16" 3 20 13)) (mkPtok 21 "u16" 3 20 13))) (mkPtok 42 "Logon" 4 4 14) (Some (mkPtok 43 "`100% of %d`" 4 10 15)) (mkPtok 40 "," 5 0 16))); (MIDecl (mkMetaDecl (mkSpan (mkPtok 14 "zchar[" 5 2 17) (mkPtok 40 "," 7 4 21)) (TyFixed (mkSpan (mkPtok 14 "zchar[" 5 2 17) (mkPtok 13 "]" 6 0 19)) (mkFixedString (mkSpan (mkPtok 14 "zchar[" 5 2 17) (mkPtok 13 "]" 6 0 19)) (mkPtok 14 "zchar[" 5 2 17) (mkPtok 30 "00" 5 8 18) (mkPtok 13 "]" 6 0 19))) (mkPtok 42 "zchar" 6 2 20) None (mkPtok 40 "," 7 4 21)))] (mkPtok 3 "}" 8 0 23)))])).
+Eval vm_compute in ("<<<M220>>>" ++ check (runes_of_ascii "packet
     // " ++ [27880; 37322]%N ++ runes_of_ascii "
-    charz
-    @lengthOf(asx) `` , }
-packet
-matchKey
-{  @tag( 3
-) @calculatedFrom( ""a	b""
+    string_
+    // " ++ [128512]%N ++ runes_of_ascii " emoji
+    { f32 string_
+    @calculatedFrom(
+""" ++ [128512]%N ++ runes_of_ascii """),} packet int { }
+root packet
+    // trailing space 
+    Header	{repeat
+lengthOf {
+    repeat int
+{body Foo ,	}
+    // trailing space 
+    ,
+match i8i8	as
+Pad { [ 10 ]
+    : options1
+, ""abc"" :u8x
+, """ ++ [128512]%N ++ runes_of_ascii """ // 50% %s
+: f32a// 50% %s
+00  :  metadata , },
+// a // b
+// " ++ [128512]%N ++ runes_of_ascii " emoji
+lengthOf BodyLength ,
+},
+    }
+")).
+Eval vm_compute in ("<<<M252>>>" ++ check (runes_of_ascii "MetaData _x{ }
+options{ //	t
+A
+    = """ ++ [28040; 24687]%N ++ runes_of_ascii """; }")).
+Eval vm_compute in ("<<<M284>>>" ++ check (runes_of_ascii "
+")).
+Eval vm_compute in ("<<<M316>>>" ++ check (runes_of_ascii "packet
+u8x { //
+}root // " ++ [128512]%N ++ runes_of_ascii " emoji
+packet // a // b
+As	{ } 	 ")).
+Eval vm_compute in ("<<<M348>>>" ++ check (runes_of_ascii "
+ // 50% %s")).
+Eval vm_compute in ("<<<M380>>>" ++ check (runes_of_ascii "
+root packet Pad { options1
+@lengthOf(	f32a/// triple
+), }
+")).
+Eval vm_compute in ("<<<M412>>>" ++ check (runes_of_ascii "packet tag {
+// a // b
+// " ++ [27880; 37322]%N ++ runes_of_ascii "
+u64	body @calculatedFrom(""x y"" ) `crlf
+line` ,}
+    root  packet As  {
+    @tag(
+4294967296 )  i8 int ,  f64  u128
+@lengthOf(
+packetx ), @calculatedFrom(
+""" ++ [233]%N ++ runes_of_ascii "t" ++ [233]%N ++ runes_of_ascii """ )@tag( 0
+    )
+@lengthOf( falsey)
+    lengthOf { uint32 f32a// 50% %s
+,repeat roots //
+{ char MetaDataX  ,
+    i32 pack ,string metadata
+    // 50% %s
+    , } , }  , int8 T
+,
 /// triple
 // c
-)
-@calculatedFrom("""" ) pack	rootA
-    ,  repeat //	t
-leftPad `` , repeat uint32 Foo `u8 x,` , @calculatedFrom(
-""" ++ [233]%N ++ runes_of_ascii "t" ++ [233]%N ++ runes_of_ascii """) repeat char[ 65535 ] u , @lengthOf( _x )@lengthOf( u8x ) repeat zchar[ 0123456789 ] x
-, match i64_ // " ++ [27880; 37322]%N ++ runes_of_ascii "
-as falsey{ // trailing space 
-255 :
-f32a , ""{,}"" : x ,""\" ++ [233]%N ++ runes_of_ascii """	: matchKey
-,
-[	"""",
+@tag(
+007
+) @lengthOf( metadata ) repeat uint8x { char[]
+As`" ++ [28040; 24687; 31867; 22411]%N ++ runes_of_ascii "` //
+,match Logon as calculatedFrom
+{
+    [4294967296
+    ] : metadata
+""1"" : len
+    0 : Logon ,
+    ""x y""
+:
     // trailing space 
-    ""{,}"" ,
-    10 , """ ++ [128512]%N ++ runes_of_ascii """
-// a // b
-// packet A { u8 x, }
-, ""a	b"", 0
-,
-""1"",65535
-]: len , ""\" ++ [233]%N ++ runes_of_ascii """ :
-    T
-, [ ""CRC32"" ,
-    // " ++ [128512]%N ++ runes_of_ascii " emoji
-    1 , ""// no comment""
-, 007,1 ,	""`tick`"", """ ++ [128512]%N ++ runes_of_ascii """
-]// packet A { u8 x, }
-: a1  },match
-x as
-As
-{
-    ""a	b"":	o , 007
-:MetaDataX  ,  [
-""a	b""
-]:
-falsey , ""// no comment""
-    : Z9_""packet"":
-    _x
-    // " ++ [128512]%N ++ runes_of_ascii " emoji
-    , },repeat rootA {	uint8 MetaDataX
-    @calculatedFrom(
-    ""abc""
-    ) ,
-    match // `tick` ""quote"" 'q'
-int as// a // b
-asx {	[10	,
-10 , ""`tick`""  , 00 , 4294967296 ]
-    :
-    o ,
-    ""CRC32"" :
-string_ , [ 0
-]
-:	roots 65535 :
-// " ++ [27880; 37322]%N ++ runes_of_ascii "
-// trailing space 
-_x //
-, ""it's"" : Pad, 4294967296 : Pad , }
-,	u16	chars
-`line1
-line2`
-, //x
-}
+    stringy
     ,
-}")).
-Eval vm_compute in ("<<<M316>>>" ++ check (runes_of_ascii "
-packet
-    // a // b
-    matchKey{ @tag(//
-0 ) repeat u ,}
-
+    ""it's""  : falsey // trailing space 
+, ""1"" : string_
+    , } ,//
+Foo
+    MetaDataX`crlf
+line`,	} ,
+    @rightPad ( ) float32 tag // c
+@lengthOf( charz) ,
+char[ 255// packet A { u8 x, }
+]
+    x_y_z
+    , @calculatedFrom( // a // b
+""it's""// @lengthOf(
+)
+    // " ++ [27880; 37322]%N ++ runes_of_ascii "
+    x_y_z, } options{msg_type
+    // " ++ [128512]%N ++ runes_of_ascii " emoji
+    =
+'0' ;
+}
 ")).
-Eval vm_compute in ("<<<M348>>>" ++ check (runes_of_ascii "// packet A { u8 x, }
-options{
-    T
-=""packet"" ; } MetaData x_y_z
+Eval vm_compute in ("<<<T412>>>" ++ terms [mkTok 35 "packet" 1 0 false; mkTok 42 "tag" 1 7 false; mkTok 2 "{" 1 11 false; mkTok 44 "// a // b" 2 0 true; mkTok 44 (string_of_bytes [47; 47; 32; 230; 179; 168; 233; 135; 138]%N) 3 0 true; mkTok 23 "u64" 4 0 false; mkTok 42 "body" 4 4 false; mkTok 5 "@calculatedFrom(" 4 9 false; mkTok 31 """x y""" 4 25 false; mkTok 6 ")" 4 31 false; mkTok 43 (string_of_bytes [96; 99; 114; 108; 102; 13; 10; 108; 105; 110; 101; 96]%N) 4 33 false; mkTok 40 "," 5 6 false; mkTok 3 "}" 5 7 false; mkTok 34 "root" 6 4 false; mkTok 35 "packet" 6 10 false; mkTok 42 "As" 6 17 false; mkTok 2 "{" 6 21 false; mkTok 9 "@tag(" 7 4 false; mkTok 30 "4294967296" 8 0 false; mkTok 6 ")" 8 11 false; mkTok 24 "i8" 8 14 false; mkTok 42 "int" 8 17 false; mkTok 40 "," 8 21 false; mkTok 29 "f64" 8 24 false; mkTok 42 "u128" 8 29 false; mkTok 7 "@lengthOf(" 9 0 false; mkTok 42 "packetx" 10 0 false; mkTok 6 ")" 10 8 false; mkTok 40 "," 10 9 false; mkTok 5 "@calculatedFrom(" 10 11 false; mkTok 31 (string_of_bytes [34; 195; 169; 116; 195; 169; 34]%N) 11 0 false; mkTok 6 ")" 11 6 false; mkTok 9 "@tag(" 11 7 false; mkTok 30 "0" 11 13 false; mkTok 6 ")" 12 4 false; mkTok 7 "@lengthOf(" 13 0 false; mkTok 42 "falsey" 13 11 false; mkTok 6 ")" 13 17 false; mkTok 42 "lengthOf" 14 4 false; mkTok 2 "{" 14 13 false; mkTok 22 "uint32" 14 15 false; mkTok 42 "f32a" 14 22 false; mkTok 44 "// 50% %s" 14 26 true; mkTok 40 "," 15 0 false; mkTok 36 "repeat" 15 1 false; mkTok 42 "roots" 15 8 false; mkTok 44 "//" 15 14 true; mkTok 2 "{" 16 0 false; mkTok 19 "char" 16 2 false; mkTok 42 "MetaDataX" 16 7 false; mkTok 40 "," 16 18 false; mkTok 26 "i32" 17 4 false; mkTok 42 "pack" 17 8 false; mkTok 40 "," 17 13 false; mkTok 15 "string" 17 14 false; mkTok 42 "metadata" 17 21 false; mkTok 44 "// 50% %s" 18 4 true; mkTok 40 "," 19 4 false; mkTok 3 "}" 19 6 false; mkTok 40 "," 19 8 false; mkTok 3 "}" 19 10 false; mkTok 40 "," 19 13 false; mkTok 24 "int8" 19 15 false; mkTok 42 "T" 19 20 false; mkTok 40 "," 20 0 false; mkTok 44 "/// triple" 21 0 true; mkTok 44 "// c" 22 0 true; mkTok 9 "@tag(" 23 0 false; mkTok 30 "007" 24 0 false; mkTok 6 ")" 25 0 false; mkTok 7 "@lengthOf(" 25 2 false; mkTok 42 "metadata" 25 13 false; mkTok 6 ")" 25 22 false; mkTok 36 "repeat" 25 24 false; mkTok 42 "uint8x" 25 31 false; mkTok 2 "{" 25 38 false; mkTok 16 "char[]" 25 40 false; mkTok 42 "As" 26 0 false; mkTok 43 (string_of_bytes [96; 230; 182; 136; 230; 129; 175; 231; 177; 187; 229; 158; 139; 96]%N) 26 2 false; mkTok 44 "//" 26 9 true; mkTok 40 "," 27 0 false; mkTok 38 "match" 27 1 false; mkTok 42 "Logon" 27 7 false; mkTok 17 "as" 27 13 false; mkTok 42 "calculatedFrom" 27 16 false; mkTok 2 "{" 28 0 false; mkTok 18 "[" 29 4 false; mkTok 30 "4294967296" 29 5 false; mkTok 13 "]" 30 4 false; mkTok 39 ":" 30 6 false; mkTok 42 "metadata" 30 8 false; mkTok 31 """1""" 31 0 false; mkTok 39 ":" 31 4 false; mkTok 42 "len" 31 6 false; mkTok 30 "0" 32 4 false; mkTok 39 ":" 32 6 false; mkTok 42 "Logon" 32 8 false; mkTok 40 "," 32 14 false; mkTok 31 """x y""" 33 4 false; mkTok 39 ":" 34 0 false; mkTok 44 "// trailing space " 35 4 true; mkTok 42 "stringy" 36 4 false; mkTok 40 "," 37 4 false; mkTok 31 """it's""" 38 4 false; mkTok 39 ":" 38 12 false; mkTok 42 "falsey" 38 14 false; mkTok 44 "// trailing space " 38 21 true; mkTok 40 "," 39 0 false; mkTok 31 """1""" 39 2 false; mkTok 39 ":" 39 6 false; mkTok 42 "string_" 39 8 false; mkTok 40 "," 40 4 false; mkTok 3 "}" 40 6 false; mkTok 40 "," 40 8 false; mkTok 44 "//" 40 9 true; mkTok 42 "Foo" 41 0 false; mkTok 42 "MetaDataX" 42 4 false; mkTok 43 (string_of_bytes [96; 99; 114; 108; 102; 13; 10; 108; 105; 110; 101; 96]%N) 42 13 false; mkTok 40 "," 43 5 false; mkTok 3 "}" 43 7 false; mkTok 40 "," 43 9 false; mkTok 32 "@rightPad" 44 4 false; mkTok 8 "(" 44 14 false; mkTok 6 ")" 44 16 false; mkTok 28 "float32" 44 18 false; mkTok 42 "tag" 44 26 false; mkTok 44 "// c" 44 30 true; mkTok 7 "@lengthOf(" 45 0 false; mkTok 42 "charz" 45 11 false; mkTok 6 ")" 45 16 false; mkTok 40 "," 45 18 false; mkTok 12 "char[" 46 0 false; mkTok 30 "255" 46 6 false; mkTok 44 "// packet A { u8 x, }" 46 9 true; mkTok 13 "]" 47 0 false; mkTok 42 "x_y_z" 48 4 false; mkTok 40 "," 49 4 false; mkTok 5 "@calculatedFrom(" 49 6 false; mkTok 44 "// a // b" 49 23 true; mkTok 31 """it's""" 50 0 false; mkTok 44 "// @lengthOf(" 50 6 true; mkTok 6 ")" 51 0 false; mkTok 44 (string_of_bytes [47; 47; 32; 230; 179; 168; 233; 135; 138]%N) 52 4 true; mkTok 42 "x_y_z" 53 4 false; mkTok 40 "," 53 9 false; mkTok 3 "}" 53 11 false; mkTok 1 "options" 53 13 false; mkTok 2 "{" 53 20 false; mkTok 42 "msg_type" 53 21 false; mkTok 44 (string_of_bytes [47; 47; 32; 240; 159; 152; 128; 32; 101; 109; 111; 106; 105]%N) 54 4 true; mkTok 4 "=" 55 4 false; mkTok 33 "'0'" 56 0 false; mkTok 41 ";" 56 4 false; mkTok 3 "}" 57 0 false; mkTok 0 "<EOF>" 58 0 false] (mkPacket (mkPtok 35 "packet" 1 0 0) (Some (mkPtok 3 "}" 57 0 153)) [(DPacket (mkPacketDef (mkSpan (mkPtok 35 "packet" 1 0 0) (mkPtok 3 "}" 5 7 12)) None (mkPtok 35 "packet" 1 0 0) (mkPtok 42 "tag" 1 7 1) (mkPtok 2 "{" 1 11 2) [(mkFieldWithAttr (mkSpan (mkPtok 23 "u64" 4 0 5) (mkPtok 40 "," 5 6 11)) [] (CheckSumField (mkSpan (mkPtok 23 "u64" 4 0 5) (mkPtok 40 "," 5 6 11)) (mkChecksumFieldDecl (mkSpan (mkPtok 23 "u64" 4 0 5) (mkPtok 40 "," 5 6 11)) (Some (TyBasic (mkSpan (mkPtok 23 "u64" 4 0 5) (mkPtok 23 "u64" 4 0 5)) (mkBasicType (mkSpan (mkPtok 23 "u64" 4 0 5) (mkPtok 23 "u64" 4 0 5)) (mkPtok 23 "u64" 4 0 5)))) (mkPtok 42 "body" 4 4 6) (mkCalculatedFrom (mkSpan (mkPtok 5 "@calculatedFrom(" 4 9 7) (mkPtok 6 ")" 4 31 9)) (mkPtok 5 "@calculatedFrom(" 4 9 7) (mkPtok 31 """x y""" 4 25 8) (mkPtok 6 ")" 4 31 9)) (Some (mkPtok 43 (string_of_bytes [96; 99; 114; 108; 102; 13; 10; 108; 105; 110; 101; 96]%N) 4 33 10)) (mkPtok 40 "," 5 6 11))))] (mkPtok 3 "}" 5 7 12))); (DPacket (mkPacketDef (mkSpan (mkPtok 34 "root" 6 4 13) (mkPtok 3 "}" 53 11 145)) (Some (mkPtok 34 "root" 6 4 13)) (mkPtok 35 "packet" 6 10 14) (mkPtok 42 "As" 6 17 15) (mkPtok 2 "{" 6 21 16) [(mkFieldWithAttr (mkSpan (mkPtok 9 "@tag(" 7 4 17) (mkPtok 40 "," 8 21 22)) [(FATag (mkSpan (mkPtok 9 "@tag(" 7 4 17) (mkPtok 6 ")" 8 11 19)) (mkTagAttr (mkSpan (mkPtok 9 "@tag(" 7 4 17) (mkPtok 6 ")" 8 11 19)) (mkPtok 9 "@tag(" 7 4 17) (mkPtok 30 "4294967296" 8 0 18) (mkPtok 6 ")" 8 11 19)))] (MetaField (mkSpan (mkPtok 24 "i8" 8 14 20) (mkPtok 40 "," 8 21 22)) None (mkMetaDecl (mkSpan (mkPtok 24 "i8" 8 14 20) (mkPtok 40 "," 8 21 22)) (TyBasic (mkSpan (mkPtok 24 "i8" 8 14 20) (mkPtok 24 "i8" 8 14 20)) (mkBasicType (mkSpan (mkPtok 24 "i8" 8 14 20) (mkPtok 24 "i8" 8 14 20)) (mkPtok 24 "i8" 8 14 20))) (mkPtok 42 "int" 8 17 21) None (mkPtok 40 "," 8 21 22)))); (mkFieldWithAttr (mkSpan (mkPtok 29 "f64" 8 24 23) (mkPtok 40 "," 10 9 28)) [] (LengthField (mkSpan (mkPtok 29 "f64" 8 24 23) (mkPtok 40 "," 10 9 28)) (mkLengthFieldDecl (mkSpan (mkPtok 29 "f64" 8 24 23) (mkPtok 40 "," 10 9 28)) (Some (TyBasic (mkSpan (mkPtok 29 "f64" 8 24 23) (mkPtok 29 "f64" 8 24 23)) (mkBasicType (mkSpan (mkPtok 29 "f64" 8 24 23) (mkPtok 29 "f64" 8 24 23)) (mkPtok 29 "f64" 8 24 23)))) (mkPtok 42 "u128" 8 29 24) (mkLengthOf (mkSpan (mkPtok 7 "@lengthOf(" 9 0 25) (mkPtok 6 ")" 10 8 27)) (mkPtok 7 "@lengthOf(" 9 0 25) (mkPtok 42 "packetx" 10 0 26) (mkPtok 6 ")" 10 8 27)) None (mkPtok 40 "," 10 9 28)))); (mkFieldWithAttr (mkSpan (mkPtok 5 "@calculatedFrom(" 10 11 29) (mkPtok 40 "," 19 13 61)) [(FACalculatedFrom (mkSpan (mkPtok 5 "@calculatedFrom(" 10 11 29) (mkPtok 6 ")" 11 6 31)) (mkCalculatedFrom (mkSpan (mkPtok 5 "@calculatedFrom(" 10 11 29) (mkPtok 6 ")" 11 6 31)) (mkPtok 5 "@calculatedFrom(" 10 11 29) (mkPtok 31 (string_of_bytes [34; 195; 169; 116; 195; 169; 34]%N) 11 0 30) (mkPtok 6 ")" 11 6 31))); (FATag (mkSpan (mkPtok 9 "@tag(" 11 7 32) (mkPtok 6 ")" 12 4 34)) (mkTagAttr (mkSpan (mkPtok 9 "@tag(" 11 7 32) (mkPtok 6 ")" 12 4 34)) (mkPtok 9 "@tag(" 11 7 32) (mkPtok 30 "0" 11 13 33) (mkPtok 6 ")" 12 4 34))); (FALengthOf (mkSpan (mkPtok 7 "@lengthOf(" 13 0 35) (mkPtok 6 ")" 13 17 37)) (mkLengthOf (mkSpan (mkPtok 7 "@lengthOf(" 13 0 35) (mkPtok 6 ")" 13 17 37)) (mkPtok 7 "@lengthOf(" 13 0 35) (mkPtok 42 "falsey" 13 11 36) (mkPtok 6 ")" 13 17 37)))] (InerObjectField (mkSpan (mkPtok 42 "lengthOf" 14 4 38) (mkPtok 40 "," 19 13 61)) None (InerObjectDecl (mkSpan (mkPtok 42 "lengthOf" 14 4 38) (mkPtok 3 "}" 19 10 60)) (mkPtok 42 "lengthOf" 14 4 38) (mkPtok 2 "{" 14 13 39) [(MetaField (mkSpan (mkPtok 22 "uint32" 14 15 40) (mkPtok 40 "," 15 0 43)) None (mkMetaDecl (mkSpan (mkPtok 22 "uint32" 14 15 40) (mkPtok 40 "," 15 0 43)) (TyBasic (mkSpan (mkPtok 22 "uint32" 14 15 40) (mkPtok 22 "uint32" 14 15 40)) (mkBasicType (mkSpan (mkPtok 22 "uint32" 14 15 40) (mkPtok 22 "uint32" 14 15 40)) (mkPtok 22 "uint32" 14 15 40))) (mkPtok 42 "f32a" 14 22 41) None (mkPtok 40 "," 15 0 43))); (InerObjectField (mkSpan (mkPtok 36 "repeat" 15 1 44) (mkPtok 40 "," 19 8 59)) (Some (mkPtok 36 "repeat" 15 1 44)) (InerObjectDecl (mkSpan (mkPtok 42 "roots" 15 8 45) (mkPtok 3 "}" 19 6 58)) (mkPtok 42 "roots" 15 8 45) (mkPtok 2 "{" 16 0 47) [(MetaField (mkSpan (mkPtok 19 "char" 16 2 48) (mkPtok 40 "," 16 18 50)) None (mkMetaDecl (mkSpan (mkPtok 19 "char" 16 2 48) (mkPtok 40 "," 16 18 50)) (TyBasic (mkSpan (mkPtok 19 "char" 16 2 48) (mkPtok 19 "char" 16 2 48)) (mkBasicType (mkSpan (mkPtok 19 "char" 16 2 48) (mkPtok 19 "char" 16 2 48)) (mkPtok 19 "char" 16 2 48))) (mkPtok 42 "MetaDataX" 16 7 49) None (mkPtok 40 "," 16 18 50))); (MetaField (mkSpan (mkPtok 26 "i32" 17 4 51) (mkPtok 40 "," 17 13 53)) None (mkMetaDecl (mkSpan (mkPtok 26 "i32" 17 4 51) (mkPtok 40 "," 17 13 53)) (TyBasic (mkSpan (mkPtok 26 "i32" 17 4 51) (mkPtok 26 "i32" 17 4 51)) (mkBasicType (mkSpan (mkPtok 26 "i32" 17 4 51) (mkPtok 26 "i32" 17 4 51)) (mkPtok 26 "i32" 17 4 51))) (mkPtok 42 "pack" 17 8 52) None (mkPtok 40 "," 17 13 53))); (MetaField (mkSpan (mkPtok 15 "string" 17 14 54) (mkPtok 40 "," 19 4 57)) None (mkMetaDecl (mkSpan (mkPtok 15 "string" 17 14 54) (mkPtok 40 "," 19 4 57)) (TyDynamic (mkSpan (mkPtok 15 "string" 17 14 54) (mkPtok 15 "string" 17 14 54)) (mkDynamicString (mkSpan (mkPtok 15 "string" 17 14 54) (mkPtok 15 "string" 17 14 54)) (mkPtok 15 "string" 17 14 54))) (mkPtok 42 "metadata" 17 21 55) None (mkPtok 40 "," 19 4 57)))] (mkPtok 3 "}" 19 6 58)) (mkPtok 40 "," 19 8 59))] (mkPtok 3 "}" 19 10 60)) (mkPtok 40 "," 19 13 61))); (mkFieldWithAttr (mkSpan (mkPtok 24 "int8" 19 15 62) (mkPtok 40 "," 20 0 64)) [] (MetaField (mkSpan (mkPtok 24 "int8" 19 15 62) (mkPtok 40 "," 20 0 64)) None (mkMetaDecl (mkSpan (mkPtok 24 "int8" 19 15 62) (mkPtok 40 "," 20 0 64)) (TyBasic (mkSpan (mkPtok 24 "int8" 19 15 62) (mkPtok 24 "int8" 19 15 62)) (mkBasicType (mkSpan (mkPtok 24 "int8" 19 15 62) (mkPtok 24 "int8" 19 15 62)) (mkPtok 24 "int8" 19 15 62))) (mkPtok 42 "T" 19 20 63) None (mkPtok 40 "," 20 0 64)))); (mkFieldWithAttr (mkSpan (mkPtok 9 "@tag(" 23 0 67) (mkPtok 40 "," 43 9 120)) [(FATag (mkSpan (mkPtok 9 "@tag(" 23 0 67) (mkPtok 6 ")" 25 0 69)) (mkTagAttr (mkSpan (mkPtok 9 "@tag(" 23 0 67) (mkPtok 6 ")" 25 0 69)) (mkPtok 9 "@tag(" 23 0 67) (mkPtok 30 "007" 24 0 68) (mkPtok 6 ")" 25 0 69))); (FALengthOf (mkSpan (mkPtok 7 "@lengthOf(" 25 2 70) (mkPtok 6 ")" 25 22 72)) (mkLengthOf (mkSpan (mkPtok 7 "@lengthOf(" 25 2 70) (mkPtok 6 ")" 25 22 72)) (mkPtok 7 "@lengthOf(" 25 2 70) (mkPtok 42 "metadata" 25 13 71) (mkPtok 6 ")" 25 22 72)))] (InerObjectField (mkSpan (mkPtok 36 "repeat" 25 24 73) (mkPtok 40 "," 43 9 120)) (Some (mkPtok 36 "repeat" 25 24 73)) (InerObjectDecl (mkSpan (mkPtok 42 "uint8x" 25 31 74) (mkPtok 3 "}" 43 7 119)) (mkPtok 42 "uint8x" 25 31 74) (mkPtok 2 "{" 25 38 75) [(MetaField (mkSpan (mkPtok 16 "char[]" 25 40 76) (mkPtok 40 "," 27 0 80)) None (mkMetaDecl (mkSpan (mkPtok 16 "char[]" 25 40 76) (mkPtok 40 "," 27 0 80)) (TyDynamic (mkSpan (mkPtok 16 "char[]" 25 40 76) (mkPtok 16 "char[]" 25 40 76)) (mkDynamicString (mkSpan (mkPtok 16 "char[]" 25 40 76) (mkPtok 16 "char[]" 25 40 76)) (mkPtok 16 "char[]" 25 40 76))) (mkPtok 42 "As" 26 0 77) (Some (mkPtok 43 (string_of_bytes [96; 230; 182; 136; 230; 129; 175; 231; 177; 187; 229; 158; 139; 96]%N) 26 2 78)) (mkPtok 40 "," 27 0 80))); (MatchField (mkSpan (mkPtok 38 "match" 27 1 81) (mkPtok 40 "," 40 8 113)) (mkMatchFieldDecl (mkSpan (mkPtok 38 "match" 27 1 81) (mkPtok 3 "}" 40 6 112)) (mkPtok 38 "match" 27 1 81) (mkPtok 42 "Logon" 27 7 82) (mkPtok 17 "as" 27 13 83) (mkPtok 42 "calculatedFrom" 27 16 84) (mkPtok 2 "{" 28 0 85) [(mkMatchPair (mkSpan (mkPtok 18 "[" 29 4 86) (mkPtok 42 "metadata" 30 8 90)) (MKList (mkKeyList (mkSpan (mkPtok 18 "[" 29 4 86) (mkPtok 13 "]" 30 4 88)) (mkPtok 18 "[" 29 4 86) (mkPtok 30 "4294967296" 29 5 87) [] (mkPtok 13 "]" 30 4 88))) (mkPtok 39 ":" 30 6 89) (mkPtok 42 "metadata" 30 8 90) None); (mkMatchPair (mkSpan (mkPtok 31 """1""" 31 0 91) (mkPtok 42 "len" 31 6 93)) (MKString (mkPtok 31 """1""" 31 0 91)) (mkPtok 39 ":" 31 4 92) (mkPtok 42 "len" 31 6 93) None); (mkMatchPair (mkSpan (mkPtok 30 "0" 32 4 94) (mkPtok 40 "," 32 14 97)) (MKDigits (mkPtok 30 "0" 32 4 94)) (mkPtok 39 ":" 32 6 95) (mkPtok 42 "Logon" 32 8 96) (Some (mkPtok 40 "," 32 14 97))); (mkMatchPair (mkSpan (mkPtok 31 """x y""" 33 4 98) (mkPtok 40 "," 37 4 102)) (MKString (mkPtok 31 """x y""" 33 4 98)) (mkPtok 39 ":" 34 0 99) (mkPtok 42 "stringy" 36 4 101) (Some (mkPtok 40 "," 37 4 102))); (mkMatchPair (mkSpan (mkPtok 31 """it's""" 38 4 103) (mkPtok 40 "," 39 0 107)) (MKString (mkPtok 31 """it's""" 38 4 103)) (mkPtok 39 ":" 38 12 104) (mkPtok 42 "falsey" 38 14 105) (Some (mkPtok 40 "," 39 0 107))); (mkMatchPair (mkSpan (mkPtok 31 """1""" 39 2 108) (mkPtok 40 "," 40 4 111)) (MKString (mkPtok 31 """1""" 39 2 108)) (mkPtok 39 ":" 39 6 109) (mkPtok 42 "string_" 39 8 110) (Some (mkPtok 40 "," 40 4 111)))] (mkPtok 3 "}" 40 6 112)) (mkPtok 40 "," 40 8 113)); (ObjectField (mkSpan (mkPtok 42 "Foo" 41 0 115) (mkPtok 40 "," 43 5 118)) None (mkPtok 42 "Foo" 41 0 115) (Some (mkPtok 42 "MetaDataX" 42 4 116)) (Some (mkPtok 43 (string_of_bytes [96; 99; 114; 108; 102; 13; 10; 108; 105; 110; 101; 96]%N) 42 13 117)) (mkPtok 40 "," 43 5 118))] (mkPtok 3 "}" 43 7 119)) (mkPtok 40 "," 43 9 120))); (mkFieldWithAttr (mkSpan (mkPtok 32 "@rightPad" 44 4 121) (mkPtok 40 "," 45 18 130)) [(FAPadding (mkSpan (mkPtok 32 "@rightPad" 44 4 121) (mkPtok 6 ")" 44 16 123)) (mkPaddingAttr (mkSpan (mkPtok 32 "@rightPad" 44 4 121) (mkPtok 6 ")" 44 16 123)) (mkPtok 32 "@rightPad" 44 4 121) (mkPtok 8 "(" 44 14 122) None (mkPtok 6 ")" 44 16 123)))] (LengthField (mkSpan (mkPtok 28 "float32" 44 18 124) (mkPtok 40 "," 45 18 130)) (mkLengthFieldDecl (mkSpan (mkPtok 28 "float32" 44 18 124) (mkPtok 40 "," 45 18 130)) (Some (TyBasic (mkSpan (mkPtok 28 "float32" 44 18 124) (mkPtok 28 "float32" 44 18 124)) (mkBasicType (mkSpan (mkPtok 28 "float32" 44 18 124) (mkPtok 28 "float32" 44 18 124)) (mkPtok 28 "float32" 44 18 124)))) (mkPtok 42 "tag" 44 26 125) (mkLengthOf (mkSpan (mkPtok 7 "@lengthOf(" 45 0 127) (mkPtok 6 ")" 45 16 129)) (mkPtok 7 "@lengthOf(" 45 0 127) (mkPtok 42 "charz" 45 11 128) (mkPtok 6 ")" 45 16 129)) None (mkPtok 40 "," 45 18 130)))); (mkFieldWithAttr (mkSpan (mkPtok 12 "char[" 46 0 131) (mkPtok 40 "," 49 4 136)) [] (MetaField (mkSpan (mkPtok 12 "char[" 46 0 131) (mkPtok 40 "," 49 4 136)) None (mkMetaDecl (mkSpan (mkPtok 12 "char[" 46 0 131) (mkPtok 40 "," 49 4 136)) (TyFixed (mkSpan (mkPtok 12 "char[" 46 0 131) (mkPtok 13 "]" 47 0 134)) (mkFixedString (mkSpan (mkPtok 12 "char[" 46 0 131) (mkPtok 13 "]" 47 0 134)) (mkPtok 12 "char[" 46 0 131) (mkPtok 30 "255" 46 6 132) (mkPtok 13 "]" 47 0 134))) (mkPtok 42 "x_y_z" 48 4 135) None (mkPtok 40 "," 49 4 136)))); (mkFieldWithAttr (mkSpan (mkPtok 5 "@calculatedFrom(" 49 6 137) (mkPtok 40 "," 53 9 144)) [(FACalculatedFrom (mkSpan (mkPtok 5 "@calculatedFrom(" 49 6 137) (mkPtok 6 ")" 51 0 141)) (mkCalculatedFrom (mkSpan (mkPtok 5 "@calculatedFrom(" 49 6 137) (mkPtok 6 ")" 51 0 141)) (mkPtok 5 "@calculatedFrom(" 49 6 137) (mkPtok 31 """it's""" 50 0 139) (mkPtok 6 ")" 51 0 141)))] (ObjectField (mkSpan (mkPtok 42 "x_y_z" 53 4 143) (mkPtok 40 "," 53 9 144)) None (mkPtok 42 "x_y_z" 53 4 143) None None (mkPtok 40 "," 53 9 144)))] (mkPtok 3 "}" 53 11 145))); (DOption (mkOptionDef (mkSpan (mkPtok 1 "options" 53 13 146) (mkPtok 3 "}" 57 0 153)) (mkPtok 1 "options" 53 13 146) (mkPtok 2 "{" 53 20 147) [(mkOptionDecl (mkSpan (mkPtok 42 "msg_type" 53 21 148) (mkPtok 41 ";" 56 4 152)) (mkPtok 42 "msg_type" 53 21 148) (mkPtok 4 "=" 55 4 150) (VPaddingChar (mkSpan (mkPtok 33 "'0'" 56 0 151) (mkPtok 33 "'0'" 56 0 151)) (mkPtok 33 "'0'" 56 0 151)) (Some (mkPtok 41 ";" 56 4 152)))] (mkPtok 3 "}" 57 0 153)))])).
+Eval vm_compute in ("<<<M444>>>" ++ check (runes_of_ascii "
+")).
+Eval vm_compute in ("<<<M476>>>" ++ check (runes_of_ascii "packet BodyLength //
+{  repeat BodyLength { x
+@lengthOf( asx ), } , int
+{MetaDataX
+    @calculatedFrom(""x y""
+// c
+// " ++ [128512]%N ++ runes_of_ascii " emoji
+), },  @calculatedFrom( // packet A { u8 x, }
+""`tick`"")
+int64 Z9_,repeat zchar[ 10 ]
+BodyLength
+    // `tick` ""quote"" 'q'
+    ,  string
+falsey
+    `" ++ [28040; 24687; 31867; 22411]%N ++ runes_of_ascii "` , u16
+// trailing space 
+//
+crc @lengthOf(u128 ) , char[ 7 ] i64_ ,
+    falsey`u8 x,`, // trailing space 
+repeat MetaDataX { repeat uint64 i8i8 `tab	here`
+    , _x , } ,
+@lengthOf(  x_y_z
+) body { zchar[ 10 ] int `crlf
+line`	, zchar[
+4294967296 ]uint8x @calculatedFrom(""a\""b"")
+    `
+`
+    // c
+    ,
+} , }options {
+    Pad
+= int32 T = ""x y""	; }MetaData asx { falsey packetx, }
+")).
+Eval vm_compute in ("<<<M508>>>" ++ check (runes_of_ascii "root packet packetx {	} root packet u8x// " ++ [27880; 37322]%N ++ runes_of_ascii "
 {
-char roots ,
-    T f32a `{ , }`, } root packet // " ++ [128512]%N ++ runes_of_ascii " emoji
-uint8x
-{ @calculatedFrom( ""// no comment"") repeat As
-{rootA
-@calculatedFrom(
-""" ++ [28040; 24687]%N ++ runes_of_ascii """ ) `{ , }` , u16 zchar`{ , }` ,  char[	7
-]o `" ++ [233]%N ++ runes_of_ascii "` ,
-} ,}
+u
+repeatCount `u8 x,` ,repeat
+    uint16
+crc,@tag( 7 ) char[] i8i8
+@lengthOf( packetx )
+`{ , }`, @lengthOf( Logon// @lengthOf(
+)
+// `tick` ""quote"" 'q'
+//x
+char[] pack @calculatedFrom( ""a\""b"" )
+    , repeat metadata Foo ,
+u8x // " ++ [27880; 37322]%N ++ runes_of_ascii "
+lengthOf	,  A Header , }
 ")).
-Eval vm_compute in ("<<<M380>>>" ++ check (@nil rune)).
-Eval vm_compute in ("<<<M412>>>" ++ check (runes_of_ascii "packet
-    // @lengthOf(
-    x
-{ int8// packet A { u8 x, }
-T
-, }
-options	{
-    } packet Z9_
+Eval vm_compute in ("<<<M540>>>" ++ check (runes_of_ascii "root
+    packet Z9_ {uint32 matchKey `{ , }` ,
+    // " ++ [128512]%N ++ runes_of_ascii " emoji
+    len @lengthOf(T ) , char[
+1 ]
+A, }
+    //x
+    packet
+// a // b
+// trailing space 
+u128 { @calculatedFrom(
+    ""\n"" )	repeat Pad
+A , } root// c
+packet u
+    {
+@leftPad (  '0' )
+    char[ 65535]
+    leftPad
+    @calculatedFrom(
+// trailing space 
+// a // b
+""{,}"") ,
+u16
+    msg_type ,// " ++ [128512]%N ++ runes_of_ascii " emoji
+}
+")).
+Eval vm_compute in ("<<<M572>>>" ++ check (runes_of_ascii "MetaData
+    a1
+// @lengthOf(
+// " ++ [27880; 37322]%N ++ runes_of_ascii "
+{ int32 i64_ // " ++ [128512]%N ++ runes_of_ascii " emoji
+,
+char[] trueish `doc`
+    , char[] lengthOf
+`100% of %d` , // 50% %s
+int8 Header , char[] chars, } // trailing space ")).
+Eval vm_compute in ("<<<M604>>>" ++ check (runes_of_ascii "MetaData
+    calculatedFrom {
+} //x
+options { stringy =
+    ' ' ;	} packet
+    tag	{ @tag(// a // b
+65535 ) repeat x_y_z i8i8 // 50% %s
+,  pack,
+    // " ++ [27880; 37322]%N ++ runes_of_ascii "
+    float @lengthOf(
+trueish )
+,match  metadata
+    as o// 50% %s
+{ 7 :charz , [ ""\n"" ,
+    ""// no comment"" , ""`tick`"", 7,
+    ""x y""
+    ] : body ,//x
+[""a\""b""
+// " ++ [128512]%N ++ runes_of_ascii " emoji
+//	t
+, 0123456789 , 0123456789
+    ,
+""\n"" , 10, ""it's""
+    ,
+""{,}"" , """ ++ [28040; 24687]%N ++ runes_of_ascii """ ] : Header ,
+// a // b
+//x
+4294967296 :
+i64_,""""
+:
+    /// triple
+    stringy, }
+, match rootA as zchar{	0 : a1 0
+: len
+,  [ 1
+    , 0123456789 , ""a\\"" , ""abc"" ,
+""" ++ [128512]%N ++ runes_of_ascii """ ]:matchKey  ,
+    ""CRC32""
+    :
+    Z9_
+    , }
+,@tag(
+    // trailing space 
+    7 )string pack
+    @calculatedFrom( ""x y""	)
+`say ""hi""` , // " ++ [27880; 37322]%N ++ runes_of_ascii "
+@lengthOf(packetx )
+    //	t
+    i8i8
+, char[
+//
+// @lengthOf(
+42
+]
+u8x,
+    } root packet // @lengthOf(
+a1{@rightPad ( '0' ) repeat  i16 body //
+, }")).
+Eval vm_compute in ("<<<M636>>>" ++ check (runes_of_ascii "packet
+    x { string
+// packet A { u8 x, }
+// " ++ [128512]%N ++ runes_of_ascii " emoji
+As , char[	65535 ]	leftPad `crlf
+line` , i16 rootA
+@lengthOf( packetx )
+//x
+// " ++ [27880; 37322]%N ++ runes_of_ascii "
+`
+` , repeat zchar
+    T`" ++ [28040; 24687; 31867; 22411]%N ++ runes_of_ascii "` , }packet
+// 50% %s
+/// triple
+options1 {// @lengthOf(
+o ``,
+    // packet A { u8 x, }
+    }
+")).
+Eval vm_compute in ("<<<T636>>>" ++ terms [mkTok 35 "packet" 1 0 false; mkTok 42 "x" 2 4 false; mkTok 2 "{" 2 6 false; mkTok 15 "string" 2 8 false; mkTok 44 "// packet A { u8 x, }" 3 0 true; mkTok 44 (string_of_bytes [47; 47; 32; 240; 159; 152; 128; 32; 101; 109; 111; 106; 105]%N) 4 0 true; mkTok 42 "As" 5 0 false; mkTok 40 "," 5 3 false; mkTok 12 "char[" 5 5 false; mkTok 30 "65535" 5 11 false; mkTok 13 "]" 5 17 false; mkTok 42 "leftPad" 5 19 false; mkTok 43 (string_of_bytes [96; 99; 114; 108; 102; 13; 10; 108; 105; 110; 101; 96]%N) 5 27 false; mkTok 40 "," 6 6 false; mkTok 25 "i16" 6 8 false; mkTok 42 "rootA" 6 12 false; mkTok 7 "@lengthOf(" 7 0 false; mkTok 42 "packetx" 7 11 false; mkTok 6 ")" 7 19 false; mkTok 44 "//x" 8 0 true; mkTok 44 (string_of_bytes [47; 47; 32; 230; 179; 168; 233; 135; 138]%N) 9 0 true; mkTok 43 (string_of_bytes [96; 10; 96]%N) 10 0 false; mkTok 40 "," 11 2 false; mkTok 36 "repeat" 11 4 false; mkTok 42 "zchar" 11 11 false; mkTok 42 "T" 12 4 false; mkTok 43 (string_of_bytes [96; 230; 182; 136; 230; 129; 175; 231; 177; 187; 229; 158; 139; 96]%N) 12 5 false; mkTok 40 "," 12 12 false; mkTok 3 "}" 12 14 false; mkTok 35 "packet" 12 15 false; mkTok 44 "// 50% %s" 13 0 true; mkTok 44 "/// triple" 14 0 true; mkTok 42 "options1" 15 0 false; mkTok 2 "{" 15 9 false; mkTok 44 "// @lengthOf(" 15 10 true; mkTok 42 "o" 16 0 false; mkTok 43 "``" 16 2 false; mkTok 40 "," 16 4 false; mkTok 44 "// packet A { u8 x, }" 17 4 true; mkTok 3 "}" 18 4 false; mkTok 0 "<EOF>" 19 0 false] (mkPacket (mkPtok 35 "packet" 1 0 0) (Some (mkPtok 3 "}" 18 4 39)) [(DPacket (mkPacketDef (mkSpan (mkPtok 35 "packet" 1 0 0) (mkPtok 3 "}" 12 14 28)) None (mkPtok 35 "packet" 1 0 0) (mkPtok 42 "x" 2 4 1) (mkPtok 2 "{" 2 6 2) [(mkFieldWithAttr (mkSpan (mkPtok 15 "string" 2 8 3) (mkPtok 40 "," 5 3 7)) [] (MetaField (mkSpan (mkPtok 15 "string" 2 8 3) (mkPtok 40 "," 5 3 7)) None (mkMetaDecl (mkSpan (mkPtok 15 "string" 2 8 3) (mkPtok 40 "," 5 3 7)) (TyDynamic (mkSpan (mkPtok 15 "string" 2 8 3) (mkPtok 15 "string" 2 8 3)) (mkDynamicString (mkSpan (mkPtok 15 "string" 2 8 3) (mkPtok 15 "string" 2 8 3)) (mkPtok 15 "string" 2 8 3))) (mkPtok 42 "As" 5 0 6) None (mkPtok 40 "," 5 3 7)))); (mkFieldWithAttr (mkSpan (mkPtok 12 "char[" 5 5 8) (mkPtok 40 "," 6 6 13)) [] (MetaField (mkSpan (mkPtok 12 "char[" 5 5 8) (mkPtok 40 "," 6 6 13)) None (mkMetaDecl (mkSpan (mkPtok 12 "char[" 5 5 8) (mkPtok 40 "," 6 6 13)) (TyFixed (mkSpan (mkPtok 12 "char[" 5 5 8) (mkPtok 13 "]" 5 17 10)) (mkFixedString (mkSpan (mkPtok 12 "char[" 5 5 8) (mkPtok 13 "]" 5 17 10)) (mkPtok 12 "char[" 5 5 8) (mkPtok 30 "65535" 5 11 9) (mkPtok 13 "]" 5 17 10))) (mkPtok 42 "leftPad" 5 19 11) (Some (mkPtok 43 (string_of_bytes [96; 99; 114; 108; 102; 13; 10; 108; 105; 110; 101; 96]%N) 5 27 12)) (mkPtok 40 "," 6 6 13)))); (mkFieldWithAttr (mkSpan (mkPtok 25 "i16" 6 8 14) (mkPtok 40 "," 11 2 22)) [] (LengthField (mkSpan (mkPtok 25 "i16" 6 8 14) (mkPtok 40 "," 11 2 22)) (mkLengthFieldDecl (mkSpan (mkPtok 25 "i16" 6 8 14) (mkPtok 40 "," 11 2 22)) (Some (TyBasic (mkSpan (mkPtok 25 "i16" 6 8 14) (mkPtok 25 "i16" 6 8 14)) (mkBasicType (mkSpan (mkPtok 25 "i16" 6 8 14) (mkPtok 25 "i16" 6 8 14)) (mkPtok 25 "i16" 6 8 14)))) (mkPtok 42 "rootA" 6 12 15) (mkLengthOf (mkSpan (mkPtok 7 "@lengthOf(" 7 0 16) (mkPtok 6 ")" 7 19 18)) (mkPtok 7 "@lengthOf(" 7 0 16) (mkPtok 42 "packetx" 7 11 17) (mkPtok 6 ")" 7 19 18)) (Some (mkPtok 43 (string_of_bytes [96; 10; 96]%N) 10 0 21)) (mkPtok 40 "," 11 2 22)))); (mkFieldWithAttr (mkSpan (mkPtok 36 "repeat" 11 4 23) (mkPtok 40 "," 12 12 27)) [] (ObjectField (mkSpan (mkPtok 36 "repeat" 11 4 23) (mkPtok 40 "," 12 12 27)) (Some (mkPtok 36 "repeat" 11 4 23)) (mkPtok 42 "zchar" 11 11 24) (Some (mkPtok 42 "T" 12 4 25)) (Some (mkPtok 43 (string_of_bytes [96; 230; 182; 136; 230; 129; 175; 231; 177; 187; 229; 158; 139; 96]%N) 12 5 26)) (mkPtok 40 "," 12 12 27)))] (mkPtok 3 "}" 12 14 28))); (DPacket (mkPacketDef (mkSpan (mkPtok 35 "packet" 12 15 29) (mkPtok 3 "}" 18 4 39)) None (mkPtok 35 "packet" 12 15 29) (mkPtok 42 "options1" 15 0 32) (mkPtok 2 "{" 15 9 33) [(mkFieldWithAttr (mkSpan (mkPtok 42 "o" 16 0 35) (mkPtok 40 "," 16 4 37)) [] (ObjectField (mkSpan (mkPtok 42 "o" 16 0 35) (mkPtok 40 "," 16 4 37)) None (mkPtok 42 "o" 16 0 35) None (Some (mkPtok 43 "``" 16 2 36)) (mkPtok 40 "," 16 4 37)))] (mkPtok 3 "}" 18 4 39)))])).
+Eval vm_compute in ("<<<M668>>>" ++ check (runes_of_ascii "root packet leftPad
+    { repeat zchar[ 1 ]Foo	`crlf
+line` ,i8 lengthOf  , @tag( 3) repeat repeatCount`say ""hi""` // @lengthOf(
+,
+    match repeatCount as BodyLength { // 50% %s
+""1"" : metadata , ""1""  :
+i64_ ,
+[  7
+    ,	""\n"" ,
+""{,}"" ,	1, ""a\""b"" ]	:
+i64_ , 7
+: i8i8 , } , @calculatedFrom( """"
+    ) u8 string_
+// trailing space 
+// " ++ [128512]%N ++ runes_of_ascii " emoji
+@calculatedFrom( """ ++ [28040; 24687]%N ++ runes_of_ascii """) ,
+float64
+// @lengthOf(
+//	t
+Z9_ ,x {
+repeat packetx
+    //	t
+    , int8 As// a // b
+`line1
+line2` ,
+    u128  { //	t
+char[] BodyLength @calculatedFrom(
+""a\""b""  )
+,
+repeat x_y_z {
+match options1 as charz { /// triple
+42
+    : int , 007 :
+    float , ""x y""
+: leftPad
+    , [ ""\" ++ [233]%N ++ runes_of_ascii """ ,
+1 ]
+// packet A { u8 x, }
+// `tick` ""quote"" 'q'
+: lengthOf, //	t
+}	,
+    } ,
+} ,
+    uint8x `{ , }` , } , lengthOf
+@lengthOf( zchar ) ,
+char[]
+    crc`// not a comment`  , } // @lengthOf(")).
+Eval vm_compute in ("<<<M700>>>" ++ check (runes_of_ascii "MetaData
+    chars { As Packet ,T	crc ,
+// `tick` ""quote"" 'q'
+// 50% %s
+char[]
+    _x, len packetx `line1
+line2`, } packet T
+    {int64 f32a@lengthOf( x ) `say ""hi""`,
+    // trailing space 
+    zchar[ 65535
+    ]asx
+`say ""hi""` , i16
+    roots`" ++ [28040; 24687; 31867; 22411]%N ++ runes_of_ascii "` ,  @rightPad (// " ++ [27880; 37322]%N ++ runes_of_ascii "
+'\x00' ) string uint8x
+,
+    rootA  @lengthOf( roots
+    // a // b
+    ) `two words` ,repeat
+u32 u128 , @tag( 255 )
+    //x
+    charz pack
+    // a // b
+    , }
+// @lengthOf(
+// " ++ [27880; 37322]%N ++ runes_of_ascii "
+packet Header {
+// " ++ [128512]%N ++ runes_of_ascii " emoji
+//
+@leftPad ( '0'	) repeat
+    f32a
+    metadata `" ++ [233]%N ++ runes_of_ascii "` ,
+    } packet //
+msg_type { char A`two words`, @tag( 255	)
+    @rightPad ()	body @calculatedFrom( ""\" ++ [233]%N ++ runes_of_ascii """) // 50% %s
+, }options { Z9_ = ""packet""
+;
+    }
+")).
+Eval vm_compute in ("<<<M732>>>" ++ check (runes_of_ascii "root
+packet MetaDataX	{ zchar  Foo ,} options// packet A { u8 x, }
+{ Logon =  ""1"" T = string ; leftPad =
+' '
+    // trailing space 
+    ;  }
+")).
+Eval vm_compute in ("<<<M764>>>" ++ check (runes_of_ascii " // packet A { u8 x, }")).
+Eval vm_compute in ("<<<M796>>>" ++ check (runes_of_ascii "
+root packet Z9_ { char[]falsey
+`a\`, repeat char[] x_y_z `" ++ [233]%N ++ runes_of_ascii "`
+    , rootA@calculatedFrom(""a\""b"" ) ,
+    f32a , char[] packetx // packet A { u8 x, }
+@lengthOf( msg_type) ,	} packet MetaDataX
+    // " ++ [27880; 37322]%N ++ runes_of_ascii "
+    { i16
+//
+// " ++ [27880; 37322]%N ++ runes_of_ascii "
+pack@lengthOf(// @lengthOf(
+Z9_) ,
+@calculatedFrom(""\n"" )@lengthOf( a1
+)f32a
+//x
+//
+@calculatedFrom( ""1"" )
+    ,
+// c
+/// triple
+@leftPad ( '0' ) Pad
+@calculatedFrom( """ ++ [233]%N ++ runes_of_ascii "t" ++ [233]%N ++ runes_of_ascii """ ) `100% of %d` ,	uint64 u `crlf
+line` , @calculatedFrom(
+""a	b"" )
+@leftPad (
+    ) @tag(00 ) repeat Packet
+Packet
+,
+float64 a1 `" ++ [28040; 24687; 31867; 22411]%N ++ runes_of_ascii "`	,	} packet
+string_ {T	{ char[] u `crlf
+line`
+,} , @tag(
+// packet A { u8 x, }
+//
+42
+)
+    repeat char[ 255	]Foo ,@lengthOf( _x ) @calculatedFrom( ""abc"" )	_x // " ++ [128512]%N ++ runes_of_ascii " emoji
+`" ++ [28040; 24687; 31867; 22411]%N ++ runes_of_ascii "` ,char[ // @lengthOf(
+00] // @lengthOf(
+Packet `line1
+line2` , @lengthOf( calculatedFrom) repeat// @lengthOf(
+Pad matchKey
+,  @calculatedFrom( """ ++ [28040; 24687]%N ++ runes_of_ascii """ )uint16//
+rootA
+, f64 msg_type
+// `tick` ""quote"" 'q'
+// @lengthOf(
+, } packet int {
+    @lengthOf( A ) repeat Foo // c
+{ uint32	crc// 50% %s
+@calculatedFrom( ""\n"" ), }
+,	}  options {Z9_ =
+'\x00'
+; Pad  = '\x00'
+    ; options1  ='\x00'
+    //x
+    ;matchKey =
+3
+asx
+    = ""// no comment""	}
+")).
+Eval vm_compute in ("<<<M828>>>" ++ check (runes_of_ascii "MetaData uint8x { leftPad Pad
+    `crlf
+line` , char[3
+    ]
+    falsey , zchar[	0123456789
+// trailing space 
+// a // b
+]
+    // `tick` ""quote"" 'q'
+    a1	, string float `{ , }` , }")).
+Eval vm_compute in ("<<<M860>>>" ++ check (runes_of_ascii "packet
+Foo
 {
 @lengthOf(
-    //	t
-    A
-    ) As
-@calculatedFrom(
-""x y"" )	,
-} MetaData
-//
-// " ++ [128512]%N ++ runes_of_ascii " emoji
-Logon
-    {
-//x
-//x
-pack
-    trueish
-, /// triple
-rootA charz ,
-    leftPad leftPad ,char[]Logon ,
-// a // b
-// " ++ [27880; 37322]%N ++ runes_of_ascii "
-f64	matchKey ,falsey falsey `two words` ,}")).
-Eval vm_compute in ("<<<T412>>>" ++ terms [mkTok 35 "packet" 1 0 false; mkTok 44 "// @lengthOf(" 2 4 true; mkTok 42 "x" 3 4 false; mkTok 2 "{" 4 0 false; mkTok 24 "int8" 4 2 false; mkTok 44 "// packet A { u8 x, }" 4 6 true; mkTok 42 "T" 5 0 false; mkTok 40 "," 6 0 false; mkTok 3 "}" 6 2 false; mkTok 1 "options" 7 0 false; mkTok 2 "{" 7 8 false; mkTok 3 "}" 8 4 false; mkTok 35 "packet" 8 6 false; mkTok 42 "Z9_" 8 13 false; mkTok 2 "{" 9 0 false; mkTok 7 "@lengthOf(" 10 0 false; mkTok 44 (string_of_bytes [47; 47; 9; 116]%N) 11 4 true; mkTok 42 "A" 12 4 false; mkTok 6 ")" 13 4 false; mkTok 42 "As" 13 6 false; mkTok 5 "@calculatedFrom(" 14 0 false; mkTok 31 """x y""" 15 0 false; mkTok 6 ")" 15 6 false; mkTok 40 "," 15 8 false; mkTok 3 "}" 16 0 false; mkTok 37 "MetaData" 16 2 false; mkTok 44 "//" 17 0 true; mkTok 44 (string_of_bytes [47; 47; 32; 240; 159; 152; 128; 32; 101; 109; 111; 106; 105]%N) 18 0 true; mkTok 42 "Logon" 19 0 false; mkTok 2 "{" 20 4 false; mkTok 44 "//x" 21 0 true; mkTok 44 "//x" 22 0 true; mkTok 42 "pack" 23 0 false; mkTok 42 "trueish" 24 4 false; mkTok 40 "," 25 0 false; mkTok 44 "/// triple" 25 2 true; mkTok 42 "rootA" 26 0 false; mkTok 42 "charz" 26 6 false; mkTok 40 "," 26 12 false; mkTok 42 "leftPad" 27 4 false; mkTok 42 "leftPad" 27 12 false; mkTok 40 "," 27 20 false; mkTok 16 "char[]" 27 21 false; mkTok 42 "Logon" 27 27 false; mkTok 40 "," 27 33 false; mkTok 44 "// a // b" 28 0 true; mkTok 44 (string_of_bytes [47; 47; 32; 230; 179; 168; 233; 135; 138]%N) 29 0 true; mkTok 29 "f64" 30 0 false; mkTok 42 "matchKey" 30 4 false; mkTok 40 "," 30 13 false; mkTok 42 "falsey" 30 14 false; mkTok 42 "falsey" 30 21 false; mkTok 43 "`two words`" 30 28 false; mkTok 40 "," 30 40 false; mkTok 3 "}" 30 41 false; mkTok 0 "<EOF>" 30 42 false] (mkPacket (mkPtok 35 "packet" 1 0 0) (Some (mkPtok 3 "}" 30 41 54)) [(DPacket (mkPacketDef (mkSpan (mkPtok 35 "packet" 1 0 0) (mkPtok 3 "}" 6 2 8)) None (mkPtok 35 "packet" 1 0 0) (mkPtok 42 "x" 3 4 2) (mkPtok 2 "{" 4 0 3) [(mkFieldWithAttr (mkSpan (mkPtok 24 "int8" 4 2 4) (mkPtok 40 "," 6 0 7)) [] (MetaField (mkSpan (mkPtok 24 "int8" 4 2 4) (mkPtok 40 "," 6 0 7)) None (mkMetaDecl (mkSpan (mkPtok 24 "int8" 4 2 4) (mkPtok 40 "," 6 0 7)) (TyBasic (mkSpan (mkPtok 24 "int8" 4 2 4) (mkPtok 24 "int8" 4 2 4)) (mkBasicType (mkSpan (mkPtok 24 "int8" 4 2 4) (mkPtok 24 "int8" 4 2 4)) (mkPtok 24 "int8" 4 2 4))) (mkPtok 42 "T" 5 0 6) None (mkPtok 40 "," 6 0 7))))] (mkPtok 3 "}" 6 2 8))); (DOption (mkOptionDef (mkSpan (mkPtok 1 "options" 7 0 9) (mkPtok 3 "}" 8 4 11)) (mkPtok 1 "options" 7 0 9) (mkPtok 2 "{" 7 8 10) [] (mkPtok 3 "}" 8 4 11))); (DPacket (mkPacketDef (mkSpan (mkPtok 35 "packet" 8 6 12) (mkPtok 3 "}" 16 0 24)) None (mkPtok 35 "packet" 8 6 12) (mkPtok 42 "Z9_" 8 13 13) (mkPtok 2 "{" 9 0 14) [(mkFieldWithAttr (mkSpan (mkPtok 7 "@lengthOf(" 10 0 15) (mkPtok 40 "," 15 8 23)) [(FALengthOf (mkSpan (mkPtok 7 "@lengthOf(" 10 0 15) (mkPtok 6 ")" 13 4 18)) (mkLengthOf (mkSpan (mkPtok 7 "@lengthOf(" 10 0 15) (mkPtok 6 ")" 13 4 18)) (mkPtok 7 "@lengthOf(" 10 0 15) (mkPtok 42 "A" 12 4 17) (mkPtok 6 ")" 13 4 18)))] (CheckSumField (mkSpan (mkPtok 42 "As" 13 6 19) (mkPtok 40 "," 15 8 23)) (mkChecksumFieldDecl (mkSpan (mkPtok 42 "As" 13 6 19) (mkPtok 40 "," 15 8 23)) None (mkPtok 42 "As" 13 6 19) (mkCalculatedFrom (mkSpan (mkPtok 5 "@calculatedFrom(" 14 0 20) (mkPtok 6 ")" 15 6 22)) (mkPtok 5 "@calculatedFrom(" 14 0 20) (mkPtok 31 """x y""" 15 0 21) (mkPtok 6 ")" 15 6 22)) None (mkPtok 40 "," 15 8 23))))] (mkPtok 3 "}" 16 0 24))); (DMeta (mkMetaDef (mkSpan (mkPtok 37 "MetaData" 16 2 25) (mkPtok 3 "}" 30 41 54)) (mkPtok 37 "MetaData" 16 2 25) (mkPtok 42 "Logon" 19 0 28) (mkPtok 2 "{" 20 4 29) [(MIRef (mkRefMetaDecl (mkSpan (mkPtok 42 "pack" 23 0 32) (mkPtok 40 "," 25 0 34)) (mkPtok 42 "pack" 23 0 32) (mkPtok 42 "trueish" 24 4 33) None (mkPtok 40 "," 25 0 34))); (MIRef (mkRefMetaDecl (mkSpan (mkPtok 42 "rootA" 26 0 36) (mkPtok 40 "," 26 12 38)) (mkPtok 42 "rootA" 26 0 36) (mkPtok 42 "charz" 26 6 37) None (mkPtok 40 "," 26 12 38))); (MIRef (mkRefMetaDecl (mkSpan (mkPtok 42 "leftPad" 27 4 39) (mkPtok 40 "," 27 20 41)) (mkPtok 42 "leftPad" 27 4 39) (mkPtok 42 "leftPad" 27 12 40) None (mkPtok 40 "," 27 20 41))); (MIDecl (mkMetaDecl (mkSpan (mkPtok 16 "char[]" 27 21 42) (mkPtok 40 "," 27 33 44)) (TyDynamic (mkSpan (mkPtok 16 "char[]" 27 21 42) (mkPtok 16 "char[]" 27 21 42)) (mkDynamicString (mkSpan (mkPtok 16 "char[]" 27 21 42) (mkPtok 16 "char[]" 27 21 42)) (mkPtok 16 "char[]" 27 21 42))) (mkPtok 42 "Logon" 27 27 43) None (mkPtok 40 "," 27 33 44))); (MIDecl (mkMetaDecl (mkSpan (mkPtok 29 "f64" 30 0 47) (mkPtok 40 "," 30 13 49)) (TyBasic (mkSpan (mkPtok 29 "f64" 30 0 47) (mkPtok 29 "f64" 30 0 47)) (mkBasicType (mkSpan (mkPtok 29 "f64" 30 0 47) (mkPtok 29 "f64" 30 0 47)) (mkPtok 29 "f64" 30 0 47))) (mkPtok 42 "matchKey" 30 4 48) None (mkPtok 40 "," 30 13 49))); (MIRef (mkRefMetaDecl (mkSpan (mkPtok 42 "falsey" 30 14 50) (mkPtok 40 "," 30 40 53)) (mkPtok 42 "falsey" 30 14 50) (mkPtok 42 "falsey" 30 21 51) (Some (mkPtok 43 "`two words`" 30 28 52)) (mkPtok 40 "," 30 40 53)))] (mkPtok 3 "}" 30 41 54)))])).
-Eval vm_compute in ("<<<M444>>>" ++ check (runes_of_ascii "/// triple
-MetaData
-x {uint64 u `doc`	, }
-root
-packet
-i8i8
-    {uint32
-    zchar @lengthOf( chars ) , string rootA@calculatedFrom(
-    ""\n""
-) , } packet	MetaDataX
-//	t
+    u128	) char[ 007]u128 `// not a comment` , @calculatedFrom( """ ++ [233]%N ++ runes_of_ascii "t" ++ [233]%N ++ runes_of_ascii """) char[ 4294967296 ]	i8i8
+@calculatedFrom(	""" ++ [28040; 24687]%N ++ runes_of_ascii """ )
+,
+zchar[ 1]
+    repeatCount , } packet body {u32 A  , @lengthOf(trueish
+)@lengthOf(
+    u8x
+) @rightPad ( '0' )Foo @calculatedFrom( ""a	b"") ,
+char[007 ] charz `" ++ [28040; 24687; 31867; 22411]%N ++ runes_of_ascii "`,@lengthOf(
+int)
+packetx @lengthOf( rootA
+    ) `u8 x,`
+, @rightPad ( '\x00') char[
 /// triple
-{ i32 A
-    @lengthOf( string_ )
-`` , @calculatedFrom( ""a\\"" ) @lengthOf( roots ) msg_type asx  `crlf
-line` ,@lengthOf(//
-metadata ) @calculatedFrom( """ ++ [28040; 24687]%N ++ runes_of_ascii """) @leftPad
-(
-) repeat string o `// not a comment`
-    , } //x")).
-Eval vm_compute in ("<<<M476>>>" ++ check (runes_of_ascii "packet roots { @tag(  255) zchar[ 00] lengthOf	`" ++ [233]%N ++ runes_of_ascii "`
-    , zchar[ 7
-// @lengthOf(
-//
-] u `say ""hi""`// " ++ [27880; 37322]%N ++ runes_of_ascii "
-, }  options { } options { calculatedFrom
-= 4294967296 // " ++ [128512]%N ++ runes_of_ascii " emoji
-i64_ = '\x00' ; i64_
-= ""abc"" ; }  MetaData roots{
-    char[]
-    BodyLength`two words`
-, i16 Header `// not a comment`, }")).
-Eval vm_compute in ("<<<M508>>>" ++ check (runes_of_ascii "
-")).
-Eval vm_compute in ("<<<M540>>>" ++ check (runes_of_ascii "packet packetx
-    {
 // trailing space 
-/// triple
-@calculatedFrom( """" ) Z9_ , }
-")).
-Eval vm_compute in ("<<<M572>>>" ++ check (@nil rune)).
-Eval vm_compute in ("<<<M604>>>" ++ check (runes_of_ascii "packet
-    o{  stringy
-@calculatedFrom( ""a	b"" // packet A { u8 x, }
-),
-}")).
-Eval vm_compute in ("<<<M636>>>" ++ check (runes_of_ascii "packet
-i8i8 {int32 As, options1{
-    repeat
-int{
-    //
-    uint16
-u, // a // b
-zchar`say ""hi""`
-// " ++ [128512]%N ++ runes_of_ascii " emoji
-//	t
-,
-char[] trueish , }, } ,
-}")).
-Eval vm_compute in ("<<<T636>>>" ++ terms [mkTok 35 "packet" 1 0 false; mkTok 42 "i8i8" 2 0 false; mkTok 2 "{" 2 5 false; mkTok 26 "int32" 2 6 false; mkTok 42 "As" 2 12 false; mkTok 40 "," 2 14 false; mkTok 42 "options1" 2 16 false; mkTok 2 "{" 2 24 false; mkTok 36 "repeat" 3 4 false; mkTok 42 "int" 4 0 false; mkTok 2 "{" 4 3 false; mkTok 44 "//" 5 4 true; mkTok 21 "uint16" 6 4 false; mkTok 42 "u" 7 0 false; mkTok 40 "," 7 1 false; mkTok 44 "// a // b" 7 3 true; mkTok 42 "zchar" 8 0 false; mkTok 43 "`say ""hi""`" 8 5 false; mkTok 44 (string_of_bytes [47; 47; 32; 240; 159; 152; 128; 32; 101; 109; 111; 106; 105]%N) 9 0 true; mkTok 44 (string_of_bytes [47; 47; 9; 116]%N) 10 0 true; mkTok 40 "," 11 0 false; mkTok 16 "char[]" 12 0 false; mkTok 42 "trueish" 12 7 false; mkTok 40 "," 12 15 false; mkTok 3 "}" 12 17 false; mkTok 40 "," 12 18 false; mkTok 3 "}" 12 20 false; mkTok 40 "," 12 22 false; mkTok 3 "}" 13 0 false; mkTok 0 "<EOF>" 13 1 false] (mkPacket (mkPtok 35 "packet" 1 0 0) (Some (mkPtok 3 "}" 13 0 28)) [(DPacket (mkPacketDef (mkSpan (mkPtok 35 "packet" 1 0 0) (mkPtok 3 "}" 13 0 28)) None (mkPtok 35 "packet" 1 0 0) (mkPtok 42 "i8i8" 2 0 1) (mkPtok 2 "{" 2 5 2) [(mkFieldWithAttr (mkSpan (mkPtok 26 "int32" 2 6 3) (mkPtok 40 "," 2 14 5)) [] (MetaField (mkSpan (mkPtok 26 "int32" 2 6 3) (mkPtok 40 "," 2 14 5)) None (mkMetaDecl (mkSpan (mkPtok 26 "int32" 2 6 3) (mkPtok 40 "," 2 14 5)) (TyBasic (mkSpan (mkPtok 26 "int32" 2 6 3) (mkPtok 26 "int32" 2 6 3)) (mkBasicType (mkSpan (mkPtok 26 "int32" 2 6 3) (mkPtok 26 "int32" 2 6 3)) (mkPtok 26 "int32" 2 6 3))) (mkPtok 42 "As" 2 12 4) None (mkPtok 40 "," 2 14 5)))); (mkFieldWithAttr (mkSpan (mkPtok 42 "options1" 2 16 6) (mkPtok 40 "," 12 22 27)) [] (InerObjectField (mkSpan (mkPtok 42 "options1" 2 16 6) (mkPtok 40 "," 12 22 27)) None (InerObjectDecl (mkSpan (mkPtok 42 "options1" 2 16 6) (mkPtok 3 "}" 12 20 26)) (mkPtok 42 "options1" 2 16 6) (mkPtok 2 "{" 2 24 7) [(InerObjectField (mkSpan (mkPtok 36 "repeat" 3 4 8) (mkPtok 40 "," 12 18 25)) (Some (mkPtok 36 "repeat" 3 4 8)) (InerObjectDecl (mkSpan (mkPtok 42 "int" 4 0 9) (mkPtok 3 "}" 12 17 24)) (mkPtok 42 "int" 4 0 9) (mkPtok 2 "{" 4 3 10) [(MetaField (mkSpan (mkPtok 21 "uint16" 6 4 12) (mkPtok 40 "," 7 1 14)) None (mkMetaDecl (mkSpan (mkPtok 21 "uint16" 6 4 12) (mkPtok 40 "," 7 1 14)) (TyBasic (mkSpan (mkPtok 21 "uint16" 6 4 12) (mkPtok 21 "uint16" 6 4 12)) (mkBasicType (mkSpan (mkPtok 21 "uint16" 6 4 12) (mkPtok 21 "uint16" 6 4 12)) (mkPtok 21 "uint16" 6 4 12))) (mkPtok 42 "u" 7 0 13) None (mkPtok 40 "," 7 1 14))); (ObjectField (mkSpan (mkPtok 42 "zchar" 8 0 16) (mkPtok 40 "," 11 0 20)) None (mkPtok 42 "zchar" 8 0 16) None (Some (mkPtok 43 "`say ""hi""`" 8 5 17)) (mkPtok 40 "," 11 0 20)); (MetaField (mkSpan (mkPtok 16 "char[]" 12 0 21) (mkPtok 40 "," 12 15 23)) None (mkMetaDecl (mkSpan (mkPtok 16 "char[]" 12 0 21) (mkPtok 40 "," 12 15 23)) (TyDynamic (mkSpan (mkPtok 16 "char[]" 12 0 21) (mkPtok 16 "char[]" 12 0 21)) (mkDynamicString (mkSpan (mkPtok 16 "char[]" 12 0 21) (mkPtok 16 "char[]" 12 0 21)) (mkPtok 16 "char[]" 12 0 21))) (mkPtok 42 "trueish" 12 7 22) None (mkPtok 40 "," 12 15 23)))] (mkPtok 3 "}" 12 17 24)) (mkPtok 40 "," 12 18 25))] (mkPtok 3 "}" 12 20 26)) (mkPtok 40 "," 12 22 27)))] (mkPtok 3 "}" 13 0 28)))])).
-Eval vm_compute in ("<<<M668>>>" ++ check (runes_of_ascii "packet  x_y_z
-    // @lengthOf(
-    { @tag( 1
-/// triple
-//
-) A @calculatedFrom(""a\""b""	) , match Pad as lengthOf{ 007 :u128 , }	, match
-chars as roots
-    {1	: roots , [ 1
-    ] :
-    A
-, // " ++ [27880; 37322]%N ++ runes_of_ascii "
-""a	b"" : roots
-[	""abc"" , 0
-    ] :
-    // trailing space 
-    u128 ,
-    }
-    , repeat i64
-i8i8 , @calculatedFrom( """ ++ [233]%N ++ runes_of_ascii "t" ++ [233]%N ++ runes_of_ascii """ )BodyLength,
-@tag( 255 ) string u8x ,
-    BodyLength options1 `
-`
-, }
-")).
-Eval vm_compute in ("<<<M700>>>" ++ check (runes_of_ascii "  packet i8i8 { } options { options1//	t
-=true ; // " ++ [27880; 37322]%N ++ runes_of_ascii "
-}	packet pack{
-    //	t
-    lengthOf{ char[	10
-]	len@calculatedFrom(
-""\" ++ [233]%N ++ runes_of_ascii """
-)
-// " ++ [27880; 37322]%N ++ runes_of_ascii "
-// " ++ [27880; 37322]%N ++ runes_of_ascii "
-`a\` , }
-,
-    } root packet repeatCount{u128 len `line1
-line2` ,
-@calculatedFrom( ""// no comment"" // `tick` ""quote"" 'q'
-) repeat char[]zchar`// not a comment` ,	a1 , repeat zchar[  1
-]	u `crlf
-line` , } packet
-lengthOf{@calculatedFrom(
-    //
-    ""packet"" ) // a // b
-float64
-trueish
-@lengthOf( Z9_
-) , @leftPad
-    ( )
-    match options1 as A
-    //x
-    {""it's"":len
+255] /// triple
+repeatCount`line1
+line2`,
+f32	trueish
     ,
-    ["""" ] :T // " ++ [128512]%N ++ runes_of_ascii " emoji
-,	[
-    //
-    00
+    @leftPad ( ' ' )// `tick` ""quote"" 'q'
+@lengthOf(
+    MetaDataX )
+@lengthOf( leftPad
+    ) /// triple
+Pad {match
+Logon as i64_ {
+[255 // `tick` ""quote"" 'q'
+,
+""it's"" , """ ++ [28040; 24687]%N ++ runes_of_ascii """ ,""x y"" ] :
+// `tick` ""quote"" 'q'
+// `tick` ""quote"" 'q'
+pack , [ 10 ,
+    //x
+    ""a\""b"" ,  ""x y"" ,
+// packet A { u8 x, }
+//	t
+""\" ++ [233]%N ++ runes_of_ascii """
+,0,
+    // " ++ [27880; 37322]%N ++ runes_of_ascii "
+    10 , 0,
+255 ] : charz 0
+: string_ ,	[""x y"" ,
+1]: asx""a	b"": asx ,
+    ""a	b"" // " ++ [27880; 37322]%N ++ runes_of_ascii "
+:Header ,	} , } , } packet// 50% %s
+A
+{ }options {
+    len =
+true ;f32a ='0' o
+= char[7 ]
+;  body =
+    ' ' o
+    = 3  } packet	As  {
+@tag( 007 ) @rightPad  ('\x00'
+)
+    @rightPad (' ' ) match roots// `tick` ""quote"" 'q'
+as _x{ 0123456789 : string_ ,
+[ """ ++ [28040; 24687]%N ++ runes_of_ascii """ , ""1"" ,
+""a	b"" , 3
+    , ""x y""
+    ,
+00 , 10 , ""\" ++ [233]%N ++ runes_of_ascii """
 // c
 // `tick` ""quote"" 'q'
-] : calculatedFrom, 1:MetaDataX	, 4294967296 :
-    u , } // a // b
-,}
-//
-")).
-Eval vm_compute in ("<<<M732>>>" ++ check (runes_of_ascii "packet
-// a // b
-// packet A { u8 x, }
-matchKey { lengthOf	{ charz int
-// " ++ [128512]%N ++ runes_of_ascii " emoji
-// packet A { u8 x, }
-,
-match
-uint8x as A
-    // a // b
-    {
-    65535: rootA
-, } ,	repeat char[]
-    // a // b
-    T, }
-    , repeat charz  roots,	}
-")).
-Eval vm_compute in ("<<<M764>>>" ++ check (runes_of_ascii "MetaData  len{
-}
-packet BodyLength{ char[
-42
-    ]A@calculatedFrom(""// no comment"" ) `crlf
-line`// a // b
-,  match //
-Header as calculatedFrom {
-/// triple
-// packet A { u8 x, }
-""`tick`"" :
-//x
-//	t
-o
-,
-// packet A { u8 x, }
-// c
-},
-repeat packetx , }packet u { }packet
-x_y_z { @lengthOf( repeatCount
-    ) // trailing space 
-char[] charz @calculatedFrom(
-""it's"" ) `doc` , } packet	calculatedFrom {}
-")).
-Eval vm_compute in ("<<<M796>>>" ++ check (runes_of_ascii "packet o
-    {
-    /// triple
+] :Pad
+65535 :	x 7 : x_y_z 3 :
+charz ,
     }
-packet Pad // a // b
-{ repeat  f32
-metadata	`two words`,repeat
-    charz	{  i32 i64_@calculatedFrom(""\" ++ [233]%N ++ runes_of_ascii """ ) `u8 x,` ,
-repeat uint8x
-tag , uint16// " ++ [128512]%N ++ runes_of_ascii " emoji
-Packet	@calculatedFrom( ""a	b"" ) `u8 x,` ,
-    } ,
-}  packet
-metadata {@leftPad	( )
-repeat  f32 i64_  ,
-    // `tick` ""quote"" 'q'
-    f32a @calculatedFrom( ""x y""
-) , repeat zchar[007 ]  body // a // b
-,@rightPad ( '\x00' )	string MetaDataX  @lengthOf( options1)
-,  @tag( 3 )
-    match  _x as
-    lengthOf {  ""`tick`"": //	t
-body}
-/// triple
-// c
-,@calculatedFrom(""`tick`""
-)i64 options1@calculatedFrom( ""abc"") `" ++ [28040; 24687; 31867; 22411]%N ++ runes_of_ascii "` , i8 As // a // b
-, rootA
-@lengthOf( lengthOf) //x
 ,
-// " ++ [27880; 37322]%N ++ runes_of_ascii "
-// " ++ [27880; 37322]%N ++ runes_of_ascii "
-}  MetaData body { int16 // " ++ [128512]%N ++ runes_of_ascii " emoji
-len `line1
-line2`
-,  uint16 stringy , uint64 falsey
-`{ , }`, len len ,
-} // " ++ [128512]%N ++ runes_of_ascii " emoji")).
-Eval vm_compute in ("<<<M828>>>" ++ check (runes_of_ascii "  options // c
-{x_y_z =
-    f64 } // " ++ [27880; 37322]%N ++ runes_of_ascii "
-root
-    packet As {@tag( 255	)string BodyLength ,
-    @leftPad	(
-) match Foo as
-    body {007: i8i8 , 42 :
-metadata
-    , // @lengthOf(
-"""" :
-body, }
-, }
-
+@rightPad (	' ' ) repeat f64 //
+u128 ,i8 calculatedFrom// @lengthOf(
+@calculatedFrom( ""it's"" ) , @tag( 0
+    /// triple
+    )
+    repeat
+//
+// 50% %s
+zchar[65535
+    ] lengthOf `" ++ [233]%N ++ runes_of_ascii "` ,
+asx
+{msg_type f32a
+`a\` ,
+} ,
+@lengthOf( A)	@rightPad ( )
+@calculatedFrom(
+""packet"")
+char Logon @calculatedFrom( """ ++ [128512]%N ++ runes_of_ascii """ ) , @lengthOf( f32a// 50% %s
+) zchar[
+1
+    ]i8i8`it's`, //	t
+u16 As@calculatedFrom( ""packet"" )  `
+` , }
 ")).
-Eval vm_compute in ("<<<M860>>>" ++ check (runes_of_ascii "options { }
-options {
-pack =false; Z9_//
-= false ;} packet Pad { }
-packet u8x
-{ repeat// " ++ [128512]%N ++ runes_of_ascii " emoji
-matchKey packetx
-, } //x")).
-Eval vm_compute in ("<<<T860>>>" ++ terms [mkTok 1 "options" 1 0 false; mkTok 2 "{" 1 8 false; mkTok 3 "}" 1 10 false; mkTok 1 "options" 2 0 false; mkTok 2 "{" 2 8 false; mkTok 42 "pack" 3 0 false; mkTok 4 "=" 3 5 false; mkTok 11 "false" 3 6 false; mkTok 41 ";" 3 11 false; mkTok 42 "Z9_" 3 13 false; mkTok 44 "//" 3 16 true; mkTok 4 "=" 4 0 false; mkTok 11 "false" 4 2 false; mkTok 41 ";" 4 8 false; mkTok 3 "}" 4 9 false; mkTok 35 "packet" 4 11 false; mkTok 42 "Pad" 4 18 false; mkTok 2 "{" 4 22 false; mkTok 3 "}" 4 24 false; mkTok 35 "packet" 5 0 false; mkTok 42 "u8x" 5 7 false; mkTok 2 "{" 6 0 false; mkTok 36 "repeat" 6 2 false; mkTok 44 (string_of_bytes [47; 47; 32; 240; 159; 152; 128; 32; 101; 109; 111; 106; 105]%N) 6 8 true; mkTok 42 "matchKey" 7 0 false; mkTok 42 "packetx" 7 9 false; mkTok 40 "," 8 0 false; mkTok 3 "}" 8 2 false; mkTok 44 "//x" 8 4 true; mkTok 0 "<EOF>" 8 7 false] (mkPacket (mkPtok 1 "options" 1 0 0) (Some (mkPtok 3 "}" 8 2 27)) [(DOption (mkOptionDef (mkSpan (mkPtok 1 "options" 1 0 0) (mkPtok 3 "}" 1 10 2)) (mkPtok 1 "options" 1 0 0) (mkPtok 2 "{" 1 8 1) [] (mkPtok 3 "}" 1 10 2))); (DOption (mkOptionDef (mkSpan (mkPtok 1 "options" 2 0 3) (mkPtok 3 "}" 4 9 14)) (mkPtok 1 "options" 2 0 3) (mkPtok 2 "{" 2 8 4) [(mkOptionDecl (mkSpan (mkPtok 42 "pack" 3 0 5) (mkPtok 41 ";" 3 11 8)) (mkPtok 42 "pack" 3 0 5) (mkPtok 4 "=" 3 5 6) (VFalse (mkSpan (mkPtok 11 "false" 3 6 7) (mkPtok 11 "false" 3 6 7)) (mkPtok 11 "false" 3 6 7)) (Some (mkPtok 41 ";" 3 11 8))); (mkOptionDecl (mkSpan (mkPtok 42 "Z9_" 3 13 9) (mkPtok 41 ";" 4 8 13)) (mkPtok 42 "Z9_" 3 13 9) (mkPtok 4 "=" 4 0 11) (VFalse (mkSpan (mkPtok 11 "false" 4 2 12) (mkPtok 11 "false" 4 2 12)) (mkPtok 11 "false" 4 2 12)) (Some (mkPtok 41 ";" 4 8 13)))] (mkPtok 3 "}" 4 9 14))); (DPacket (mkPacketDef (mkSpan (mkPtok 35 "packet" 4 11 15) (mkPtok 3 "}" 4 24 18)) None (mkPtok 35 "packet" 4 11 15) (mkPtok 42 "Pad" 4 18 16) (mkPtok 2 "{" 4 22 17) [] (mkPtok 3 "}" 4 24 18))); (DPacket (mkPacketDef (mkSpan (mkPtok 35 "packet" 5 0 19) (mkPtok 3 "}" 8 2 27)) None (mkPtok 35 "packet" 5 0 19) (mkPtok 42 "u8x" 5 7 20) (mkPtok 2 "{" 6 0 21) [(mkFieldWithAttr (mkSpan (mkPtok 36 "repeat" 6 2 22) (mkPtok 40 "," 8 0 26)) [] (ObjectField (mkSpan (mkPtok 36 "repeat" 6 2 22) (mkPtok 40 "," 8 0 26)) (Some (mkPtok 36 "repeat" 6 2 22)) (mkPtok 42 "matchKey" 7 0 24) (Some (mkPtok 42 "packetx" 7 9 25)) None (mkPtok 40 "," 8 0 26)))] (mkPtok 3 "}" 8 2 27)))])).
-Eval vm_compute in ("<<<M892>>>" ++ check (runes_of_ascii "  packet //	t
-crc {i32 Z9_
+Eval vm_compute in ("<<<T860>>>" ++ terms [mkTok 35 "packet" 1 0 false; mkTok 42 "Foo" 2 0 false; mkTok 2 "{" 3 0 false; mkTok 7 "@lengthOf(" 4 0 false; mkTok 42 "u128" 5 4 false; mkTok 6 ")" 5 9 false; mkTok 12 "char[" 5 11 false; mkTok 30 "007" 5 17 false; mkTok 13 "]" 5 20 false; mkTok 42 "u128" 5 21 false; mkTok 43 "`// not a comment`" 5 26 false; mkTok 40 "," 5 45 false; mkTok 5 "@calculatedFrom(" 5 47 false; mkTok 31 (string_of_bytes [34; 195; 169; 116; 195; 169; 34]%N) 5 64 false; mkTok 6 ")" 5 69 false; mkTok 12 "char[" 5 71 false; mkTok 30 "4294967296" 5 77 false; mkTok 13 "]" 5 88 false; mkTok 42 "i8i8" 5 90 false; mkTok 5 "@calculatedFrom(" 6 0 false; mkTok 31 (string_of_bytes [34; 230; 182; 136; 230; 129; 175; 34]%N) 6 17 false; mkTok 6 ")" 6 22 false; mkTok 40 "," 7 0 false; mkTok 14 "zchar[" 8 0 false; mkTok 30 "1" 8 7 false; mkTok 13 "]" 8 8 false; mkTok 42 "repeatCount" 9 4 false; mkTok 40 "," 9 16 false; mkTok 3 "}" 9 18 false; mkTok 35 "packet" 9 20 false; mkTok 42 "body" 9 27 false; mkTok 2 "{" 9 32 false; mkTok 22 "u32" 9 33 false; mkTok 42 "A" 9 37 false; mkTok 40 "," 9 40 false; mkTok 7 "@lengthOf(" 9 42 false; mkTok 42 "trueish" 9 52 false; mkTok 6 ")" 10 0 false; mkTok 7 "@lengthOf(" 10 1 false; mkTok 42 "u8x" 11 4 false; mkTok 6 ")" 12 0 false; mkTok 32 "@rightPad" 12 2 false; mkTok 8 "(" 12 12 false; mkTok 33 "'0'" 12 14 false; mkTok 6 ")" 12 18 false; mkTok 42 "Foo" 12 19 false; mkTok 5 "@calculatedFrom(" 12 23 false; mkTok 31 (string_of_bytes [34; 97; 9; 98; 34]%N) 12 40 false; mkTok 6 ")" 12 45 false; mkTok 40 "," 12 47 false; mkTok 12 "char[" 13 0 false; mkTok 30 "007" 13 5 false; mkTok 13 "]" 13 9 false; mkTok 42 "charz" 13 11 false; mkTok 43 (string_of_bytes [96; 230; 182; 136; 230; 129; 175; 231; 177; 187; 229; 158; 139; 96]%N) 13 17 false; mkTok 40 "," 13 23 false; mkTok 7 "@lengthOf(" 13 24 false; mkTok 42 "int" 14 0 false; mkTok 6 ")" 14 3 false; mkTok 42 "packetx" 15 0 false; mkTok 7 "@lengthOf(" 15 8 false; mkTok 42 "rootA" 15 19 false; mkTok 6 ")" 16 4 false; mkTok 43 "`u8 x,`" 16 6 false; mkTok 40 "," 17 0 false; mkTok 32 "@rightPad" 17 2 false; mkTok 8 "(" 17 12 false; mkTok 33 "'\x00'" 17 14 false; mkTok 6 ")" 17 20 false; mkTok 12 "char[" 17 22 false; mkTok 44 "/// triple" 18 0 true; mkTok 44 "// trailing space " 19 0 true; mkTok 30 "255" 20 0 false; mkTok 13 "]" 20 3 false; mkTok 44 "/// triple" 20 5 true; mkTok 42 "repeatCount" 21 0 false; mkTok 43 (string_of_bytes [96; 108; 105; 110; 101; 49; 10; 108; 105; 110; 101; 50; 96]%N) 21 11 false; mkTok 40 "," 22 6 false; mkTok 28 "f32" 23 0 false; mkTok 42 "trueish" 23 4 false; mkTok 40 "," 24 4 false; mkTok 32 "@leftPad" 25 4 false; mkTok 8 "(" 25 13 false; mkTok 33 "' '" 25 15 false; mkTok 6 ")" 25 19 false; mkTok 44 "// `tick` ""quote"" 'q'" 25 20 true; mkTok 7 "@lengthOf(" 26 0 false; mkTok 42 "MetaDataX" 27 4 false; mkTok 6 ")" 27 14 false; mkTok 7 "@lengthOf(" 28 0 false; mkTok 42 "leftPad" 28 11 false; mkTok 6 ")" 29 4 false; mkTok 44 "/// triple" 29 6 true; mkTok 42 "Pad" 30 0 false; mkTok 2 "{" 30 4 false; mkTok 38 "match" 30 5 false; mkTok 42 "Logon" 31 0 false; mkTok 17 "as" 31 6 false; mkTok 42 "i64_" 31 9 false; mkTok 2 "{" 31 14 false; mkTok 18 "[" 32 0 false; mkTok 30 "255" 32 1 false; mkTok 44 "// `tick` ""quote"" 'q'" 32 5 true; mkTok 40 "," 33 0 false; mkTok 31 """it's""" 34 0 false; mkTok 40 "," 34 7 false; mkTok 31 (string_of_bytes [34; 230; 182; 136; 230; 129; 175; 34]%N) 34 9 false; mkTok 40 "," 34 14 false; mkTok 31 """x y""" 34 15 false; mkTok 13 "]" 34 21 false; mkTok 39 ":" 34 23 false; mkTok 44 "// `tick` ""quote"" 'q'" 35 0 true; mkTok 44 "// `tick` ""quote"" 'q'" 36 0 true; mkTok 42 "pack" 37 0 false; mkTok 40 "," 37 5 false; mkTok 18 "[" 37 7 false; mkTok 30 "10" 37 9 false; mkTok 40 "," 37 12 false; mkTok 44 "//x" 38 4 true; mkTok 31 """a\""b""" 39 4 false; mkTok 40 "," 39 11 false; mkTok 31 """x y""" 39 14 false; mkTok 40 "," 39 20 false; mkTok 44 "// packet A { u8 x, }" 40 0 true; mkTok 44 (string_of_bytes [47; 47; 9; 116]%N) 41 0 true; mkTok 31 (string_of_bytes [34; 92; 195; 169; 34]%N) 42 0 false; mkTok 40 "," 43 0 false; mkTok 30 "0" 43 1 false; mkTok 40 "," 43 2 false; mkTok 44 (string_of_bytes [47; 47; 32; 230; 179; 168; 233; 135; 138]%N) 44 4 true; mkTok 30 "10" 45 4 false; mkTok 40 "," 45 7 false; mkTok 30 "0" 45 9 false; mkTok 40 "," 45 10 false; mkTok 30 "255" 46 0 false; mkTok 13 "]" 46 4 false; mkTok 39 ":" 46 6 false; mkTok 42 "charz" 46 8 false; mkTok 30 "0" 46 14 false; mkTok 39 ":" 47 0 false; mkTok 42 "string_" 47 2 false; mkTok 40 "," 47 10 false; mkTok 18 "[" 47 12 false; mkTok 31 """x y""" 47 13 false; mkTok 40 "," 47 19 false; mkTok 30 "1" 48 0 false; mkTok 13 "]" 48 1 false; mkTok 39 ":" 48 2 false; mkTok 42 "asx" 48 4 false; mkTok 31 (string_of_bytes [34; 97; 9; 98; 34]%N) 48 7 false; mkTok 39 ":" 48 12 false; mkTok 42 "asx" 48 14 false; mkTok 40 "," 48 18 false; mkTok 31 (string_of_bytes [34; 97; 9; 98; 34]%N) 49 4 false; mkTok 44 (string_of_bytes [47; 47; 32; 230; 179; 168; 233; 135; 138]%N) 49 10 true; mkTok 39 ":" 50 0 false; mkTok 42 "Header" 50 1 false; mkTok 40 "," 50 8 false; mkTok 3 "}" 50 10 false; mkTok 40 "," 50 12 false; mkTok 3 "}" 50 14 false; mkTok 40 "," 50 16 false; mkTok 3 "}" 50 18 false; mkTok 35 "packet" 50 20 false; mkTok 44 "// 50% %s" 50 26 true; mkTok 42 "A" 51 0 false; mkTok 2 "{" 52 0 false; mkTok 3 "}" 52 2 false; mkTok 1 "options" 52 3 false; mkTok 2 "{" 52 11 false; mkTok 42 "len" 53 4 false; mkTok 4 "=" 53 8 false; mkTok 10 "true" 54 0 false; mkTok 41 ";" 54 5 false; mkTok 42 "f32a" 54 6 false; mkTok 4 "=" 54 11 false; mkTok 33 "'0'" 54 12 false; mkTok 42 "o" 54 16 false; mkTok 4 "=" 55 0 false; mkTok 12 "char[" 55 2 false; mkTok 30 "7" 55 7 false; mkTok 13 "]" 55 9 false; mkTok 41 ";" 56 0 false; mkTok 42 "body" 56 3 false; mkTok 4 "=" 56 8 false; mkTok 33 "' '" 57 4 false; mkTok 42 "o" 57 8 false; mkTok 4 "=" 58 4 false; mkTok 30 "3" 58 6 false; mkTok 3 "}" 58 9 false; mkTok 35 "packet" 58 11 false; mkTok 42 "As" 58 18 false; mkTok 2 "{" 58 22 false; mkTok 9 "@tag(" 59 0 false; mkTok 30 "007" 59 6 false; mkTok 6 ")" 59 10 false; mkTok 32 "@rightPad" 59 12 false; mkTok 8 "(" 59 23 false; mkTok 33 "'\x00'" 59 24 false; mkTok 6 ")" 60 0 false; mkTok 32 "@rightPad" 61 4 false; mkTok 8 "(" 61 14 false; mkTok 33 "' '" 61 15 false; mkTok 6 ")" 61 19 false; mkTok 38 "match" 61 21 false; mkTok 42 "roots" 61 27 false; mkTok 44 "// `tick` ""quote"" 'q'" 61 32 true; mkTok 17 "as" 62 0 false; mkTok 42 "_x" 62 3 false; mkTok 2 "{" 62 5 false; mkTok 30 "0123456789" 62 7 false; mkTok 39 ":" 62 18 false; mkTok 42 "string_" 62 20 false; mkTok 40 "," 62 28 false; mkTok 18 "[" 63 0 false; mkTok 31 (string_of_bytes [34; 230; 182; 136; 230; 129; 175; 34]%N) 63 2 false; mkTok 40 "," 63 7 false; mkTok 31 """1""" 63 9 false; mkTok 40 "," 63 13 false; mkTok 31 (string_of_bytes [34; 97; 9; 98; 34]%N) 64 0 false; mkTok 40 "," 64 6 false; mkTok 30 "3" 64 8 false; mkTok 40 "," 65 4 false; mkTok 31 """x y""" 65 6 false; mkTok 40 "," 66 4 false; mkTok 30 "00" 67 0 false; mkTok 40 "," 67 3 false; mkTok 30 "10" 67 5 false; mkTok 40 "," 67 8 false; mkTok 31 (string_of_bytes [34; 92; 195; 169; 34]%N) 67 10 false; mkTok 44 "// c" 68 0 true; mkTok 44 "// `tick` ""quote"" 'q'" 69 0 true; mkTok 13 "]" 70 0 false; mkTok 39 ":" 70 2 false; mkTok 42 "Pad" 70 3 false; mkTok 30 "65535" 71 0 false; mkTok 39 ":" 71 6 false; mkTok 42 "x" 71 8 false; mkTok 30 "7" 71 10 false; mkTok 39 ":" 71 12 false; mkTok 42 "x_y_z" 71 14 false; mkTok 30 "3" 71 20 false; mkTok 39 ":" 71 22 false; mkTok 42 "charz" 72 0 false; mkTok 40 "," 72 6 false; mkTok 3 "}" 73 4 false; mkTok 40 "," 74 0 false; mkTok 32 "@rightPad" 75 0 false; mkTok 8 "(" 75 10 false; mkTok 33 "' '" 75 12 false; mkTok 6 ")" 75 16 false; mkTok 36 "repeat" 75 18 false; mkTok 29 "f64" 75 25 false; mkTok 44 "//" 75 29 true; mkTok 42 "u128" 76 0 false; mkTok 40 "," 76 5 false; mkTok 24 "i8" 76 6 false; mkTok 42 "calculatedFrom" 76 9 false; mkTok 44 "// @lengthOf(" 76 23 true; mkTok 5 "@calculatedFrom(" 77 0 false; mkTok 31 """it's""" 77 17 false; mkTok 6 ")" 77 24 false; mkTok 40 "," 77 26 false; mkTok 9 "@tag(" 77 28 false; mkTok 30 "0" 77 34 false; mkTok 44 "/// triple" 78 4 true; mkTok 6 ")" 79 4 false; mkTok 36 "repeat" 80 4 false; mkTok 44 "//" 81 0 true; mkTok 44 "// 50% %s" 82 0 true; mkTok 14 "zchar[" 83 0 false; mkTok 30 "65535" 83 6 false; mkTok 13 "]" 84 4 false; mkTok 42 "lengthOf" 84 6 false; mkTok 43 (string_of_bytes [96; 195; 169; 96]%N) 84 15 false; mkTok 40 "," 84 19 false; mkTok 42 "asx" 85 0 false; mkTok 2 "{" 86 0 false; mkTok 42 "msg_type" 86 1 false; mkTok 42 "f32a" 86 10 false; mkTok 43 "`a\`" 87 0 false; mkTok 40 "," 87 5 false; mkTok 3 "}" 88 0 false; mkTok 40 "," 88 2 false; mkTok 7 "@lengthOf(" 89 0 false; mkTok 42 "A" 89 11 false; mkTok 6 ")" 89 12 false; mkTok 32 "@rightPad" 89 14 false; mkTok 8 "(" 89 24 false; mkTok 6 ")" 89 26 false; mkTok 5 "@calculatedFrom(" 90 0 false; mkTok 31 """packet""" 91 0 false; mkTok 6 ")" 91 8 false; mkTok 19 "char" 92 0 false; mkTok 42 "Logon" 92 5 false; mkTok 5 "@calculatedFrom(" 92 11 false; mkTok 31 (string_of_bytes [34; 240; 159; 152; 128; 34]%N) 92 28 false; mkTok 6 ")" 92 32 false; mkTok 40 "," 92 34 false; mkTok 7 "@lengthOf(" 92 36 false; mkTok 42 "f32a" 92 47 false; mkTok 44 "// 50% %s" 92 51 true; mkTok 6 ")" 93 0 false; mkTok 14 "zchar[" 93 2 false; mkTok 30 "1" 94 0 false; mkTok 13 "]" 95 4 false; mkTok 42 "i8i8" 95 5 false; mkTok 43 "`it's`" 95 9 false; mkTok 40 "," 95 15 false; mkTok 44 (string_of_bytes [47; 47; 9; 116]%N) 95 17 true; mkTok 21 "u16" 96 0 false; mkTok 42 "As" 96 4 false; mkTok 5 "@calculatedFrom(" 96 6 false; mkTok 31 """packet""" 96 23 false; mkTok 6 ")" 96 32 false; mkTok 43 (string_of_bytes [96; 10; 96]%N) 96 35 false; mkTok 40 "," 97 2 false; mkTok 3 "}" 97 4 false; mkTok 0 "<EOF>" 98 0 false] (mkPacket (mkPtok 35 "packet" 1 0 0) (Some (mkPtok 3 "}" 97 4 317)) [(DPacket (mkPacketDef (mkSpan (mkPtok 35 "packet" 1 0 0) (mkPtok 3 "}" 9 18 28)) None (mkPtok 35 "packet" 1 0 0) (mkPtok 42 "Foo" 2 0 1) (mkPtok 2 "{" 3 0 2) [(mkFieldWithAttr (mkSpan (mkPtok 7 "@lengthOf(" 4 0 3) (mkPtok 40 "," 5 45 11)) [(FALengthOf (mkSpan (mkPtok 7 "@lengthOf(" 4 0 3) (mkPtok 6 ")" 5 9 5)) (mkLengthOf (mkSpan (mkPtok 7 "@lengthOf(" 4 0 3) (mkPtok 6 ")" 5 9 5)) (mkPtok 7 "@lengthOf(" 4 0 3) (mkPtok 42 "u128" 5 4 4) (mkPtok 6 ")" 5 9 5)))] (MetaField (mkSpan (mkPtok 12 "char[" 5 11 6) (mkPtok 40 "," 5 45 11)) None (mkMetaDecl (mkSpan (mkPtok 12 "char[" 5 11 6) (mkPtok 40 "," 5 45 11)) (TyFixed (mkSpan (mkPtok 12 "char[" 5 11 6) (mkPtok 13 "]" 5 20 8)) (mkFixedString (mkSpan (mkPtok 12 "char[" 5 11 6) (mkPtok 13 "]" 5 20 8)) (mkPtok 12 "char[" 5 11 6) (mkPtok 30 "007" 5 17 7) (mkPtok 13 "]" 5 20 8))) (mkPtok 42 "u128" 5 21 9) (Some (mkPtok 43 "`// not a comment`" 5 26 10)) (mkPtok 40 "," 5 45 11)))); (mkFieldWithAttr (mkSpan (mkPtok 5 "@calculatedFrom(" 5 47 12) (mkPtok 40 "," 7 0 22)) [(FACalculatedFrom (mkSpan (mkPtok 5 "@calculatedFrom(" 5 47 12) (mkPtok 6 ")" 5 69 14)) (mkCalculatedFrom (mkSpan (mkPtok 5 "@calculatedFrom(" 5 47 12) (mkPtok 6 ")" 5 69 14)) (mkPtok 5 "@calculatedFrom(" 5 47 12) (mkPtok 31 (string_of_bytes [34; 195; 169; 116; 195; 169; 34]%N) 5 64 13) (mkPtok 6 ")" 5 69 14)))] (CheckSumField (mkSpan (mkPtok 12 "char[" 5 71 15) (mkPtok 40 "," 7 0 22)) (mkChecksumFieldDecl (mkSpan (mkPtok 12 "char[" 5 71 15) (mkPtok 40 "," 7 0 22)) (Some (TyFixed (mkSpan (mkPtok 12 "char[" 5 71 15) (mkPtok 13 "]" 5 88 17)) (mkFixedString (mkSpan (mkPtok 12 "char[" 5 71 15) (mkPtok 13 "]" 5 88 17)) (mkPtok 12 "char[" 5 71 15) (mkPtok 30 "4294967296" 5 77 16) (mkPtok 13 "]" 5 88 17)))) (mkPtok 42 "i8i8" 5 90 18) (mkCalculatedFrom (mkSpan (mkPtok 5 "@calculatedFrom(" 6 0 19) (mkPtok 6 ")" 6 22 21)) (mkPtok 5 "@calculatedFrom(" 6 0 19) (mkPtok 31 (string_of_bytes [34; 230; 182; 136; 230; 129; 175; 34]%N) 6 17 20) (mkPtok 6 ")" 6 22 21)) None (mkPtok 40 "," 7 0 22)))); (mkFieldWithAttr (mkSpan (mkPtok 14 "zchar[" 8 0 23) (mkPtok 40 "," 9 16 27)) [] (MetaField (mkSpan (mkPtok 14 "zchar[" 8 0 23) (mkPtok 40 "," 9 16 27)) None (mkMetaDecl (mkSpan (mkPtok 14 "zchar[" 8 0 23) (mkPtok 40 "," 9 16 27)) (TyFixed (mkSpan (mkPtok 14 "zchar[" 8 0 23) (mkPtok 13 "]" 8 8 25)) (mkFixedString (mkSpan (mkPtok 14 "zchar[" 8 0 23) (mkPtok 13 "]" 8 8 25)) (mkPtok 14 "zchar[" 8 0 23) (mkPtok 30 "1" 8 7 24) (mkPtok 13 "]" 8 8 25))) (mkPtok 42 "repeatCount" 9 4 26) None (mkPtok 40 "," 9 16 27))))] (mkPtok 3 "}" 9 18 28))); (DPacket (mkPacketDef (mkSpan (mkPtok 35 "packet" 9 20 29) (mkPtok 3 "}" 50 18 162)) None (mkPtok 35 "packet" 9 20 29) (mkPtok 42 "body" 9 27 30) (mkPtok 2 "{" 9 32 31) [(mkFieldWithAttr (mkSpan (mkPtok 22 "u32" 9 33 32) (mkPtok 40 "," 9 40 34)) [] (MetaField (mkSpan (mkPtok 22 "u32" 9 33 32) (mkPtok 40 "," 9 40 34)) None (mkMetaDecl (mkSpan (mkPtok 22 "u32" 9 33 32) (mkPtok 40 "," 9 40 34)) (TyBasic (mkSpan (mkPtok 22 "u32" 9 33 32) (mkPtok 22 "u32" 9 33 32)) (mkBasicType (mkSpan (mkPtok 22 "u32" 9 33 32) (mkPtok 22 "u32" 9 33 32)) (mkPtok 22 "u32" 9 33 32))) (mkPtok 42 "A" 9 37 33) None (mkPtok 40 "," 9 40 34)))); (mkFieldWithAttr (mkSpan (mkPtok 7 "@lengthOf(" 9 42 35) (mkPtok 40 "," 12 47 49)) [(FALengthOf (mkSpan (mkPtok 7 "@lengthOf(" 9 42 35) (mkPtok 6 ")" 10 0 37)) (mkLengthOf (mkSpan (mkPtok 7 "@lengthOf(" 9 42 35) (mkPtok 6 ")" 10 0 37)) (mkPtok 7 "@lengthOf(" 9 42 35) (mkPtok 42 "trueish" 9 52 36) (mkPtok 6 ")" 10 0 37))); (FALengthOf (mkSpan (mkPtok 7 "@lengthOf(" 10 1 38) (mkPtok 6 ")" 12 0 40)) (mkLengthOf (mkSpan (mkPtok 7 "@lengthOf(" 10 1 38) (mkPtok 6 ")" 12 0 40)) (mkPtok 7 "@lengthOf(" 10 1 38) (mkPtok 42 "u8x" 11 4 39) (mkPtok 6 ")" 12 0 40))); (FAPadding (mkSpan (mkPtok 32 "@rightPad" 12 2 41) (mkPtok 6 ")" 12 18 44)) (mkPaddingAttr (mkSpan (mkPtok 32 "@rightPad" 12 2 41) (mkPtok 6 ")" 12 18 44)) (mkPtok 32 "@rightPad" 12 2 41) (mkPtok 8 "(" 12 12 42) (Some (mkPtok 33 "'0'" 12 14 43)) (mkPtok 6 ")" 12 18 44)))] (CheckSumField (mkSpan (mkPtok 42 "Foo" 12 19 45) (mkPtok 40 "," 12 47 49)) (mkChecksumFieldDecl (mkSpan (mkPtok 42 "Foo" 12 19 45) (mkPtok 40 "," 12 47 49)) None (mkPtok 42 "Foo" 12 19 45) (mkCalculatedFrom (mkSpan (mkPtok 5 "@calculatedFrom(" 12 23 46) (mkPtok 6 ")" 12 45 48)) (mkPtok 5 "@calculatedFrom(" 12 23 46) (mkPtok 31 (string_of_bytes [34; 97; 9; 98; 34]%N) 12 40 47) (mkPtok 6 ")" 12 45 48)) None (mkPtok 40 "," 12 47 49)))); (mkFieldWithAttr (mkSpan (mkPtok 12 "char[" 13 0 50) (mkPtok 40 "," 13 23 55)) [] (MetaField (mkSpan (mkPtok 12 "char[" 13 0 50) (mkPtok 40 "," 13 23 55)) None (mkMetaDecl (mkSpan (mkPtok 12 "char[" 13 0 50) (mkPtok 40 "," 13 23 55)) (TyFixed (mkSpan (mkPtok 12 "char[" 13 0 50) (mkPtok 13 "]" 13 9 52)) (mkFixedString (mkSpan (mkPtok 12 "char[" 13 0 50) (mkPtok 13 "]" 13 9 52)) (mkPtok 12 "char[" 13 0 50) (mkPtok 30 "007" 13 5 51) (mkPtok 13 "]" 13 9 52))) (mkPtok 42 "charz" 13 11 53) (Some (mkPtok 43 (string_of_bytes [96; 230; 182; 136; 230; 129; 175; 231; 177; 187; 229; 158; 139; 96]%N) 13 17 54)) (mkPtok 40 "," 13 23 55)))); (mkFieldWithAttr (mkSpan (mkPtok 7 "@lengthOf(" 13 24 56) (mkPtok 40 "," 17 0 64)) [(FALengthOf (mkSpan (mkPtok 7 "@lengthOf(" 13 24 56) (mkPtok 6 ")" 14 3 58)) (mkLengthOf (mkSpan (mkPtok 7 "@lengthOf(" 13 24 56) (mkPtok 6 ")" 14 3 58)) (mkPtok 7 "@lengthOf(" 13 24 56) (mkPtok 42 "int" 14 0 57) (mkPtok 6 ")" 14 3 58)))] (LengthField (mkSpan (mkPtok 42 "packetx" 15 0 59) (mkPtok 40 "," 17 0 64)) (mkLengthFieldDecl (mkSpan (mkPtok 42 "packetx" 15 0 59) (mkPtok 40 "," 17 0 64)) None (mkPtok 42 "packetx" 15 0 59) (mkLengthOf (mkSpan (mkPtok 7 "@lengthOf(" 15 8 60) (mkPtok 6 ")" 16 4 62)) (mkPtok 7 "@lengthOf(" 15 8 60) (mkPtok 42 "rootA" 15 19 61) (mkPtok 6 ")" 16 4 62)) (Some (mkPtok 43 "`u8 x,`" 16 6 63)) (mkPtok 40 "," 17 0 64)))); (mkFieldWithAttr (mkSpan (mkPtok 32 "@rightPad" 17 2 65) (mkPtok 40 "," 22 6 77)) [(FAPadding (mkSpan (mkPtok 32 "@rightPad" 17 2 65) (mkPtok 6 ")" 17 20 68)) (mkPaddingAttr (mkSpan (mkPtok 32 "@rightPad" 17 2 65) (mkPtok 6 ")" 17 20 68)) (mkPtok 32 "@rightPad" 17 2 65) (mkPtok 8 "(" 17 12 66) (Some (mkPtok 33 "'\x00'" 17 14 67)) (mkPtok 6 ")" 17 20 68)))] (MetaField (mkSpan (mkPtok 12 "char[" 17 22 69) (mkPtok 40 "," 22 6 77)) None (mkMetaDecl (mkSpan (mkPtok 12 "char[" 17 22 69) (mkPtok 40 "," 22 6 77)) (TyFixed (mkSpan (mkPtok 12 "char[" 17 22 69) (mkPtok 13 "]" 20 3 73)) (mkFixedString (mkSpan (mkPtok 12 "char[" 17 22 69) (mkPtok 13 "]" 20 3 73)) (mkPtok 12 "char[" 17 22 69) (mkPtok 30 "255" 20 0 72) (mkPtok 13 "]" 20 3 73))) (mkPtok 42 "repeatCount" 21 0 75) (Some (mkPtok 43 (string_of_bytes [96; 108; 105; 110; 101; 49; 10; 108; 105; 110; 101; 50; 96]%N) 21 11 76)) (mkPtok 40 "," 22 6 77)))); (mkFieldWithAttr (mkSpan (mkPtok 28 "f32" 23 0 78) (mkPtok 40 "," 24 4 80)) [] (MetaField (mkSpan (mkPtok 28 "f32" 23 0 78) (mkPtok 40 "," 24 4 80)) None (mkMetaDecl (mkSpan (mkPtok 28 "f32" 23 0 78) (mkPtok 40 "," 24 4 80)) (TyBasic (mkSpan (mkPtok 28 "f32" 23 0 78) (mkPtok 28 "f32" 23 0 78)) (mkBasicType (mkSpan (mkPtok 28 "f32" 23 0 78) (mkPtok 28 "f32" 23 0 78)) (mkPtok 28 "f32" 23 0 78))) (mkPtok 42 "trueish" 23 4 79) None (mkPtok 40 "," 24 4 80)))); (mkFieldWithAttr (mkSpan (mkPtok 32 "@leftPad" 25 4 81) (mkPtok 40 "," 50 16 161)) [(FAPadding (mkSpan (mkPtok 32 "@leftPad" 25 4 81) (mkPtok 6 ")" 25 19 84)) (mkPaddingAttr (mkSpan (mkPtok 32 "@leftPad" 25 4 81) (mkPtok 6 ")" 25 19 84)) (mkPtok 32 "@leftPad" 25 4 81) (mkPtok 8 "(" 25 13 82) (Some (mkPtok 33 "' '" 25 15 83)) (mkPtok 6 ")" 25 19 84))); (FALengthOf (mkSpan (mkPtok 7 "@lengthOf(" 26 0 86) (mkPtok 6 ")" 27 14 88)) (mkLengthOf (mkSpan (mkPtok 7 "@lengthOf(" 26 0 86) (mkPtok 6 ")" 27 14 88)) (mkPtok 7 "@lengthOf(" 26 0 86) (mkPtok 42 "MetaDataX" 27 4 87) (mkPtok 6 ")" 27 14 88))); (FALengthOf (mkSpan (mkPtok 7 "@lengthOf(" 28 0 89) (mkPtok 6 ")" 29 4 91)) (mkLengthOf (mkSpan (mkPtok 7 "@lengthOf(" 28 0 89) (mkPtok 6 ")" 29 4 91)) (mkPtok 7 "@lengthOf(" 28 0 89) (mkPtok 42 "leftPad" 28 11 90) (mkPtok 6 ")" 29 4 91)))] (InerObjectField (mkSpan (mkPtok 42 "Pad" 30 0 93) (mkPtok 40 "," 50 16 161)) None (InerObjectDecl (mkSpan (mkPtok 42 "Pad" 30 0 93) (mkPtok 3 "}" 50 14 160)) (mkPtok 42 "Pad" 30 0 93) (mkPtok 2 "{" 30 4 94) [(MatchField (mkSpan (mkPtok 38 "match" 30 5 95) (mkPtok 40 "," 50 12 159)) (mkMatchFieldDecl (mkSpan (mkPtok 38 "match" 30 5 95) (mkPtok 3 "}" 50 10 158)) (mkPtok 38 "match" 30 5 95) (mkPtok 42 "Logon" 31 0 96) (mkPtok 17 "as" 31 6 97) (mkPtok 42 "i64_" 31 9 98) (mkPtok 2 "{" 31 14 99) [(mkMatchPair (mkSpan (mkPtok 18 "[" 32 0 100) (mkPtok 40 "," 37 5 114)) (MKList (mkKeyList (mkSpan (mkPtok 18 "[" 32 0 100) (mkPtok 13 "]" 34 21 109)) (mkPtok 18 "[" 32 0 100) (mkPtok 30 "255" 32 1 101) [((mkPtok 40 "," 33 0 103), (mkPtok 31 """it's""" 34 0 104)); ((mkPtok 40 "," 34 7 105), (mkPtok 31 (string_of_bytes [34; 230; 182; 136; 230; 129; 175; 34]%N) 34 9 106)); ((mkPtok 40 "," 34 14 107), (mkPtok 31 """x y""" 34 15 108))] (mkPtok 13 "]" 34 21 109))) (mkPtok 39 ":" 34 23 110) (mkPtok 42 "pack" 37 0 113) (Some (mkPtok 40 "," 37 5 114))); (mkMatchPair (mkSpan (mkPtok 18 "[" 37 7 115) (mkPtok 42 "charz" 46 8 137)) (MKList (mkKeyList (mkSpan (mkPtok 18 "[" 37 7 115) (mkPtok 13 "]" 46 4 135)) (mkPtok 18 "[" 37 7 115) (mkPtok 30 "10" 37 9 116) [((mkPtok 40 "," 37 12 117), (mkPtok 31 """a\""b""" 39 4 119)); ((mkPtok 40 "," 39 11 120), (mkPtok 31 """x y""" 39 14 121)); ((mkPtok 40 "," 39 20 122), (mkPtok 31 (string_of_bytes [34; 92; 195; 169; 34]%N) 42 0 125)); ((mkPtok 40 "," 43 0 126), (mkPtok 30 "0" 43 1 127)); ((mkPtok 40 "," 43 2 128), (mkPtok 30 "10" 45 4 130)); ((mkPtok 40 "," 45 7 131), (mkPtok 30 "0" 45 9 132)); ((mkPtok 40 "," 45 10 133), (mkPtok 30 "255" 46 0 134))] (mkPtok 13 "]" 46 4 135))) (mkPtok 39 ":" 46 6 136) (mkPtok 42 "charz" 46 8 137) None); (mkMatchPair (mkSpan (mkPtok 30 "0" 46 14 138) (mkPtok 40 "," 47 10 141)) (MKDigits (mkPtok 30 "0" 46 14 138)) (mkPtok 39 ":" 47 0 139) (mkPtok 42 "string_" 47 2 140) (Some (mkPtok 40 "," 47 10 141))); (mkMatchPair (mkSpan (mkPtok 18 "[" 47 12 142) (mkPtok 42 "asx" 48 4 148)) (MKList (mkKeyList (mkSpan (mkPtok 18 "[" 47 12 142) (mkPtok 13 "]" 48 1 146)) (mkPtok 18 "[" 47 12 142) (mkPtok 31 """x y""" 47 13 143) [((mkPtok 40 "," 47 19 144), (mkPtok 30 "1" 48 0 145))] (mkPtok 13 "]" 48 1 146))) (mkPtok 39 ":" 48 2 147) (mkPtok 42 "asx" 48 4 148) None); (mkMatchPair (mkSpan (mkPtok 31 (string_of_bytes [34; 97; 9; 98; 34]%N) 48 7 149) (mkPtok 40 "," 48 18 152)) (MKString (mkPtok 31 (string_of_bytes [34; 97; 9; 98; 34]%N) 48 7 149)) (mkPtok 39 ":" 48 12 150) (mkPtok 42 "asx" 48 14 151) (Some (mkPtok 40 "," 48 18 152))); (mkMatchPair (mkSpan (mkPtok 31 (string_of_bytes [34; 97; 9; 98; 34]%N) 49 4 153) (mkPtok 40 "," 50 8 157)) (MKString (mkPtok 31 (string_of_bytes [34; 97; 9; 98; 34]%N) 49 4 153)) (mkPtok 39 ":" 50 0 155) (mkPtok 42 "Header" 50 1 156) (Some (mkPtok 40 "," 50 8 157)))] (mkPtok 3 "}" 50 10 158)) (mkPtok 40 "," 50 12 159))] (mkPtok 3 "}" 50 14 160)) (mkPtok 40 "," 50 16 161)))] (mkPtok 3 "}" 50 18 162))); (DPacket (mkPacketDef (mkSpan (mkPtok 35 "packet" 50 20 163) (mkPtok 3 "}" 52 2 167)) None (mkPtok 35 "packet" 50 20 163) (mkPtok 42 "A" 51 0 165) (mkPtok 2 "{" 52 0 166) [] (mkPtok 3 "}" 52 2 167))); (DOption (mkOptionDef (mkSpan (mkPtok 1 "options" 52 3 168) (mkPtok 3 "}" 58 9 189)) (mkPtok 1 "options" 52 3 168) (mkPtok 2 "{" 52 11 169) [(mkOptionDecl (mkSpan (mkPtok 42 "len" 53 4 170) (mkPtok 41 ";" 54 5 173)) (mkPtok 42 "len" 53 4 170) (mkPtok 4 "=" 53 8 171) (VTrue (mkSpan (mkPtok 10 "true" 54 0 172) (mkPtok 10 "true" 54 0 172)) (mkPtok 10 "true" 54 0 172)) (Some (mkPtok 41 ";" 54 5 173))); (mkOptionDecl (mkSpan (mkPtok 42 "f32a" 54 6 174) (mkPtok 33 "'0'" 54 12 176)) (mkPtok 42 "f32a" 54 6 174) (mkPtok 4 "=" 54 11 175) (VPaddingChar (mkSpan (mkPtok 33 "'0'" 54 12 176) (mkPtok 33 "'0'" 54 12 176)) (mkPtok 33 "'0'" 54 12 176)) None); (mkOptionDecl (mkSpan (mkPtok 42 "o" 54 16 177) (mkPtok 41 ";" 56 0 182)) (mkPtok 42 "o" 54 16 177) (mkPtok 4 "=" 55 0 178) (VType (mkSpan (mkPtok 12 "char[" 55 2 179) (mkPtok 13 "]" 55 9 181)) (TyFixed (mkSpan (mkPtok 12 "char[" 55 2 179) (mkPtok 13 "]" 55 9 181)) (mkFixedString (mkSpan (mkPtok 12 "char[" 55 2 179) (mkPtok 13 "]" 55 9 181)) (mkPtok 12 "char[" 55 2 179) (mkPtok 30 "7" 55 7 180) (mkPtok 13 "]" 55 9 181)))) (Some (mkPtok 41 ";" 56 0 182))); (mkOptionDecl (mkSpan (mkPtok 42 "body" 56 3 183) (mkPtok 33 "' '" 57 4 185)) (mkPtok 42 "body" 56 3 183) (mkPtok 4 "=" 56 8 184) (VPaddingChar (mkSpan (mkPtok 33 "' '" 57 4 185) (mkPtok 33 "' '" 57 4 185)) (mkPtok 33 "' '" 57 4 185)) None); (mkOptionDecl (mkSpan (mkPtok 42 "o" 57 8 186) (mkPtok 30 "3" 58 6 188)) (mkPtok 42 "o" 57 8 186) (mkPtok 4 "=" 58 4 187) (VDigits (mkSpan (mkPtok 30 "3" 58 6 188) (mkPtok 30 "3" 58 6 188)) (mkPtok 30 "3" 58 6 188)) None)] (mkPtok 3 "}" 58 9 189))); (DPacket (mkPacketDef (mkSpan (mkPtok 35 "packet" 58 11 190) (mkPtok 3 "}" 97 4 317)) None (mkPtok 35 "packet" 58 11 190) (mkPtok 42 "As" 58 18 191) (mkPtok 2 "{" 58 22 192) [(mkFieldWithAttr (mkSpan (mkPtok 9 "@tag(" 59 0 193) (mkPtok 40 "," 74 0 246)) [(FATag (mkSpan (mkPtok 9 "@tag(" 59 0 193) (mkPtok 6 ")" 59 10 195)) (mkTagAttr (mkSpan (mkPtok 9 "@tag(" 59 0 193) (mkPtok 6 ")" 59 10 195)) (mkPtok 9 "@tag(" 59 0 193) (mkPtok 30 "007" 59 6 194) (mkPtok 6 ")" 59 10 195))); (FAPadding (mkSpan (mkPtok 32 "@rightPad" 59 12 196) (mkPtok 6 ")" 60 0 199)) (mkPaddingAttr (mkSpan (mkPtok 32 "@rightPad" 59 12 196) (mkPtok 6 ")" 60 0 199)) (mkPtok 32 "@rightPad" 59 12 196) (mkPtok 8 "(" 59 23 197) (Some (mkPtok 33 "'\x00'" 59 24 198)) (mkPtok 6 ")" 60 0 199))); (FAPadding (mkSpan (mkPtok 32 "@rightPad" 61 4 200) (mkPtok 6 ")" 61 19 203)) (mkPaddingAttr (mkSpan (mkPtok 32 "@rightPad" 61 4 200) (mkPtok 6 ")" 61 19 203)) (mkPtok 32 "@rightPad" 61 4 200) (mkPtok 8 "(" 61 14 201) (Some (mkPtok 33 "' '" 61 15 202)) (mkPtok 6 ")" 61 19 203)))] (MatchField (mkSpan (mkPtok 38 "match" 61 21 204) (mkPtok 40 "," 74 0 246)) (mkMatchFieldDecl (mkSpan (mkPtok 38 "match" 61 21 204) (mkPtok 3 "}" 73 4 245)) (mkPtok 38 "match" 61 21 204) (mkPtok 42 "roots" 61 27 205) (mkPtok 17 "as" 62 0 207) (mkPtok 42 "_x" 62 3 208) (mkPtok 2 "{" 62 5 209) [(mkMatchPair (mkSpan (mkPtok 30 "0123456789" 62 7 210) (mkPtok 40 "," 62 28 213)) (MKDigits (mkPtok 30 "0123456789" 62 7 210)) (mkPtok 39 ":" 62 18 211) (mkPtok 42 "string_" 62 20 212) (Some (mkPtok 40 "," 62 28 213))); (mkMatchPair (mkSpan (mkPtok 18 "[" 63 0 214) (mkPtok 42 "Pad" 70 3 234)) (MKList (mkKeyList (mkSpan (mkPtok 18 "[" 63 0 214) (mkPtok 13 "]" 70 0 232)) (mkPtok 18 "[" 63 0 214) (mkPtok 31 (string_of_bytes [34; 230; 182; 136; 230; 129; 175; 34]%N) 63 2 215) [((mkPtok 40 "," 63 7 216), (mkPtok 31 """1""" 63 9 217)); ((mkPtok 40 "," 63 13 218), (mkPtok 31 (string_of_bytes [34; 97; 9; 98; 34]%N) 64 0 219)); ((mkPtok 40 "," 64 6 220), (mkPtok 30 "3" 64 8 221)); ((mkPtok 40 "," 65 4 222), (mkPtok 31 """x y""" 65 6 223)); ((mkPtok 40 "," 66 4 224), (mkPtok 30 "00" 67 0 225)); ((mkPtok 40 "," 67 3 226), (mkPtok 30 "10" 67 5 227)); ((mkPtok 40 "," 67 8 228), (mkPtok 31 (string_of_bytes [34; 92; 195; 169; 34]%N) 67 10 229))] (mkPtok 13 "]" 70 0 232))) (mkPtok 39 ":" 70 2 233) (mkPtok 42 "Pad" 70 3 234) None); (mkMatchPair (mkSpan (mkPtok 30 "65535" 71 0 235) (mkPtok 42 "x" 71 8 237)) (MKDigits (mkPtok 30 "65535" 71 0 235)) (mkPtok 39 ":" 71 6 236) (mkPtok 42 "x" 71 8 237) None); (mkMatchPair (mkSpan (mkPtok 30 "7" 71 10 238) (mkPtok 42 "x_y_z" 71 14 240)) (MKDigits (mkPtok 30 "7" 71 10 238)) (mkPtok 39 ":" 71 12 239) (mkPtok 42 "x_y_z" 71 14 240) None); (mkMatchPair (mkSpan (mkPtok 30 "3" 71 20 241) (mkPtok 40 "," 72 6 244)) (MKDigits (mkPtok 30 "3" 71 20 241)) (mkPtok 39 ":" 71 22 242) (mkPtok 42 "charz" 72 0 243) (Some (mkPtok 40 "," 72 6 244)))] (mkPtok 3 "}" 73 4 245)) (mkPtok 40 "," 74 0 246))); (mkFieldWithAttr (mkSpan (mkPtok 32 "@rightPad" 75 0 247) (mkPtok 40 "," 76 5 255)) [(FAPadding (mkSpan (mkPtok 32 "@rightPad" 75 0 247) (mkPtok 6 ")" 75 16 250)) (mkPaddingAttr (mkSpan (mkPtok 32 "@rightPad" 75 0 247) (mkPtok 6 ")" 75 16 250)) (mkPtok 32 "@rightPad" 75 0 247) (mkPtok 8 "(" 75 10 248) (Some (mkPtok 33 "' '" 75 12 249)) (mkPtok 6 ")" 75 16 250)))] (MetaField (mkSpan (mkPtok 36 "repeat" 75 18 251) (mkPtok 40 "," 76 5 255)) (Some (mkPtok 36 "repeat" 75 18 251)) (mkMetaDecl (mkSpan (mkPtok 29 "f64" 75 25 252) (mkPtok 40 "," 76 5 255)) (TyBasic (mkSpan (mkPtok 29 "f64" 75 25 252) (mkPtok 29 "f64" 75 25 252)) (mkBasicType (mkSpan (mkPtok 29 "f64" 75 25 252) (mkPtok 29 "f64" 75 25 252)) (mkPtok 29 "f64" 75 25 252))) (mkPtok 42 "u128" 76 0 254) None (mkPtok 40 "," 76 5 255)))); (mkFieldWithAttr (mkSpan (mkPtok 24 "i8" 76 6 256) (mkPtok 40 "," 77 26 262)) [] (CheckSumField (mkSpan (mkPtok 24 "i8" 76 6 256) (mkPtok 40 "," 77 26 262)) (mkChecksumFieldDecl (mkSpan (mkPtok 24 "i8" 76 6 256) (mkPtok 40 "," 77 26 262)) (Some (TyBasic (mkSpan (mkPtok 24 "i8" 76 6 256) (mkPtok 24 "i8" 76 6 256)) (mkBasicType (mkSpan (mkPtok 24 "i8" 76 6 256) (mkPtok 24 "i8" 76 6 256)) (mkPtok 24 "i8" 76 6 256)))) (mkPtok 42 "calculatedFrom" 76 9 257) (mkCalculatedFrom (mkSpan (mkPtok 5 "@calculatedFrom(" 77 0 259) (mkPtok 6 ")" 77 24 261)) (mkPtok 5 "@calculatedFrom(" 77 0 259) (mkPtok 31 """it's""" 77 17 260) (mkPtok 6 ")" 77 24 261)) None (mkPtok 40 "," 77 26 262)))); (mkFieldWithAttr (mkSpan (mkPtok 9 "@tag(" 77 28 263) (mkPtok 40 "," 84 19 275)) [(FATag (mkSpan (mkPtok 9 "@tag(" 77 28 263) (mkPtok 6 ")" 79 4 266)) (mkTagAttr (mkSpan (mkPtok 9 "@tag(" 77 28 263) (mkPtok 6 ")" 79 4 266)) (mkPtok 9 "@tag(" 77 28 263) (mkPtok 30 "0" 77 34 264) (mkPtok 6 ")" 79 4 266)))] (MetaField (mkSpan (mkPtok 36 "repeat" 80 4 267) (mkPtok 40 "," 84 19 275)) (Some (mkPtok 36 "repeat" 80 4 267)) (mkMetaDecl (mkSpan (mkPtok 14 "zchar[" 83 0 270) (mkPtok 40 "," 84 19 275)) (TyFixed (mkSpan (mkPtok 14 "zchar[" 83 0 270) (mkPtok 13 "]" 84 4 272)) (mkFixedString (mkSpan (mkPtok 14 "zchar[" 83 0 270) (mkPtok 13 "]" 84 4 272)) (mkPtok 14 "zchar[" 83 0 270) (mkPtok 30 "65535" 83 6 271) (mkPtok 13 "]" 84 4 272))) (mkPtok 42 "lengthOf" 84 6 273) (Some (mkPtok 43 (string_of_bytes [96; 195; 169; 96]%N) 84 15 274)) (mkPtok 40 "," 84 19 275)))); (mkFieldWithAttr (mkSpan (mkPtok 42 "asx" 85 0 276) (mkPtok 40 "," 88 2 283)) [] (InerObjectField (mkSpan (mkPtok 42 "asx" 85 0 276) (mkPtok 40 "," 88 2 283)) None (InerObjectDecl (mkSpan (mkPtok 42 "asx" 85 0 276) (mkPtok 3 "}" 88 0 282)) (mkPtok 42 "asx" 85 0 276) (mkPtok 2 "{" 86 0 277) [(ObjectField (mkSpan (mkPtok 42 "msg_type" 86 1 278) (mkPtok 40 "," 87 5 281)) None (mkPtok 42 "msg_type" 86 1 278) (Some (mkPtok 42 "f32a" 86 10 279)) (Some (mkPtok 43 "`a\`" 87 0 280)) (mkPtok 40 "," 87 5 281))] (mkPtok 3 "}" 88 0 282)) (mkPtok 40 "," 88 2 283))); (mkFieldWithAttr (mkSpan (mkPtok 7 "@lengthOf(" 89 0 284) (mkPtok 40 "," 92 34 298)) [(FALengthOf (mkSpan (mkPtok 7 "@lengthOf(" 89 0 284) (mkPtok 6 ")" 89 12 286)) (mkLengthOf (mkSpan (mkPtok 7 "@lengthOf(" 89 0 284) (mkPtok 6 ")" 89 12 286)) (mkPtok 7 "@lengthOf(" 89 0 284) (mkPtok 42 "A" 89 11 285) (mkPtok 6 ")" 89 12 286))); (FAPadding (mkSpan (mkPtok 32 "@rightPad" 89 14 287) (mkPtok 6 ")" 89 26 289)) (mkPaddingAttr (mkSpan (mkPtok 32 "@rightPad" 89 14 287) (mkPtok 6 ")" 89 26 289)) (mkPtok 32 "@rightPad" 89 14 287) (mkPtok 8 "(" 89 24 288) None (mkPtok 6 ")" 89 26 289))); (FACalculatedFrom (mkSpan (mkPtok 5 "@calculatedFrom(" 90 0 290) (mkPtok 6 ")" 91 8 292)) (mkCalculatedFrom (mkSpan (mkPtok 5 "@calculatedFrom(" 90 0 290) (mkPtok 6 ")" 91 8 292)) (mkPtok 5 "@calculatedFrom(" 90 0 290) (mkPtok 31 """packet""" 91 0 291) (mkPtok 6 ")" 91 8 292)))] (CheckSumField (mkSpan (mkPtok 19 "char" 92 0 293) (mkPtok 40 "," 92 34 298)) (mkChecksumFieldDecl (mkSpan (mkPtok 19 "char" 92 0 293) (mkPtok 40 "," 92 34 298)) (Some (TyBasic (mkSpan (mkPtok 19 "char" 92 0 293) (mkPtok 19 "char" 92 0 293)) (mkBasicType (mkSpan (mkPtok 19 "char" 92 0 293) (mkPtok 19 "char" 92 0 293)) (mkPtok 19 "char" 92 0 293)))) (mkPtok 42 "Logon" 92 5 294) (mkCalculatedFrom (mkSpan (mkPtok 5 "@calculatedFrom(" 92 11 295) (mkPtok 6 ")" 92 32 297)) (mkPtok 5 "@calculatedFrom(" 92 11 295) (mkPtok 31 (string_of_bytes [34; 240; 159; 152; 128; 34]%N) 92 28 296) (mkPtok 6 ")" 92 32 297)) None (mkPtok 40 "," 92 34 298)))); (mkFieldWithAttr (mkSpan (mkPtok 7 "@lengthOf(" 92 36 299) (mkPtok 40 "," 95 15 308)) [(FALengthOf (mkSpan (mkPtok 7 "@lengthOf(" 92 36 299) (mkPtok 6 ")" 93 0 302)) (mkLengthOf (mkSpan (mkPtok 7 "@lengthOf(" 92 36 299) (mkPtok 6 ")" 93 0 302)) (mkPtok 7 "@lengthOf(" 92 36 299) (mkPtok 42 "f32a" 92 47 300) (mkPtok 6 ")" 93 0 302)))] (MetaField (mkSpan (mkPtok 14 "zchar[" 93 2 303) (mkPtok 40 "," 95 15 308)) None (mkMetaDecl (mkSpan (mkPtok 14 "zchar[" 93 2 303) (mkPtok 40 "," 95 15 308)) (TyFixed (mkSpan (mkPtok 14 "zchar[" 93 2 303) (mkPtok 13 "]" 95 4 305)) (mkFixedString (mkSpan (mkPtok 14 "zchar[" 93 2 303) (mkPtok 13 "]" 95 4 305)) (mkPtok 14 "zchar[" 93 2 303) (mkPtok 30 "1" 94 0 304) (mkPtok 13 "]" 95 4 305))) (mkPtok 42 "i8i8" 95 5 306) (Some (mkPtok 43 "`it's`" 95 9 307)) (mkPtok 40 "," 95 15 308)))); (mkFieldWithAttr (mkSpan (mkPtok 21 "u16" 96 0 310) (mkPtok 40 "," 97 2 316)) [] (CheckSumField (mkSpan (mkPtok 21 "u16" 96 0 310) (mkPtok 40 "," 97 2 316)) (mkChecksumFieldDecl (mkSpan (mkPtok 21 "u16" 96 0 310) (mkPtok 40 "," 97 2 316)) (Some (TyBasic (mkSpan (mkPtok 21 "u16" 96 0 310) (mkPtok 21 "u16" 96 0 310)) (mkBasicType (mkSpan (mkPtok 21 "u16" 96 0 310) (mkPtok 21 "u16" 96 0 310)) (mkPtok 21 "u16" 96 0 310)))) (mkPtok 42 "As" 96 4 311) (mkCalculatedFrom (mkSpan (mkPtok 5 "@calculatedFrom(" 96 6 312) (mkPtok 6 ")" 96 32 314)) (mkPtok 5 "@calculatedFrom(" 96 6 312) (mkPtok 31 """packet""" 96 23 313) (mkPtok 6 ")" 96 32 314)) (Some (mkPtok 43 (string_of_bytes [96; 10; 96]%N) 96 35 315)) (mkPtok 40 "," 97 2 316))))] (mkPtok 3 "}" 97 4 317)))])).
+Eval vm_compute in ("<<<M892>>>" ++ check (runes_of_ascii "options { stringy = ""a\""b"" ;	Foo
+=true
+; crc// 50% %s
+=
+true
+    } MetaData float{i16 options1 `100% of %d` // trailing space 
+,  As
 // packet A { u8 x, }
-// " ++ [27880; 37322]%N ++ runes_of_ascii "
-@lengthOf( Pad ) ``, }
-")).
-Eval vm_compute in ("<<<M924>>>" ++ check (runes_of_ascii "
-packet
-    zchar // " ++ [128512]%N ++ runes_of_ascii " emoji
-{ match Foo /// triple
-as pack {""abc"": falsey ,10 : _x , }
-,@tag(	255 )string
 // @lengthOf(
+Header`
+`, } root	packet crc {  char[
+    00 ]	i8i8
+    `u8 x,`,match body as f32a { 0 // packet A { u8 x, }
+: packetx
+, ""a\\"" :
+    a1 ,42 : crc , ""{,}""	: options1
+    , [
+""" ++ [28040; 24687]%N ++ runes_of_ascii """, 3//x
+, ""a\""b""
+] :options1
+    ,[00
+, 3,// a // b
+""" ++ [28040; 24687]%N ++ runes_of_ascii """ ] // packet A { u8 x, }
+: f32a ,	}, @lengthOf( crc ) @rightPad( ' ')
+@calculatedFrom(
+""packet""
+) body	`" ++ [233]%N ++ runes_of_ascii "`
+, // " ++ [128512]%N ++ runes_of_ascii " emoji
+@calculatedFrom(// packet A { u8 x, }
+""1"" )@lengthOf(	msg_type ) @tag(
+//	t
+//
+7 ) repeat zchar[3]  rootA
+, As @calculatedFrom(
+""{,}"" ) , char[] o	@lengthOf(//x
+float
+    //
+    ) `say ""hi""`//	t
+,
+    }options { }
+")).
+Eval vm_compute in ("<<<M924>>>" ++ check (runes_of_ascii "packet T { i64_ `say ""hi""` , match charz as /// triple
+repeatCount { ""{,}""
 // a // b
-len `line1
-line2` ,
-}  MetaData o {metadata
-A
-    , string
-stringy , string	Foo	`say ""hi""`	, repeatCount // " ++ [27880; 37322]%N ++ runes_of_ascii "
-matchKey ,	x //x
-u8x , // " ++ [27880; 37322]%N ++ runes_of_ascii "
-} packet
-    _x { @leftPad// @lengthOf(
-(	'\x00') @calculatedFrom(
-    ""packet""
-) repeat
-// trailing space 
-// c
-Foo
-Z9_ , @lengthOf( As ) uint64
-_x @lengthOf( pack )
-/// triple
-// a // b
-,@rightPad // " ++ [128512]%N ++ runes_of_ascii " emoji
-(
-    '0'
-)match A as uint8x
-{	[0
-,  ""\" ++ [233]%N ++ runes_of_ascii """]:Packet ,007	: MetaDataX // " ++ [128512]%N ++ runes_of_ascii " emoji
-, ""1""	: trueish, }
-,}
+// 50% %s
+:
+len ,//x
+[ // trailing space 
+""" ++ [128512]%N ++ runes_of_ascii """ ]  : matchKey ,4294967296  : Packet
+,
+255	:
+// " ++ [128512]%N ++ runes_of_ascii " emoji
+// " ++ [27880; 37322]%N ++ runes_of_ascii "
+x , 007
+    : body 10
+: body ,
+    /// triple
+    } ,
+    } MetaData Pad { float64 // 50% %s
+metadata, uint64 Z9_ , string o `doc` ,int32 float`a\`
+    // " ++ [27880; 37322]%N ++ runes_of_ascii "
+    , }
+
 ")).
 Eval vm_compute in ("<<<M956>>>" ++ check (runes_of_ascii "
-")).
-Eval vm_compute in ("<<<M988>>>" ++ check (runes_of_ascii "options//x
-{ } // @lengthOf(
-root packet trueish {f32
-Logon @calculatedFrom( ""`tick`"" ) `
-` ,zchar[  0123456789 ]As @calculatedFrom( ""a	b"" ) ,
-chars
-    , char[] u128@lengthOf(
-a1)
-    `
-`// a // b
-,
-    @tag( 255 )
-repeat asx
-    ,
-} MetaData
-    lengthOf //
-{_x tag , float32 zchar , } options {As	= i64 ;} MetaData len {}
-")).
-Eval vm_compute in ("<<<M1020>>>" ++ check (runes_of_ascii "MetaData
-    T
-//x
-// trailing space 
-{ char[]	metadata, } MetaData
-    a1
-{ charz
-float , i32 i8i8`say ""hi""` ,} packet pack {MetaDataX	, f64 calculatedFrom , zchar[3 ]
-    // a // b
-    T//
-@calculatedFrom(
-    """ ++ [233]%N ++ runes_of_ascii "t" ++ [233]%N ++ runes_of_ascii """) `doc` ,A {i16 charz,char[ //
-0123456789 ]crc `" ++ [28040; 24687; 31867; 22411]%N ++ runes_of_ascii "` , char[]
-string_ , } , // a // b
-}")).
-Eval vm_compute in ("<<<M1052>>>" ++ check (runes_of_ascii "packet
-MetaDataX {zchar[4294967296
-] o @calculatedFrom(
-""" ++ [233]%N ++ runes_of_ascii "t" ++ [233]%N ++ runes_of_ascii """
-// packet A { u8 x, }
-// `tick` ""quote"" 'q'
-) , @tag( 65535 ) @leftPad /// triple
-(' ' )uint16 pack , char[]
-charz  , zchar //
-metadata , match  i64_
-as asx { 0 :BodyLength , [
-""" ++ [28040; 24687]%N ++ runes_of_ascii """ ] :	options1 , ""x y"" :
-    matchKey ,""x y"": msg_type// " ++ [128512]%N ++ runes_of_ascii " emoji
-}, @calculatedFrom(
-""a\\"")match repeatCount as zchar { 007 :// a // b
-crc
-[
-""" ++ [233]%N ++ runes_of_ascii "t" ++ [233]%N ++ runes_of_ascii """
-    ,""" ++ [28040; 24687]%N ++ runes_of_ascii """ , ""it's"" ] : roots , } // a // b
-, char[ 3]falsey `say ""hi""` , @calculatedFrom( ""a	b"") calculatedFrom Header ,repeat
-    tag {stringy@calculatedFrom( ""\n""
-),
-match chars	as x_y_z { //	t
-42 :
-    repeatCount """ ++ [28040; 24687]%N ++ runes_of_ascii """	:pack
-, /// triple
-}
-    ,
-    char[ 3 ]x_y_z@lengthOf(//
-body
-) `two words` ,
-o { repeat zchar[ 00 ] matchKey
-    ,	repeat char[
-1 ]
-repeatCount  `it's` // " ++ [128512]%N ++ runes_of_ascii " emoji
-,} , } , }")).
-Eval vm_compute in ("<<<M1084>>>" ++ check (runes_of_ascii "root  packet
-    leftPad { int64 BodyLength `// not a comment` ,	@tag(0 ) @leftPad( ) @tag( 255
-    )
-repeat Header // @lengthOf(
-, } // c")).
-Eval vm_compute in ("<<<T1084>>>" ++ terms [mkTok 34 "root" 1 0 false; mkTok 35 "packet" 1 6 false; mkTok 42 "leftPad" 2 4 false; mkTok 2 "{" 2 12 false; mkTok 27 "int64" 2 14 false; mkTok 42 "BodyLength" 2 20 false; mkTok 43 "`// not a comment`" 2 31 false; mkTok 40 "," 2 50 false; mkTok 9 "@tag(" 2 52 false; mkTok 30 "0" 2 57 false; mkTok 6 ")" 2 59 false; mkTok 32 "@leftPad" 2 61 false; mkTok 8 "(" 2 69 false; mkTok 6 ")" 2 71 false; mkTok 9 "@tag(" 2 73 false; mkTok 30 "255" 2 79 false; mkTok 6 ")" 3 4 false; mkTok 36 "repeat" 4 0 false; mkTok 42 "Header" 4 7 false; mkTok 44 "// @lengthOf(" 4 14 true; mkTok 40 "," 5 0 false; mkTok 3 "}" 5 2 false; mkTok 44 "// c" 5 4 true; mkTok 0 "<EOF>" 5 8 false] (mkPacket (mkPtok 34 "root" 1 0 0) (Some (mkPtok 3 "}" 5 2 21)) [(DPacket (mkPacketDef (mkSpan (mkPtok 34 "root" 1 0 0) (mkPtok 3 "}" 5 2 21)) (Some (mkPtok 34 "root" 1 0 0)) (mkPtok 35 "packet" 1 6 1) (mkPtok 42 "leftPad" 2 4 2) (mkPtok 2 "{" 2 12 3) [(mkFieldWithAttr (mkSpan (mkPtok 27 "int64" 2 14 4) (mkPtok 40 "," 2 50 7)) [] (MetaField (mkSpan (mkPtok 27 "int64" 2 14 4) (mkPtok 40 "," 2 50 7)) None (mkMetaDecl (mkSpan (mkPtok 27 "int64" 2 14 4) (mkPtok 40 "," 2 50 7)) (TyBasic (mkSpan (mkPtok 27 "int64" 2 14 4) (mkPtok 27 "int64" 2 14 4)) (mkBasicType (mkSpan (mkPtok 27 "int64" 2 14 4) (mkPtok 27 "int64" 2 14 4)) (mkPtok 27 "int64" 2 14 4))) (mkPtok 42 "BodyLength" 2 20 5) (Some (mkPtok 43 "`// not a comment`" 2 31 6)) (mkPtok 40 "," 2 50 7)))); (mkFieldWithAttr (mkSpan (mkPtok 9 "@tag(" 2 52 8) (mkPtok 40 "," 5 0 20)) [(FATag (mkSpan (mkPtok 9 "@tag(" 2 52 8) (mkPtok 6 ")" 2 59 10)) (mkTagAttr (mkSpan (mkPtok 9 "@tag(" 2 52 8) (mkPtok 6 ")" 2 59 10)) (mkPtok 9 "@tag(" 2 52 8) (mkPtok 30 "0" 2 57 9) (mkPtok 6 ")" 2 59 10))); (FAPadding (mkSpan (mkPtok 32 "@leftPad" 2 61 11) (mkPtok 6 ")" 2 71 13)) (mkPaddingAttr (mkSpan (mkPtok 32 "@leftPad" 2 61 11) (mkPtok 6 ")" 2 71 13)) (mkPtok 32 "@leftPad" 2 61 11) (mkPtok 8 "(" 2 69 12) None (mkPtok 6 ")" 2 71 13))); (FATag (mkSpan (mkPtok 9 "@tag(" 2 73 14) (mkPtok 6 ")" 3 4 16)) (mkTagAttr (mkSpan (mkPtok 9 "@tag(" 2 73 14) (mkPtok 6 ")" 3 4 16)) (mkPtok 9 "@tag(" 2 73 14) (mkPtok 30 "255" 2 79 15) (mkPtok 6 ")" 3 4 16)))] (ObjectField (mkSpan (mkPtok 36 "repeat" 4 0 17) (mkPtok 40 "," 5 0 20)) (Some (mkPtok 36 "repeat" 4 0 17)) (mkPtok 42 "Header" 4 7 18) None None (mkPtok 40 "," 5 0 20)))] (mkPtok 3 "}" 5 2 21)))])).
-Eval vm_compute in ("<<<M1116>>>" ++ check (runes_of_ascii "options {
-_x = 65535// " ++ [128512]%N ++ runes_of_ascii " emoji
-; }
-")).
-Eval vm_compute in ("<<<M1148>>>" ++ check (runes_of_ascii "root packet
-    calculatedFrom { uint8
-pack  @lengthOf(
-crc )//
-`// not a comment`
-    ,}
-")).
-Eval vm_compute in ("<<<M1180>>>" ++ check (runes_of_ascii "root
-packet leftPad {match As as
-A {
-00 :i8i8, ""x y"": Packet
-""abc"" :falsey
-// trailing space 
-//x
-,  } , float32 trueish,
-@calculatedFrom( ""1"" ) u64  roots`line1
-line2` // trailing space 
-,
-@tag( 42 //	t
-) string
-int
-    @lengthOf(
-    Header ) , @tag(
-    1 ) @lengthOf( // c
-float) rootA  Z9_,match msg_type as metadata {[ 7 ,	0123456789 ] /// triple
-: uint8x	, [ 255 ]:int ,
-    // @lengthOf(
-    255
-    // trailing space 
-    :  lengthOf , ""a\\""  : u128, ""1"" : // packet A { u8 x, }
-u128
-    , }
-,roots //	t
-int `two words` ,repeat BodyLength asx
-,lengthOf@lengthOf(packetx ) ,@lengthOf(
-a1
-) char[
-    /// triple
-    10
-    ]
-//	t
-//
-x, }
-    options { f32a
-= '0'
-; chars
-    =  ' ';Header= ' ' ; i8i8
-    =zchar[ 007 ]
-; leftPad =
-' '
-    ;
-}packet falsey
-    {	@lengthOf(
-    u8x
-)x@lengthOf(tag
-)
-    // @lengthOf(
-    , }
-")).
-Eval vm_compute in ("<<<M1212>>>" ++ check (runes_of_ascii "packet
-    string_{  int64	calculatedFrom , }")).
-Eval vm_compute in ("<<<M1244>>>" ++ check (runes_of_ascii "packet lengthOf { string falsey
-//
-// trailing space 
-, repeat char[] tag  `
-`
-    // " ++ [27880; 37322]%N ++ runes_of_ascii "
-    ,
-    @rightPad('0' ) body { int8 pack@calculatedFrom( """" )`say ""hi""`
-    ,// a // b
-repeat
-    char calculatedFrom ,float32 leftPad @lengthOf(
-A )
+root packet
 // c
-// @lengthOf(
-, int64  Header ,	}
-, i64_`{ , }`
-,
-f64 repeatCount `" ++ [233]%N ++ runes_of_ascii "` ,
-} // trailing space ")).
-Eval vm_compute in ("<<<M1276>>>" ++ check (runes_of_ascii "packet
-    Header
-{
-i32 float, } // `tick` ""quote"" 'q'")).
-Eval vm_compute in ("<<<M1308>>>" ++ check (runes_of_ascii "
-MetaData chars
-    { // " ++ [128512]%N ++ runes_of_ascii " emoji
-trueish
-rootA `say ""hi""` , uint8 Packet , zchar[ 0123456789
-    //
-    ] Z9_
-,	}
-
-")).
-Eval vm_compute in ("<<<T1308>>>" ++ terms [mkTok 37 "MetaData" 2 0 false; mkTok 42 "chars" 2 9 false; mkTok 2 "{" 3 4 false; mkTok 44 (string_of_bytes [47; 47; 32; 240; 159; 152; 128; 32; 101; 109; 111; 106; 105]%N) 3 6 true; mkTok 42 "trueish" 4 0 false; mkTok 42 "rootA" 5 0 false; mkTok 43 "`say ""hi""`" 5 6 false; mkTok 40 "," 5 17 false; mkTok 20 "uint8" 5 19 false; mkTok 42 "Packet" 5 25 false; mkTok 40 "," 5 32 false; mkTok 14 "zchar[" 5 34 false; mkTok 30 "0123456789" 5 41 false; mkTok 44 "//" 6 4 true; mkTok 13 "]" 7 4 false; mkTok 42 "Z9_" 7 6 false; mkTok 40 "," 8 0 false; mkTok 3 "}" 8 2 false; mkTok 0 "<EOF>" 10 0 false] (mkPacket (mkPtok 37 "MetaData" 2 0 0) (Some (mkPtok 3 "}" 8 2 17)) [(DMeta (mkMetaDef (mkSpan (mkPtok 37 "MetaData" 2 0 0) (mkPtok 3 "}" 8 2 17)) (mkPtok 37 "MetaData" 2 0 0) (mkPtok 42 "chars" 2 9 1) (mkPtok 2 "{" 3 4 2) [(MIRef (mkRefMetaDecl (mkSpan (mkPtok 42 "trueish" 4 0 4) (mkPtok 40 "," 5 17 7)) (mkPtok 42 "trueish" 4 0 4) (mkPtok 42 "rootA" 5 0 5) (Some (mkPtok 43 "`say ""hi""`" 5 6 6)) (mkPtok 40 "," 5 17 7))); (MIDecl (mkMetaDecl (mkSpan (mkPtok 20 "uint8" 5 19 8) (mkPtok 40 "," 5 32 10)) (TyBasic (mkSpan (mkPtok 20 "uint8" 5 19 8) (mkPtok 20 "uint8" 5 19 8)) (mkBasicType (mkSpan (mkPtok 20 "uint8" 5 19 8) (mkPtok 20 "uint8" 5 19 8)) (mkPtok 20 "uint8" 5 19 8))) (mkPtok 42 "Packet" 5 25 9) None (mkPtok 40 "," 5 32 10))); (MIDecl (mkMetaDecl (mkSpan (mkPtok 14 "zchar[" 5 34 11) (mkPtok 40 "," 8 0 16)) (TyFixed (mkSpan (mkPtok 14 "zchar[" 5 34 11) (mkPtok 13 "]" 7 4 14)) (mkFixedString (mkSpan (mkPtok 14 "zchar[" 5 34 11) (mkPtok 13 "]" 7 4 14)) (mkPtok 14 "zchar[" 5 34 11) (mkPtok 30 "0123456789" 5 41 12) (mkPtok 13 "]" 7 4 14))) (mkPtok 42 "Z9_" 7 6 15) None (mkPtok 40 "," 8 0 16)))] (mkPtok 3 "}" 8 2 17)))])).
-Eval vm_compute in ("<<<M1340>>>" ++ check (runes_of_ascii "MetaData lengthOf	{i64 u128
-    // trailing space 
-    ,uint32// trailing space 
-calculatedFrom
-,
-    char[ 00] string_ , }
-root
-    packet falsey{char[] // " ++ [128512]%N ++ runes_of_ascii " emoji
-len `line1
-line2` , @tag(255
-)
-uint8x @lengthOf(
-falsey	)
-,
-    float32 // `tick` ""quote"" 'q'
-len ,  repeat calculatedFrom i64_
-`say ""hi""`
-    ,
-    // c
-    @rightPad (
-    // " ++ [27880; 37322]%N ++ runes_of_ascii "
-    '0'	)
-    char[ 10]
-Logon , } packet rootA // c
-{
-// " ++ [128512]%N ++ runes_of_ascii " emoji
-// a // b
-x { falsey
-    Logon
-    ,
-    trueish@calculatedFrom( ""`tick`"")
-    `// not a comment`
-, uint8x
-    body ,
-    } , @calculatedFrom( ""{,}""
-)@calculatedFrom( ""a\\"" )match //x
-f32a as i8i8 {// " ++ [27880; 37322]%N ++ runes_of_ascii "
-10 :
-matchKey , 1:	packetx , 0123456789 :
-    Header
-,
-    ""it's"" :  i64_ , // packet A { u8 x, }
-0 : pack ,} ,repeat
-uint8x	x_y_z`" ++ [28040; 24687; 31867; 22411]%N ++ runes_of_ascii "`, repeat
-char[
-255 ] string_ ,
-@lengthOf( int ) calculatedFrom , @tag( 4294967296
-) u16 packetx @calculatedFrom(  """ ++ [28040; 24687]%N ++ runes_of_ascii """ ) ,	u128 body`doc` , }
-    root packet	tag {
-//x
-// `tick` ""quote"" 'q'
-i32 A
-// @lengthOf(
-// packet A { u8 x, }
-, }
-    options { }")).
-Eval vm_compute in ("<<<M1372>>>" ++ check (runes_of_ascii "  options //
-{ u8x
-=
-    zchar[ 0  ]
-    }")).
-Eval vm_compute in ("<<<M1404>>>" ++ check (runes_of_ascii "options { matchKey
-= 0 Header =
-// " ++ [128512]%N ++ runes_of_ascii " emoji
 // c
-""CRC32"" }
-")).
-Eval vm_compute in ("<<<M1436>>>" ++ check (runes_of_ascii "
-packet
-    //x
-    leftPad {
-    }options
-{ Foo
-= ""1""zchar
-    = 65535 uint8x  = zchar[ 10
-    ] ;
-} MetaData
-    u128 { f32a x
-, i16 u8x
-    `two words` , BodyLength metadata `// not a comment` // a // b
-,
-    } options {As= '\x00'
-;}")).
-Eval vm_compute in ("<<<M1468>>>" ++ check (runes_of_ascii "
-packet /// triple
-BodyLength
-{
-    }
-")).
-Eval vm_compute in ("<<<M1500>>>" ++ check (runes_of_ascii "//x
-packet o
-// packet A { u8 x, }
-/// triple
-{ match
-x as BodyLength
-{ 65535:
-msg_type
-    } , string roots
-@calculatedFrom( ""it's"") ,
-    @tag(0 )
-    match // trailing space 
-u128
-    /// triple
-    as u8x// `tick` ""quote"" 'q'
-{ //x
-[65535
-    , 4294967296
-    ]: a1 ,7
-: chars
-    [ 3
-,	""a	b"" ] : crc, ""\n"" :
-repeatCount , }	, } // packet A { u8 x, }")).
-Eval vm_compute in ("<<<M1532>>>" ++ check (runes_of_ascii "packet
-Z9_ { string trueish, }")).
-Eval vm_compute in ("<<<T1532>>>" ++ terms [mkTok 35 "packet" 1 0 false; mkTok 42 "Z9_" 2 0 false; mkTok 2 "{" 2 4 false; mkTok 15 "string" 2 6 false; mkTok 42 "trueish" 2 13 false; mkTok 40 "," 2 20 false; mkTok 3 "}" 2 22 false; mkTok 0 "<EOF>" 2 23 false] (mkPacket (mkPtok 35 "packet" 1 0 0) (Some (mkPtok 3 "}" 2 22 6)) [(DPacket (mkPacketDef (mkSpan (mkPtok 35 "packet" 1 0 0) (mkPtok 3 "}" 2 22 6)) None (mkPtok 35 "packet" 1 0 0) (mkPtok 42 "Z9_" 2 0 1) (mkPtok 2 "{" 2 4 2) [(mkFieldWithAttr (mkSpan (mkPtok 15 "string" 2 6 3) (mkPtok 40 "," 2 20 5)) [] (MetaField (mkSpan (mkPtok 15 "string" 2 6 3) (mkPtok 40 "," 2 20 5)) None (mkMetaDecl (mkSpan (mkPtok 15 "string" 2 6 3) (mkPtok 40 "," 2 20 5)) (TyDynamic (mkSpan (mkPtok 15 "string" 2 6 3) (mkPtok 15 "string" 2 6 3)) (mkDynamicString (mkSpan (mkPtok 15 "string" 2 6 3) (mkPtok 15 "string" 2 6 3)) (mkPtok 15 "string" 2 6 3))) (mkPtok 42 "trueish" 2 13 4) None (mkPtok 40 "," 2 20 5))))] (mkPtok 3 "}" 2 22 6)))])).
-Eval vm_compute in ("<<<M1564>>>" ++ check (runes_of_ascii "// trailing space 
-
-")).
-Eval vm_compute in ("<<<M1596>>>" ++ check (runes_of_ascii "options {pack
-= true//	t
-; } options  { i8i8= // packet A { u8 x, }
-char[]  ; // c
-Header= ""it's"";  msg_type = ""\n"" ; roots =
-    /// triple
-    '0' ; Z9_ =
-    ""\" ++ [233]%N ++ runes_of_ascii """;}packet // " ++ [128512]%N ++ runes_of_ascii " emoji
-msg_type {
-}")).
-Eval vm_compute in ("<<<M1628>>>" ++ check (runes_of_ascii "options { // " ++ [128512]%N ++ runes_of_ascii " emoji
-}
-")).
-Eval vm_compute in ("<<<M1660>>>" ++ check (runes_of_ascii "packet As
-{ match pack as i8i8  {4294967296 :
-// `tick` ""quote"" 'q'
-// trailing space 
-MetaDataX,65535
-:o ,
-    ""x y""
-: tag /// triple
-""CRC32""
-:
-    u,
-42: tag
-""\n"" //	t
-: options1
-,
-}
-,
-// packet A { u8 x, }
-/// triple
-repeat	zchar { asx lengthOf , } // c
-,}options
-//x
-// packet A { u8 x, }
-{ charz = i32
-    ;x =i32	string_ = ' '// @lengthOf(
-;}
-MetaData int {Foo  x_y_z
-    `a\` ,
-// a // b
-// " ++ [128512]%N ++ runes_of_ascii " emoji
-} MetaData u {
-x crc`" ++ [28040; 24687; 31867; 22411]%N ++ runes_of_ascii "`, } root	packet repeatCount
-//x
-//	t
-{ @lengthOf( options1 ) MetaDataX @lengthOf( As	) , uint32
-Z9_ // c
-, f64 A ,
-    repeat string int , // packet A { u8 x, }
-u16 float
-@calculatedFrom(  ""a	b""  )
-// trailing space 
-// @lengthOf(
-, @rightPad ( '\x00' ) roots crc , }")).
-Eval vm_compute in ("<<<M1692>>>" ++ check (runes_of_ascii "
-packet
-uint8x// packet A { u8 x, }
-{ }	options { _x= i8
-falsey =
-7 ;leftPad = char[]
-//
-/// triple
-; pack  = '0' }
-
-")).
-Eval vm_compute in ("<<<M1724>>>" ++ check (runes_of_ascii "packet// packet A { u8 x, }
-string_{ @tag(007
-) @calculatedFrom( """ ++ [128512]%N ++ runes_of_ascii """ )@leftPad ( // trailing space 
-'0' )
-int8 i64_@lengthOf(i8i8 )// @lengthOf(
-`" ++ [28040; 24687; 31867; 22411]%N ++ runes_of_ascii "` ,
-@calculatedFrom( """"
-) zchar[ 007 ]a1 `line1
-line2`, @lengthOf(	asx
-) pack
-{// packet A { u8 x, }
-Packet, repeat lengthOf {	match u8x//	t
-as u128
-{ [
-    00, ""// no comment""]
-:uint8x , }	,char[ 7 ]
-    int
-// trailing space 
-// " ++ [27880; 37322]%N ++ runes_of_ascii "
-`say ""hi""` // `tick` ""quote"" 'q'
-,} ,} , @tag( 1
-    ) body ,	repeat
-char[]
-    i64_	, tag @calculatedFrom(//	t
-"""" ), repeat Logon {
-falsey string_`a\` ,string chars `` , //
-pack
-{ roots {repeat msg_type//x
-, }
-,
-    char[]Pad  @calculatedFrom(
-""CRC32"") , } // " ++ [128512]%N ++ runes_of_ascii " emoji
-, } ,
-@leftPad ( ' '// @lengthOf(
-)
-@lengthOf( f32a ) T{ i16 Pad
-    @lengthOf( rootA ) // " ++ [27880; 37322]%N ++ runes_of_ascii "
-`tab	here`, rootA {	i64_ ,
-}// `tick` ""quote"" 'q'
-,
-    repeat MetaDataX i64_ , }	,repeat
-MetaDataX MetaDataX
-, }
-
-")).
-Eval vm_compute in ("<<<M1756>>>" ++ check (runes_of_ascii "options
-    {
-    Logon =u32 ;  i64_ // " ++ [27880; 37322]%N ++ runes_of_ascii "
-=
-i8 }
-    /// triple
-    MetaData repeatCount
-{/// triple
-uint8 o , }
-")).
-Eval vm_compute in ("<<<T1756>>>" ++ terms [mkTok 1 "options" 1 0 false; mkTok 2 "{" 2 4 false; mkTok 42 "Logon" 3 4 false; mkTok 4 "=" 3 10 false; mkTok 22 "u32" 3 11 false; mkTok 41 ";" 3 15 false; mkTok 42 "i64_" 3 18 false; mkTok 44 (string_of_bytes [47; 47; 32; 230; 179; 168; 233; 135; 138]%N) 3 23 true; mkTok 4 "=" 4 0 false; mkTok 24 "i8" 5 0 false; mkTok 3 "}" 5 3 false; mkTok 44 "/// triple" 6 4 true; mkTok 37 "MetaData" 7 4 false; mkTok 42 "repeatCount" 7 13 false; mkTok 2 "{" 8 0 false; mkTok 44 "/// triple" 8 1 true; mkTok 20 "uint8" 9 0 false; mkTok 42 "o" 9 6 false; mkTok 40 "," 9 8 false; mkTok 3 "}" 9 10 false; mkTok 0 "<EOF>" 10 0 false] (mkPacket (mkPtok 1 "options" 1 0 0) (Some (mkPtok 3 "}" 9 10 19)) [(DOption (mkOptionDef (mkSpan (mkPtok 1 "options" 1 0 0) (mkPtok 3 "}" 5 3 10)) (mkPtok 1 "options" 1 0 0) (mkPtok 2 "{" 2 4 1) [(mkOptionDecl (mkSpan (mkPtok 42 "Logon" 3 4 2) (mkPtok 41 ";" 3 15 5)) (mkPtok 42 "Logon" 3 4 2) (mkPtok 4 "=" 3 10 3) (VType (mkSpan (mkPtok 22 "u32" 3 11 4) (mkPtok 22 "u32" 3 11 4)) (TyBasic (mkSpan (mkPtok 22 "u32" 3 11 4) (mkPtok 22 "u32" 3 11 4)) (mkBasicType (mkSpan (mkPtok 22 "u32" 3 11 4) (mkPtok 22 "u32" 3 11 4)) (mkPtok 22 "u32" 3 11 4)))) (Some (mkPtok 41 ";" 3 15 5))); (mkOptionDecl (mkSpan (mkPtok 42 "i64_" 3 18 6) (mkPtok 24 "i8" 5 0 9)) (mkPtok 42 "i64_" 3 18 6) (mkPtok 4 "=" 4 0 8) (VType (mkSpan (mkPtok 24 "i8" 5 0 9) (mkPtok 24 "i8" 5 0 9)) (TyBasic (mkSpan (mkPtok 24 "i8" 5 0 9) (mkPtok 24 "i8" 5 0 9)) (mkBasicType (mkSpan (mkPtok 24 "i8" 5 0 9) (mkPtok 24 "i8" 5 0 9)) (mkPtok 24 "i8" 5 0 9)))) None)] (mkPtok 3 "}" 5 3 10))); (DMeta (mkMetaDef (mkSpan (mkPtok 37 "MetaData" 7 4 12) (mkPtok 3 "}" 9 10 19)) (mkPtok 37 "MetaData" 7 4 12) (mkPtok 42 "repeatCount" 7 13 13) (mkPtok 2 "{" 8 0 14) [(MIDecl (mkMetaDecl (mkSpan (mkPtok 20 "uint8" 9 0 16) (mkPtok 40 "," 9 8 18)) (TyBasic (mkSpan (mkPtok 20 "uint8" 9 0 16) (mkPtok 20 "uint8" 9 0 16)) (mkBasicType (mkSpan (mkPtok 20 "uint8" 9 0 16) (mkPtok 20 "uint8" 9 0 16)) (mkPtok 20 "uint8" 9 0 16))) (mkPtok 42 "o" 9 6 17) None (mkPtok 40 "," 9 8 18)))] (mkPtok 3 "}" 9 10 19)))])).
-Eval vm_compute in ("<<<M1788>>>" ++ check (runes_of_ascii "packet//x
-pack{
-}
-    packet Foo{
-    @lengthOf(
-    As )
-    float options1 , zchar[  00 // packet A { u8 x, }
-] float `tab	here`,
-    x @lengthOf(
-charz// trailing space 
-)	,
-    zchar[7
-] // " ++ [27880; 37322]%N ++ runes_of_ascii "
-Header	, }  MetaData Pad  {asx //x
-matchKey,
-    zchar[ 1  ] uint8x , // a // b
-}
-// " ++ [27880; 37322]%N ++ runes_of_ascii "
-")).
-Eval vm_compute in ("<<<M1820>>>" ++ check (runes_of_ascii "root packet chars {
-} // " ++ [27880; 37322]%N ++ runes_of_ascii "
-MetaData uint8x {
-    f32
-msg_type
-    ,T MetaDataX``//
-, tag
-    T// @lengthOf(
-,  Logon
-uint8x `" ++ [233]%N ++ runes_of_ascii "`,
-zchar[ 10 ] // packet A { u8 x, }
-x`say ""hi""` , }
-")).
-Eval vm_compute in ("<<<M1852>>>" ++ check (runes_of_ascii "// @lengthOf(
-packet falsey
-{ } packet Foo { // " ++ [27880; 37322]%N ++ runes_of_ascii "
-@calculatedFrom( ""// no comment"" ) Pad @lengthOf( Logon
-    ) ,string As `// not a comment`
-    ,}MetaData
-    //x
-    BodyLength	{ zchar[ 7] len  `{ , }`, char[ // c
-42 ] falsey `a\`
-,msg_type
-asx ,
-} root packet // @lengthOf(
-roots { @lengthOf(matchKey
-    ) rootA {	char[ 007]
-    // " ++ [27880; 37322]%N ++ runes_of_ascii "
-    u8x
-    @lengthOf( falsey
-)
-    `crlf
-line`, }
-,}")).
-Eval vm_compute in ("<<<M1884>>>" ++ check (runes_of_ascii "
-packet x_y_z // @lengthOf(
-{
-    }	options
-//	t
-//	t
-{ f32a
-    =
-    // @lengthOf(
-    false ;
-// packet A { u8 x, }
-// @lengthOf(
-metadata = 007 ;
-}")).
-Eval vm_compute in ("<<<M1916>>>" ++ check (runes_of_ascii "packet // " ++ [27880; 37322]%N ++ runes_of_ascii "
-_x {
-zchar[ 255
-] o
-    , // packet A { u8 x, }
-char[]
-msg_type`crlf
-line` ,int32 float@calculatedFrom(
-    ""{,}"") ,@leftPad
-( // trailing space 
-'\x00' // @lengthOf(
-)_x
-uint8x`a\`, @rightPad	(	) f64 _x
-    @lengthOf(BodyLength
-) `line1
-line2` ,
-char[ 00] Logon @lengthOf( msg_type
-    ) ,match
-    uint8x as pack	{	[ 0123456789	, ""packet""	, ""it's"" ,3] : //
-matchKey,
-} , i64_ ``
-, match msg_type as int{ 10 ://
-rootA , """"	:
-    asx 255 :float
-    ,	4294967296 :crc
-    ""\" ++ [233]%N ++ runes_of_ascii """
-    :
-zchar 0123456789 :
-matchKey
-} , } root packet
-    // a // b
-    Header { repeat
-MetaDataX
-    Packet `two words` ,
-@rightPad // trailing space 
-( // packet A { u8 x, }
-)  repeat
-msg_type
-// @lengthOf(
-//	t
-As
-    , f64 Foo// @lengthOf(
-@lengthOf(len ) ,
-    @lengthOf(
-    BodyLength
-    )
-    // a // b
-    len{ uint8// " ++ [128512]%N ++ runes_of_ascii " emoji
-len @calculatedFrom(""CRC32""
-) , uint8x
-    {i64 f32a`
-` ,}
-,//
-}//
-,@calculatedFrom( """ ++ [233]%N ++ runes_of_ascii "t" ++ [233]%N ++ runes_of_ascii """ ) char[]chars , } root packet  chars { string roots@calculatedFrom(""" ++ [28040; 24687]%N ++ runes_of_ascii """ )
-, }MetaData falsey {char[]  stringy,uint8 T
-``
-,  }options{ options1 =/// triple
-false
-    ; a1 =
-    ""x y"" charz =""\n"" ; }")).
-Eval vm_compute in ("<<<M1948>>>" ++ check (runes_of_ascii "
-
-")).
-Eval vm_compute in ("<<<M1980>>>" ++ check (runes_of_ascii "options // " ++ [27880; 37322]%N ++ runes_of_ascii "
-{ f32a =true } root packet As	{@lengthOf( // " ++ [27880; 37322]%N ++ runes_of_ascii "
-Pad)	repeat
-//	t
-//x
-uint32 falsey  ,@calculatedFrom(
-""\" ++ [233]%N ++ runes_of_ascii """ )	match body as BodyLength { [
-    ""a\""b"" ]:
-len } , @tag( 42 )repeat
-zchar	{ repeat
-    i64	charz `
-`
-,	match rootA	as
-len
-    {//	t
-65535 : //x
-rootA ""\n"" : /// triple
-Z9_
-// packet A { u8 x, }
-// `tick` ""quote"" 'q'
-1  ://x
-roots ,} //
-,
-uint32
-    repeatCount`tab	here`
-    , match T as
-metadata { [ 42 , //x
-65535,	4294967296 ] : i8i8 255
-    : u
-, 00 :
-packetx // " ++ [128512]%N ++ runes_of_ascii " emoji
-}
-    ,
-    } // packet A { u8 x, }
-, MetaDataX @calculatedFrom( ""1"" )
-, //x
-}
-//x
-// " ++ [128512]%N ++ runes_of_ascii " emoji
-options{ len	=
-    // @lengthOf(
-    42
-; leftPad = ""a\\"" // @lengthOf(
-;BodyLength=// packet A { u8 x, }
-int16 }")).
-Eval vm_compute in ("<<<T1980>>>" ++ terms [mkTok 1 "options" 1 0 false; mkTok 44 (string_of_bytes [47; 47; 32; 230; 179; 168; 233; 135; 138]%N) 1 8 true; mkTok 2 "{" 2 0 false; mkTok 42 "f32a" 2 2 false; mkTok 4 "=" 2 7 false; mkTok 10 "true" 2 8 false; mkTok 3 "}" 2 13 false; mkTok 34 "root" 2 15 false; mkTok 35 "packet" 2 20 false; mkTok 42 "As" 2 27 false; mkTok 2 "{" 2 30 false; mkTok 7 "@lengthOf(" 2 31 false; mkTok 44 (string_of_bytes [47; 47; 32; 230; 179; 168; 233; 135; 138]%N) 2 42 true; mkTok 42 "Pad" 3 0 false; mkTok 6 ")" 3 3 false; mkTok 36 "repeat" 3 5 false; mkTok 44 (string_of_bytes [47; 47; 9; 116]%N) 4 0 true; mkTok 44 "//x" 5 0 true; mkTok 22 "uint32" 6 0 false; mkTok 42 "falsey" 6 7 false; mkTok 40 "," 6 15 false; mkTok 5 "@calculatedFrom(" 6 16 false; mkTok 31 (string_of_bytes [34; 92; 195; 169; 34]%N) 7 0 false; mkTok 6 ")" 7 5 false; mkTok 38 "match" 7 7 false; mkTok 42 "body" 7 13 false; mkTok 17 "as" 7 18 false; mkTok 42 "BodyLength" 7 21 false; mkTok 2 "{" 7 32 false; mkTok 18 "[" 7 34 false; mkTok 31 """a\""b""" 8 4 false; mkTok 13 "]" 8 11 false; mkTok 39 ":" 8 12 false; mkTok 42 "len" 9 0 false; mkTok 3 "}" 9 4 false; mkTok 40 "," 9 6 false; mkTok 9 "@tag(" 9 8 false; mkTok 30 "42" 9 14 false; mkTok 6 ")" 9 17 false; mkTok 36 "repeat" 9 18 false; mkTok 42 "zchar" 10 0 false; mkTok 2 "{" 10 6 false; mkTok 36 "repeat" 10 8 false; mkTok 27 "i64" 11 4 false; mkTok 42 "charz" 11 8 false; mkTok 43 (string_of_bytes [96; 10; 96]%N) 11 14 false; mkTok 40 "," 13 0 false; mkTok 38 "match" 13 2 false; mkTok 42 "rootA" 13 8 false; mkTok 17 "as" 13 14 false; mkTok 42 "len" 14 0 false; mkTok 2 "{" 15 4 false; mkTok 44 (string_of_bytes [47; 47; 9; 116]%N) 15 5 true; mkTok 30 "65535" 16 0 false; mkTok 39 ":" 16 6 false; mkTok 44 "//x" 16 8 true; mkTok 42 "rootA" 17 0 false; mkTok 31 """\n""" 17 6 false; mkTok 39 ":" 17 11 false; mkTok 44 "/// triple" 17 13 true; mkTok 42 "Z9_" 18 0 false; mkTok 44 "// packet A { u8 x, }" 19 0 true; mkTok 44 "// `tick` ""quote"" 'q'" 20 0 true; mkTok 30 "1" 21 0 false; mkTok 39 ":" 21 3 false; mkTok 44 "//x" 21 4 true; mkTok 42 "roots" 22 0 false; mkTok 40 "," 22 6 false; mkTok 3 "}" 22 7 false; mkTok 44 "//" 22 9 true; mkTok 40 "," 23 0 false; mkTok 22 "uint32" 24 0 false; mkTok 42 "repeatCount" 25 4 false; mkTok 43 (string_of_bytes [96; 116; 97; 98; 9; 104; 101; 114; 101; 96]%N) 25 15 false; mkTok 40 "," 26 4 false; mkTok 38 "match" 26 6 false; mkTok 42 "T" 26 12 false; mkTok 17 "as" 26 14 false; mkTok 42 "metadata" 27 0 false; mkTok 2 "{" 27 9 false; mkTok 18 "[" 27 11 false; mkTok 30 "42" 27 13 false; mkTok 40 "," 27 16 false; mkTok 44 "//x" 27 18 true; mkTok 30 "65535" 28 0 false; mkTok 40 "," 28 5 false; mkTok 30 "4294967296" 28 7 false; mkTok 13 "]" 28 18 false; mkTok 39 ":" 28 20 false; mkTok 42 "i8i8" 28 22 false; mkTok 30 "255" 28 27 false; mkTok 39 ":" 29 4 false; mkTok 42 "u" 29 6 false; mkTok 40 "," 30 0 false; mkTok 30 "00" 30 2 false; mkTok 39 ":" 30 5 false; mkTok 42 "packetx" 31 0 false; mkTok 44 (string_of_bytes [47; 47; 32; 240; 159; 152; 128; 32; 101; 109; 111; 106; 105]%N) 31 8 true; mkTok 3 "}" 32 0 false; mkTok 40 "," 33 4 false; mkTok 3 "}" 34 4 false; mkTok 44 "// packet A { u8 x, }" 34 6 true; mkTok 40 "," 35 0 false; mkTok 42 "MetaDataX" 35 2 false; mkTok 5 "@calculatedFrom(" 35 12 false; mkTok 31 """1""" 35 29 false; mkTok 6 ")" 35 33 false; mkTok 40 "," 36 0 false; mkTok 44 "//x" 36 2 true; mkTok 3 "}" 37 0 false; mkTok 44 "//x" 38 0 true; mkTok 44 (string_of_bytes [47; 47; 32; 240; 159; 152; 128; 32; 101; 109; 111; 106; 105]%N) 39 0 true; mkTok 1 "options" 40 0 false; mkTok 2 "{" 40 7 false; mkTok 42 "len" 40 9 false; mkTok 4 "=" 40 13 false; mkTok 44 "// @lengthOf(" 41 4 true; mkTok 30 "42" 42 4 false; mkTok 41 ";" 43 0 false; mkTok 42 "leftPad" 43 2 false; mkTok 4 "=" 43 10 false; mkTok 31 """a\\""" 43 12 false; mkTok 44 "// @lengthOf(" 43 18 true; mkTok 41 ";" 44 0 false; mkTok 42 "BodyLength" 44 1 false; mkTok 4 "=" 44 11 false; mkTok 44 "// packet A { u8 x, }" 44 12 true; mkTok 25 "int16" 45 0 false; mkTok 3 "}" 45 6 false; mkTok 0 "<EOF>" 45 7 false] (mkPacket (mkPtok 1 "options" 1 0 0) (Some (mkPtok 3 "}" 45 6 128)) [(DOption (mkOptionDef (mkSpan (mkPtok 1 "options" 1 0 0) (mkPtok 3 "}" 2 13 6)) (mkPtok 1 "options" 1 0 0) (mkPtok 2 "{" 2 0 2) [(mkOptionDecl (mkSpan (mkPtok 42 "f32a" 2 2 3) (mkPtok 10 "true" 2 8 5)) (mkPtok 42 "f32a" 2 2 3) (mkPtok 4 "=" 2 7 4) (VTrue (mkSpan (mkPtok 10 "true" 2 8 5) (mkPtok 10 "true" 2 8 5)) (mkPtok 10 "true" 2 8 5)) None)] (mkPtok 3 "}" 2 13 6))); (DPacket (mkPacketDef (mkSpan (mkPtok 34 "root" 2 15 7) (mkPtok 3 "}" 37 0 109)) (Some (mkPtok 34 "root" 2 15 7)) (mkPtok 35 "packet" 2 20 8) (mkPtok 42 "As" 2 27 9) (mkPtok 2 "{" 2 30 10) [(mkFieldWithAttr (mkSpan (mkPtok 7 "@lengthOf(" 2 31 11) (mkPtok 40 "," 6 15 20)) [(FALengthOf (mkSpan (mkPtok 7 "@lengthOf(" 2 31 11) (mkPtok 6 ")" 3 3 14)) (mkLengthOf (mkSpan (mkPtok 7 "@lengthOf(" 2 31 11) (mkPtok 6 ")" 3 3 14)) (mkPtok 7 "@lengthOf(" 2 31 11) (mkPtok 42 "Pad" 3 0 13) (mkPtok 6 ")" 3 3 14)))] (MetaField (mkSpan (mkPtok 36 "repeat" 3 5 15) (mkPtok 40 "," 6 15 20)) (Some (mkPtok 36 "repeat" 3 5 15)) (mkMetaDecl (mkSpan (mkPtok 22 "uint32" 6 0 18) (mkPtok 40 "," 6 15 20)) (TyBasic (mkSpan (mkPtok 22 "uint32" 6 0 18) (mkPtok 22 "uint32" 6 0 18)) (mkBasicType (mkSpan (mkPtok 22 "uint32" 6 0 18) (mkPtok 22 "uint32" 6 0 18)) (mkPtok 22 "uint32" 6 0 18))) (mkPtok 42 "falsey" 6 7 19) None (mkPtok 40 "," 6 15 20)))); (mkFieldWithAttr (mkSpan (mkPtok 5 "@calculatedFrom(" 6 16 21) (mkPtok 40 "," 9 6 35)) [(FACalculatedFrom (mkSpan (mkPtok 5 "@calculatedFrom(" 6 16 21) (mkPtok 6 ")" 7 5 23)) (mkCalculatedFrom (mkSpan (mkPtok 5 "@calculatedFrom(" 6 16 21) (mkPtok 6 ")" 7 5 23)) (mkPtok 5 "@calculatedFrom(" 6 16 21) (mkPtok 31 (string_of_bytes [34; 92; 195; 169; 34]%N) 7 0 22) (mkPtok 6 ")" 7 5 23)))] (MatchField (mkSpan (mkPtok 38 "match" 7 7 24) (mkPtok 40 "," 9 6 35)) (mkMatchFieldDecl (mkSpan (mkPtok 38 "match" 7 7 24) (mkPtok 3 "}" 9 4 34)) (mkPtok 38 "match" 7 7 24) (mkPtok 42 "body" 7 13 25) (mkPtok 17 "as" 7 18 26) (mkPtok 42 "BodyLength" 7 21 27) (mkPtok 2 "{" 7 32 28) [(mkMatchPair (mkSpan (mkPtok 18 "[" 7 34 29) (mkPtok 42 "len" 9 0 33)) (MKList (mkKeyList (mkSpan (mkPtok 18 "[" 7 34 29) (mkPtok 13 "]" 8 11 31)) (mkPtok 18 "[" 7 34 29) (mkPtok 31 """a\""b""" 8 4 30) [] (mkPtok 13 "]" 8 11 31))) (mkPtok 39 ":" 8 12 32) (mkPtok 42 "len" 9 0 33) None)] (mkPtok 3 "}" 9 4 34)) (mkPtok 40 "," 9 6 35))); (mkFieldWithAttr (mkSpan (mkPtok 9 "@tag(" 9 8 36) (mkPtok 40 "," 35 0 102)) [(FATag (mkSpan (mkPtok 9 "@tag(" 9 8 36) (mkPtok 6 ")" 9 17 38)) (mkTagAttr (mkSpan (mkPtok 9 "@tag(" 9 8 36) (mkPtok 6 ")" 9 17 38)) (mkPtok 9 "@tag(" 9 8 36) (mkPtok 30 "42" 9 14 37) (mkPtok 6 ")" 9 17 38)))] (InerObjectField (mkSpan (mkPtok 36 "repeat" 9 18 39) (mkPtok 40 "," 35 0 102)) (Some (mkPtok 36 "repeat" 9 18 39)) (InerObjectDecl (mkSpan (mkPtok 42 "zchar" 10 0 40) (mkPtok 3 "}" 34 4 100)) (mkPtok 42 "zchar" 10 0 40) (mkPtok 2 "{" 10 6 41) [(MetaField (mkSpan (mkPtok 36 "repeat" 10 8 42) (mkPtok 40 "," 13 0 46)) (Some (mkPtok 36 "repeat" 10 8 42)) (mkMetaDecl (mkSpan (mkPtok 27 "i64" 11 4 43) (mkPtok 40 "," 13 0 46)) (TyBasic (mkSpan (mkPtok 27 "i64" 11 4 43) (mkPtok 27 "i64" 11 4 43)) (mkBasicType (mkSpan (mkPtok 27 "i64" 11 4 43) (mkPtok 27 "i64" 11 4 43)) (mkPtok 27 "i64" 11 4 43))) (mkPtok 42 "charz" 11 8 44) (Some (mkPtok 43 (string_of_bytes [96; 10; 96]%N) 11 14 45)) (mkPtok 40 "," 13 0 46))); (MatchField (mkSpan (mkPtok 38 "match" 13 2 47) (mkPtok 40 "," 23 0 70)) (mkMatchFieldDecl (mkSpan (mkPtok 38 "match" 13 2 47) (mkPtok 3 "}" 22 7 68)) (mkPtok 38 "match" 13 2 47) (mkPtok 42 "rootA" 13 8 48) (mkPtok 17 "as" 13 14 49) (mkPtok 42 "len" 14 0 50) (mkPtok 2 "{" 15 4 51) [(mkMatchPair (mkSpan (mkPtok 30 "65535" 16 0 53) (mkPtok 42 "rootA" 17 0 56)) (MKDigits (mkPtok 30 "65535" 16 0 53)) (mkPtok 39 ":" 16 6 54) (mkPtok 42 "rootA" 17 0 56) None); (mkMatchPair (mkSpan (mkPtok 31 """\n""" 17 6 57) (mkPtok 42 "Z9_" 18 0 60)) (MKString (mkPtok 31 """\n""" 17 6 57)) (mkPtok 39 ":" 17 11 58) (mkPtok 42 "Z9_" 18 0 60) None); (mkMatchPair (mkSpan (mkPtok 30 "1" 21 0 63) (mkPtok 40 "," 22 6 67)) (MKDigits (mkPtok 30 "1" 21 0 63)) (mkPtok 39 ":" 21 3 64) (mkPtok 42 "roots" 22 0 66) (Some (mkPtok 40 "," 22 6 67)))] (mkPtok 3 "}" 22 7 68)) (mkPtok 40 "," 23 0 70)); (MetaField (mkSpan (mkPtok 22 "uint32" 24 0 71) (mkPtok 40 "," 26 4 74)) None (mkMetaDecl (mkSpan (mkPtok 22 "uint32" 24 0 71) (mkPtok 40 "," 26 4 74)) (TyBasic (mkSpan (mkPtok 22 "uint32" 24 0 71) (mkPtok 22 "uint32" 24 0 71)) (mkBasicType (mkSpan (mkPtok 22 "uint32" 24 0 71) (mkPtok 22 "uint32" 24 0 71)) (mkPtok 22 "uint32" 24 0 71))) (mkPtok 42 "repeatCount" 25 4 72) (Some (mkPtok 43 (string_of_bytes [96; 116; 97; 98; 9; 104; 101; 114; 101; 96]%N) 25 15 73)) (mkPtok 40 "," 26 4 74))); (MatchField (mkSpan (mkPtok 38 "match" 26 6 75) (mkPtok 40 "," 33 4 99)) (mkMatchFieldDecl (mkSpan (mkPtok 38 "match" 26 6 75) (mkPtok 3 "}" 32 0 98)) (mkPtok 38 "match" 26 6 75) (mkPtok 42 "T" 26 12 76) (mkPtok 17 "as" 26 14 77) (mkPtok 42 "metadata" 27 0 78) (mkPtok 2 "{" 27 9 79) [(mkMatchPair (mkSpan (mkPtok 18 "[" 27 11 80) (mkPtok 42 "i8i8" 28 22 89)) (MKList (mkKeyList (mkSpan (mkPtok 18 "[" 27 11 80) (mkPtok 13 "]" 28 18 87)) (mkPtok 18 "[" 27 11 80) (mkPtok 30 "42" 27 13 81) [((mkPtok 40 "," 27 16 82), (mkPtok 30 "65535" 28 0 84)); ((mkPtok 40 "," 28 5 85), (mkPtok 30 "4294967296" 28 7 86))] (mkPtok 13 "]" 28 18 87))) (mkPtok 39 ":" 28 20 88) (mkPtok 42 "i8i8" 28 22 89) None); (mkMatchPair (mkSpan (mkPtok 30 "255" 28 27 90) (mkPtok 40 "," 30 0 93)) (MKDigits (mkPtok 30 "255" 28 27 90)) (mkPtok 39 ":" 29 4 91) (mkPtok 42 "u" 29 6 92) (Some (mkPtok 40 "," 30 0 93))); (mkMatchPair (mkSpan (mkPtok 30 "00" 30 2 94) (mkPtok 42 "packetx" 31 0 96)) (MKDigits (mkPtok 30 "00" 30 2 94)) (mkPtok 39 ":" 30 5 95) (mkPtok 42 "packetx" 31 0 96) None)] (mkPtok 3 "}" 32 0 98)) (mkPtok 40 "," 33 4 99))] (mkPtok 3 "}" 34 4 100)) (mkPtok 40 "," 35 0 102))); (mkFieldWithAttr (mkSpan (mkPtok 42 "MetaDataX" 35 2 103) (mkPtok 40 "," 36 0 107)) [] (CheckSumField (mkSpan (mkPtok 42 "MetaDataX" 35 2 103) (mkPtok 40 "," 36 0 107)) (mkChecksumFieldDecl (mkSpan (mkPtok 42 "MetaDataX" 35 2 103) (mkPtok 40 "," 36 0 107)) None (mkPtok 42 "MetaDataX" 35 2 103) (mkCalculatedFrom (mkSpan (mkPtok 5 "@calculatedFrom(" 35 12 104) (mkPtok 6 ")" 35 33 106)) (mkPtok 5 "@calculatedFrom(" 35 12 104) (mkPtok 31 """1""" 35 29 105) (mkPtok 6 ")" 35 33 106)) None (mkPtok 40 "," 36 0 107))))] (mkPtok 3 "}" 37 0 109))); (DOption (mkOptionDef (mkSpan (mkPtok 1 "options" 40 0 112) (mkPtok 3 "}" 45 6 128)) (mkPtok 1 "options" 40 0 112) (mkPtok 2 "{" 40 7 113) [(mkOptionDecl (mkSpan (mkPtok 42 "len" 40 9 114) (mkPtok 41 ";" 43 0 118)) (mkPtok 42 "len" 40 9 114) (mkPtok 4 "=" 40 13 115) (VDigits (mkSpan (mkPtok 30 "42" 42 4 117) (mkPtok 30 "42" 42 4 117)) (mkPtok 30 "42" 42 4 117)) (Some (mkPtok 41 ";" 43 0 118))); (mkOptionDecl (mkSpan (mkPtok 42 "leftPad" 43 2 119) (mkPtok 41 ";" 44 0 123)) (mkPtok 42 "leftPad" 43 2 119) (mkPtok 4 "=" 43 10 120) (VString (mkSpan (mkPtok 31 """a\\""" 43 12 121) (mkPtok 31 """a\\""" 43 12 121)) (mkPtok 31 """a\\""" 43 12 121)) (Some (mkPtok 41 ";" 44 0 123))); (mkOptionDecl (mkSpan (mkPtok 42 "BodyLength" 44 1 124) (mkPtok 25 "int16" 45 0 127)) (mkPtok 42 "BodyLength" 44 1 124) (mkPtok 4 "=" 44 11 125) (VType (mkSpan (mkPtok 25 "int16" 45 0 127) (mkPtok 25 "int16" 45 0 127)) (TyBasic (mkSpan (mkPtok 25 "int16" 45 0 127) (mkPtok 25 "int16" 45 0 127)) (mkBasicType (mkSpan (mkPtok 25 "int16" 45 0 127) (mkPtok 25 "int16" 45 0 127)) (mkPtok 25 "int16" 45 0 127)))) None)] (mkPtok 3 "}" 45 6 128)))])).
-Eval vm_compute in ("<<<M2012>>>" ++ check (runes_of_ascii "f64{ i64_ = string ; trueish =
-    '\x00'
-    leftPad = ""a\\"" /// triple
-; crc
-    = 255; uint8x
-=
-""abc""
-    ;}")).
-Eval vm_compute in ("<<<M2044>>>" ++ check (runes_of_ascii "options{ i64_ = string ; trueish 
-    '\x00'
-    leftPad = ""a\\"" /// triple
-; crc
-    = 255; uint8x
-=
-""abc""
-    ;}")).
-Eval vm_compute in ("<<<M2076>>>" ++ check (runes_of_ascii "options{ i64_ = string ; trueish =
-    '\x00'
-    leftPad = ""a\\"" /// triple
-; =
-    crc 255; uint8x
-=
-""abc""
-    ;}")).
-Eval vm_compute in ("<<<M2108>>>" ++ check (runes_of_ascii "options{ i64_ = string ; trueish =
-    '\x00'
-    leftPad = ""a\\"" /// triple
-; crc
-    = 255; uint8x
-=")).
-Eval vm_compute in ("<<<M2140>>>" ++ check (runes_of_ascii "  
-asx
-{
-/// triple
-// @lengthOf(
-u32 stringy
-`" ++ [28040; 24687; 31867; 22411]%N ++ runes_of_ascii "` ,} MetaData
-    A {string  _x, zchar Header `a\`
-// @lengthOf(
-// packet A { u8 x, }
-, char[] MetaDataX
-,zchar[ 1 ]
-    matchKey
-    , char[] //
-u,	char[0123456789 ]
-    matchKey
-    `{ , }`, }
-")).
-Eval vm_compute in ("<<<M2172>>>" ++ check (runes_of_ascii "  packet
-asx
-{
-/// triple
-// @lengthOf(
-u32 stringy
-`" ++ [28040; 24687; 31867; 22411]%N ++ runes_of_ascii "` }, MetaData
-    A {string  _x, zchar Header `a\`
-// @lengthOf(
-// packet A { u8 x, }
-, char[] MetaDataX
-,zchar[ 1 ]
-    matchKey
-    , char[] //
-u,	char[0123456789 ]
-    matchKey
-    `{ , }`, }
-")).
-Eval vm_compute in ("<<<M2204>>>" ++ check (runes_of_ascii "  packet
-asx
-{
-/// triple
-// @lengthOf(
-u32 stringy
-`" ++ [28040; 24687; 31867; 22411]%N ++ runes_of_ascii "` ,} MetaData
-    A {string")).
-Eval vm_compute in ("<<<M2236>>>" ++ check (runes_of_ascii "  packet
-asx
-{
-/// triple
-// @lengthOf(
-u32 stringy
-`" ++ [28040; 24687; 31867; 22411]%N ++ runes_of_ascii "` ,} MetaData
-    A {string  _x, zchar Header `a\`
-// @lengthOf(
-// packet A { u8 x, }
-, char[] MetaDataX MetaDataX
-,zchar[ 1 ]
-    matchKey
-    , char[] //
-u,	char[0123456789 ]
-    matchKey
-    `{ , }`, }
-")).
-Eval vm_compute in ("<<<M2268>>>" ++ check (runes_of_ascii "  packet
-asx
-{
-/// triple
-// @lengthOf(
-u32 stringy
-`" ++ [28040; 24687; 31867; 22411]%N ++ runes_of_ascii "` ,} MetaData
-    A {string  _x, zchar Header `a\`
-// @lengthOf(
-// packet A { u8 x, }
-, char[] MetaDataX
-,zchar[ 1 ]
-    matchKey
-    zchar[ char[] //
-u,	char[0123456789 ]
-    matchKey
-    `{ , }`, }
-")).
-Eval vm_compute in ("<<<M2300>>>" ++ check (runes_of_ascii "  packet
-asx
-{
-/// triple
-// @lengthOf(
-u32 stringy
-`" ++ [28040; 24687; 31867; 22411]%N ++ runes_of_ascii "` ,} MetaData
-    A {string  _x, zchar Header `a\`
-// @lengthOf(
-// packet A { u8 x, }
-, char[] MetaDataX
-,zchar[ 1 ]
-    matchKey
-    , char[] //
-u,	char[0123456789 ]
-    
-    `{ , }`, }
-")).
-Eval vm_compute in ("<<<M2332>>>" ++ check (runes_of_ascii "  packet
-asx
-{
-/// triple
-// @lengthOf(
-u32 stringy
-`" ++ [28040; 24687; 31867; 22411]%N ++ runes_of_ascii "` ,} MetaData
-    A {string  _x, zchar Header `a\`
-// @lengthOf(
-// packet A { u8 x, }
-, char[] MetaDataX
-,zchar[ 1 ]
-    matchKey
-    , char[] //
-u,	' char[0123456789 ]
-    matchKey
-    `{ , }`, }
-")).
-Eval vm_compute in ("<<<M2364>>>" ++ check (runes_of_ascii "root
-    packet
-Packet
-{ // trailing space 
-false `tab	here` ,}")).
-Eval vm_compute in ("<<<M2396>>>" ++ check (runes_of_ascii "root
-    packet
-Packet
-{ // trailing space 
-match" ++ [127]%N ++ runes_of_ascii "Key `tab	here` ,}")).
-Eval vm_compute in ("<<<M2428>>>" ++ check (runes_of_ascii "options{ falsey // a // b
-=
-    '0' } } options { repeatCount =
-true ; string_// a // b
-=
-// c
-// " ++ [27880; 37322]%N ++ runes_of_ascii "
-int64
-// trailing space 
-/// triple
-; } // @lengthOf(")).
-Eval vm_compute in ("<<<M2460>>>" ++ check (runes_of_ascii "options{ falsey // a // b
-=
-    '0' } options { repeatCount =
-true true string_// a // b
-=
-// c
-// " ++ [27880; 37322]%N ++ runes_of_ascii "
-int64
-// trailing space 
-/// triple
-; } // @lengthOf(")).
-Eval vm_compute in ("<<<M2492>>>" ++ check (runes_of_ascii "options{ falsey // a // b
-=
-    '0' } options { repeatCount =
-true ; string_// a // b
-=
-// c
-// " ++ [27880; 37322]%N ++ runes_of_ascii "
-int6|4
-// trailing space 
-/// triple
-; } // @lengthOf(")).
-Eval vm_compute in ("<<<M2524>>>" ++ check (runes_of_ascii "options{}root root packet
-metadata {
-@lengthOf(x ) float32
-body ``, }
-    MetaData
-Z9_
-    {
-    string string_ , Logon x
-,
-uint32
-    // packet A { u8 x, }
-    Z9_,asx
-_x
-    `tab	here` , }
-")).
-Eval vm_compute in ("<<<M2556>>>" ++ check (runes_of_ascii "options{}root packet
-metadata {
-@lengthOf(x root float32
-body ``, }
-    MetaData
-Z9_
-    {
-    string string_ , Logon x
-,
-uint32
-    // packet A { u8 x, }
-    Z9_,asx
-_x
-    `tab	here` , }
-")).
-Eval vm_compute in ("<<<M2588>>>" ++ check (runes_of_ascii "options{}root packet
-metadata {
-@lengthOf(x ) float32
-body ``, }
-    MetaData
-
-    {
-    string string_ , Logon x
-,
-uint32
-    // packet A { u8 x, }
-    Z9_,asx
-_x
-    `tab	here` , }
-")).
-Eval vm_compute in ("<<<M2620>>>" ++ check (runes_of_ascii "options{}root packet
-metadata {
-@lengthOf(x ) float32
-body ``, }
-    MetaData
-Z9_
-    {
-    string string_ , Logon ,
+packetx { @tag(1) T uint8x
+,}	packet crc
+{ @calculatedFrom(
+    ""abc""
+) msg_type  charz `line1
+line2` ,} packet	Pad { }root packet x{
+@tag( 0 ) zchar[
+10 ] metadata ,_x charz ,
 x
-uint32
-    // packet A { u8 x, }
-    Z9_,asx
-_x
-    `tab	here` , }
-")).
-Eval vm_compute in ("<<<M2652>>>" ++ check (runes_of_ascii "options{}root packet
-metadata {
-@lengthOf(x ) float32
-body ``, }
-    MetaData
-Z9_
-    {
-    string string_ , Logon x
-,
-uint32
-    // packet A { u8 x, }
-    Z9_,asx")).
-Eval vm_compute in ("<<<M2684>>>" ++ check (runes_of_ascii "options{}root packet
-metadata {
-@lengthOf(@x ) float32
-body ``, }
-    MetaData
-Z9_
-    {
-    string string_ , Logon x
-,
-uint32
-    // packet A { u8 x, }
-    Z9_,asx
-_x
-    `tab	here` , }
-")).
-Eval vm_compute in ("<<<M2716>>>" ++ check (runes_of_ascii "options {
-    falsey=
-""a\\"" } ;")).
-Eval vm_compute in ("<<<M2748>>>" ++ check (runes_of_ascii "true f32a
+`// not a comment`
+    ,int16 roots,	string // " ++ [27880; 37322]%N ++ runes_of_ascii "
+i64_`line1
+line2` ,
+repeat
+lengthOf
+`` ,
+    zchar[
+42 // c
+] int , }")).
+Eval vm_compute in ("<<<M988>>>" ++ check (runes_of_ascii "
+packet float
 {
-    //	t
-    }root
-    packet tag  {
 }
 ")).
-Eval vm_compute in ("<<<M2780>>>" ++ check (runes_of_ascii "MetaData f32a
-{
+Eval vm_compute in ("<<<M1020>>>" ++ check (runes_of_ascii "options {}")).
+Eval vm_compute in ("<<<M1052>>>" ++ check (runes_of_ascii " // packet A { u8 x, }")).
+Eval vm_compute in ("<<<M1084>>>" ++ check (runes_of_ascii "/// triple
+MetaData len
+    {
+    i32// " ++ [128512]%N ++ runes_of_ascii " emoji
+o,
+//x
+/// triple
+}")).
+Eval vm_compute in ("<<<T1084>>>" ++ terms [mkTok 44 "/// triple" 1 0 true; mkTok 37 "MetaData" 2 0 false; mkTok 42 "len" 2 9 false; mkTok 2 "{" 3 4 false; mkTok 26 "i32" 4 4 false; mkTok 44 (string_of_bytes [47; 47; 32; 240; 159; 152; 128; 32; 101; 109; 111; 106; 105]%N) 4 7 true; mkTok 42 "o" 5 0 false; mkTok 40 "," 5 1 false; mkTok 44 "//x" 6 0 true; mkTok 44 "/// triple" 7 0 true; mkTok 3 "}" 8 0 false; mkTok 0 "<EOF>" 8 1 false] (mkPacket (mkPtok 37 "MetaData" 2 0 1) (Some (mkPtok 3 "}" 8 0 10)) [(DMeta (mkMetaDef (mkSpan (mkPtok 37 "MetaData" 2 0 1) (mkPtok 3 "}" 8 0 10)) (mkPtok 37 "MetaData" 2 0 1) (mkPtok 42 "len" 2 9 2) (mkPtok 2 "{" 3 4 3) [(MIDecl (mkMetaDecl (mkSpan (mkPtok 26 "i32" 4 4 4) (mkPtok 40 "," 5 1 7)) (TyBasic (mkSpan (mkPtok 26 "i32" 4 4 4) (mkPtok 26 "i32" 4 4 4)) (mkBasicType (mkSpan (mkPtok 26 "i32" 4 4 4) (mkPtok 26 "i32" 4 4 4)) (mkPtok 26 "i32" 4 4 4))) (mkPtok 42 "o" 5 0 6) None (mkPtok 40 "," 5 1 7)))] (mkPtok 3 "}" 8 0 10)))])).
+Eval vm_compute in ("<<<M1116>>>" ++ check (runes_of_ascii "
+packet msg_type
+    { match
+a1 as x_y_z{[ """ ++ [233]%N ++ runes_of_ascii "t" ++ [233]%N ++ runes_of_ascii """
+    ,
+// " ++ [128512]%N ++ runes_of_ascii " emoji
+// " ++ [128512]%N ++ runes_of_ascii " emoji
+"""" ,
+    """ ++ [128512]%N ++ runes_of_ascii """ // 50% %s
+, ""`tick`"" ,
+""x y"" , ""abc"", ""\" ++ [233]%N ++ runes_of_ascii """, ""packet""
+] :
+    int, }// " ++ [128512]%N ++ runes_of_ascii " emoji
+, repeat
+uint16 f32a
+`it's`
+    , } root packet rootA{ As crc ,
+@rightPad ( //	t
+'\x00'
+// `tick` ""quote"" 'q'
+// " ++ [27880; 37322]%N ++ runes_of_ascii "
+)
+    @lengthOf( u)repeat	i16 matchKey
+,
+    @calculatedFrom(	""x y""
+//
+// c
+) char[]	u128 @calculatedFrom( ""`tick`"" )
+    , Z9_ @lengthOf( matchKey )
+    ,
     //	t
-    }root
-    packet tag  
+    } options {
 }
 ")).
+Eval vm_compute in ("<<<M1148>>>" ++ check (runes_of_ascii "options {	} root
+packet float {
+    // 50% %s
+    @tag( 3
+) repeat char[
+// " ++ [128512]%N ++ runes_of_ascii " emoji
+// @lengthOf(
+65535
+]  Logon `" ++ [28040; 24687; 31867; 22411]%N ++ runes_of_ascii "`	,
+int8
+    asx ,uint64
+matchKey // @lengthOf(
+, repeat zchar[ 0123456789
+] charz ,@rightPad( ) match
+    rootA as o { ""abc"" : Header, ""a	b"" :BodyLength""a	b"" :/// triple
+repeatCount """ ++ [28040; 24687]%N ++ runes_of_ascii """ :
+// packet A { u8 x, }
+// `tick` ""quote"" 'q'
+_x ,  }, @lengthOf( body  )  match u8x
+    as u128{0123456789
+    // @lengthOf(
+    : lengthOf/// triple
+,
+    ""abc"": A	"""": Pad , 42	: i8i8 ,""a\""b"":  uint8x	4294967296: u128 , } , @lengthOf( int ) char[] matchKey
+    , uint16
+// " ++ [27880; 37322]%N ++ runes_of_ascii "
+// @lengthOf(
+pack`two words`, // trailing space 
+} options {
+    body =//	t
+string ; repeatCount
+=
+""it's""
+BodyLength = i64 Foo = ""packet"" ;
+lengthOf=
+    u16 }MetaData Pad { MetaDataX o
+    `a\` , char u,
+    zchar[
+255 ] o
+, }// c
+options //x
+{trueish=
+'0' ;
+    rootA	= int64 ;
+// trailing space 
+// " ++ [128512]%N ++ runes_of_ascii " emoji
+u =""\n"" }")).
+Eval vm_compute in ("<<<M1180>>>" ++ check (runes_of_ascii "  root  packet
+    BodyLength {
+@calculatedFrom(""\n"" )int8 a1
+    //	t
+    @lengthOf( falsey ), @calculatedFrom(
+    ""\" ++ [233]%N ++ runes_of_ascii """ ) @tag( 0123456789	) lengthOf ,  @tag(//x
+007) match
+Logon as	f32a { 0:zchar,
+} // trailing space 
+,	@lengthOf(	i8i8)
+    match
+    options1  as string_ { // a // b
+[
+""a\""b"",00,
+// trailing space 
+/// triple
+4294967296
+,4294967296 ,""a	b"" , 1 // " ++ [27880; 37322]%N ++ runes_of_ascii "
+]
+:
+A
+},  }  root packet
+Logon {
+    @calculatedFrom(
+""x y""
+    )@calculatedFrom(
+    // " ++ [27880; 37322]%N ++ runes_of_ascii "
+    ""abc""
+) A ,} MetaData leftPad {uint32 msg_type
+`" ++ [233]%N ++ runes_of_ascii "` ,  string
+Packet`" ++ [233]%N ++ runes_of_ascii "`
+    , Packet  _x `100% of %d` ,
+}")).
+Eval vm_compute in ("<<<M1212>>>" ++ check (runes_of_ascii "options
+{ }
+// packet A { u8 x, }
+")).
+Eval vm_compute in ("<<<M1244>>>" ++ check (runes_of_ascii "packet metadata  {
+    // 50% %s
+    i64_  options1
+    ,i64 x `" ++ [233]%N ++ runes_of_ascii "` , zchar[ 0 ]body , }packet
+    charz// a // b
+{
+    repeat float64 options1`" ++ [233]%N ++ runes_of_ascii "` , @lengthOf(
+Z9_ )
+// c
+// @lengthOf(
+As ,  repeat uint8	Foo
+, u32 string_
+,
+i32 calculatedFrom @lengthOf( msg_type
+)
+    // @lengthOf(
+    `two words`
+    ,repeat Header charz	`// not a comment`, @calculatedFrom(	""x y"" )
+//x
+// trailing space 
+char[
+0123456789	] stringy@calculatedFrom(""x y"" )
+    , repeat
+lengthOf o
+`a\` , match u
+as
+A
+    // @lengthOf(
+    { ""`tick`"" : // 50% %s
+uint8x , ""abc"" : charz , 7:
+    crc  ,
+// @lengthOf(
+// packet A { u8 x, }
+""`tick`"" : asx , ""a\\"" :
+// `tick` ""quote"" 'q'
+/// triple
+i64_} ,
+Header calculatedFrom
+    `" ++ [233]%N ++ runes_of_ascii "`
+    ,
+// c
+//
+} packet a1{// trailing space 
+} MetaData
+u128{ matchKey falsey `line1
+line2` , }
+")).
+Eval vm_compute in ("<<<M1276>>>" ++ check (runes_of_ascii "packet len
+{
+    repeat zchar[ 4294967296 ] roots
+`tab	here` , @tag(
+    // @lengthOf(
+    1 //
+)
+char[0123456789 ] MetaDataX ,
+} MetaData
+    stringy
+{
+    // " ++ [128512]%N ++ runes_of_ascii " emoji
+    packetx
+    falsey,
+string
+    a1 `u8 x,`
+, int64 matchKey ,
+string_ matchKey `" ++ [233]%N ++ runes_of_ascii "` ,chars Logon
+    `100% of %d` , // " ++ [128512]%N ++ runes_of_ascii " emoji
+}
+packet
+//
+/// triple
+int
+{u32 float `" ++ [233]%N ++ runes_of_ascii "` , @calculatedFrom(
+    // @lengthOf(
+    ""a\""b"" ) match u128 as packetx{
+// 50% %s
+// `tick` ""quote"" 'q'
+[ 3 ,
+""\" ++ [233]%N ++ runes_of_ascii """] :
+i8i8 ,007 :
+    chars, [
+    ""x y"" ,	""packet""
+, 10 // trailing space 
+]: rootA , [ 00 , 0 ] : x
+,
+} ,// trailing space 
+tag {	int8
+trueish @lengthOf( Header
+) , repeatCount
+@calculatedFrom( ""{,}"")
+, } , @tag( 007 )
+    repeat MetaDataX  metadata , @tag(42
+/// triple
+//x
+) char[ 00 ]string_@calculatedFrom(
+""// no comment"")// `tick` ""quote"" 'q'
+,
+    char[]Pad`doc` ,repeat
+char[
+    7 ] Logon , }
+MetaData _x
+{Foo
+packetx `" ++ [28040; 24687; 31867; 22411]%N ++ runes_of_ascii "`, i32 Logon,
+matchKey // c
+uint8x
+    , zchar[ 1
+    // packet A { u8 x, }
+    ]
+Foo, metadata
+falsey// `tick` ""quote"" 'q'
+`a\` ,}
+")).
+Eval vm_compute in ("<<<M1308>>>" ++ check (runes_of_ascii "
+MetaData asx{
+float32 charz
+    `u8 x,` ,	}	MetaData /// triple
+tag { char[
+0 ]falsey , }
+")).
+Eval vm_compute in ("<<<T1308>>>" ++ terms [mkTok 37 "MetaData" 2 0 false; mkTok 42 "asx" 2 9 false; mkTok 2 "{" 2 12 false; mkTok 28 "float32" 3 0 false; mkTok 42 "charz" 3 8 false; mkTok 43 "`u8 x,`" 4 4 false; mkTok 40 "," 4 12 false; mkTok 3 "}" 4 14 false; mkTok 37 "MetaData" 4 16 false; mkTok 44 "/// triple" 4 25 true; mkTok 42 "tag" 5 0 false; mkTok 2 "{" 5 4 false; mkTok 12 "char[" 5 6 false; mkTok 30 "0" 6 0 false; mkTok 13 "]" 6 2 false; mkTok 42 "falsey" 6 3 false; mkTok 40 "," 6 10 false; mkTok 3 "}" 6 12 false; mkTok 0 "<EOF>" 7 0 false] (mkPacket (mkPtok 37 "MetaData" 2 0 0) (Some (mkPtok 3 "}" 6 12 17)) [(DMeta (mkMetaDef (mkSpan (mkPtok 37 "MetaData" 2 0 0) (mkPtok 3 "}" 4 14 7)) (mkPtok 37 "MetaData" 2 0 0) (mkPtok 42 "asx" 2 9 1) (mkPtok 2 "{" 2 12 2) [(MIDecl (mkMetaDecl (mkSpan (mkPtok 28 "float32" 3 0 3) (mkPtok 40 "," 4 12 6)) (TyBasic (mkSpan (mkPtok 28 "float32" 3 0 3) (mkPtok 28 "float32" 3 0 3)) (mkBasicType (mkSpan (mkPtok 28 "float32" 3 0 3) (mkPtok 28 "float32" 3 0 3)) (mkPtok 28 "float32" 3 0 3))) (mkPtok 42 "charz" 3 8 4) (Some (mkPtok 43 "`u8 x,`" 4 4 5)) (mkPtok 40 "," 4 12 6)))] (mkPtok 3 "}" 4 14 7))); (DMeta (mkMetaDef (mkSpan (mkPtok 37 "MetaData" 4 16 8) (mkPtok 3 "}" 6 12 17)) (mkPtok 37 "MetaData" 4 16 8) (mkPtok 42 "tag" 5 0 10) (mkPtok 2 "{" 5 4 11) [(MIDecl (mkMetaDecl (mkSpan (mkPtok 12 "char[" 5 6 12) (mkPtok 40 "," 6 10 16)) (TyFixed (mkSpan (mkPtok 12 "char[" 5 6 12) (mkPtok 13 "]" 6 2 14)) (mkFixedString (mkSpan (mkPtok 12 "char[" 5 6 12) (mkPtok 13 "]" 6 2 14)) (mkPtok 12 "char[" 5 6 12) (mkPtok 30 "0" 6 0 13) (mkPtok 13 "]" 6 2 14))) (mkPtok 42 "falsey" 6 3 15) None (mkPtok 40 "," 6 10 16)))] (mkPtok 3 "}" 6 12 17)))])).
+Eval vm_compute in ("<<<M1340>>>" ++ check (runes_of_ascii "/// triple
+packet MetaDataX {@lengthOf(	u8x	) @lengthOf(	BodyLength
+    // " ++ [128512]%N ++ runes_of_ascii " emoji
+    ) @leftPad
+( ' ') repeat
+    uint64 metadata
+`" ++ [28040; 24687; 31867; 22411]%N ++ runes_of_ascii "` ,  u32 rootA
+`100% of %d`,
+} MetaData A {uint8 Packet `doc` , } options
+    // `tick` ""quote"" 'q'
+    { }
+")).
+Eval vm_compute in ("<<<M1372>>>" ++ check (runes_of_ascii "packet T  {  @rightPad
+// `tick` ""quote"" 'q'
+//
+() match
+    o
+    as
+asx {[1
+    ]	:
+zchar
+    }
+, T	{
+char[] calculatedFrom // @lengthOf(
+`" ++ [28040; 24687; 31867; 22411]%N ++ runes_of_ascii "`, Pad	BodyLength , // 50% %s
+char[  255] body `100% of %d` , u,} , //
+MetaDataX
+    // `tick` ""quote"" 'q'
+    @calculatedFrom( ""CRC32"" ) ,
+}
+packet As
+    // " ++ [128512]%N ++ runes_of_ascii " emoji
+    { string
+o,//
+repeat
+i32
+    // @lengthOf(
+    msg_type`line1
+line2`,repeat zchar[
+    3
+] Header `line1
+line2` ,	f32a, u32 u
+`say ""hi""`  ,  @leftPad (	'0' ) repeat
+tag matchKey , @tag(
+    1) repeat f32a
+    `
+` //
+,
+    //x
+    @lengthOf(	Header )
+Z9_ ,int8 i64_ @calculatedFrom(
+    //	t
+    ""1"" ), } //	t")).
+Eval vm_compute in ("<<<M1404>>>" ++ check (runes_of_ascii "options  {} packet o { @tag( 007 ) a1 /// triple
+`two words` , @lengthOf(BodyLength)trueish // 50% %s
+{	i64 x_y_z@calculatedFrom( ""`tick`""
+    )
+    //x
+    ,
+T
+    { int8 rootA // c
+@lengthOf( MetaDataX
+) , zchar[
+    0123456789 ]	trueish `" ++ [28040; 24687; 31867; 22411]%N ++ runes_of_ascii "`
+    ,
+chars
+body ,
+// @lengthOf(
+//	t
+} , uint16 Pad `{ , }` ,
+char[ // " ++ [27880; 37322]%N ++ runes_of_ascii "
+1// " ++ [128512]%N ++ runes_of_ascii " emoji
+] matchKey
+, } , repeat i64_
+T, @lengthOf( charz )	repeat	int8
+    i8i8, }
+")).
+Eval vm_compute in ("<<<M1436>>>" ++ check (runes_of_ascii "packet
+T
+// packet A { u8 x, }
+// c
+{ repeat string float `a\` ,}
+options {
+uint8x =
+f64 }
+")).
+Eval vm_compute in ("<<<M1468>>>" ++ check (runes_of_ascii "packet leftPad {repeat  matchKey // @lengthOf(
+Pad , char[]	x_y_z @calculatedFrom(
+    ""CRC32""
+)
+`100% of %d`
+, repeat char[]
+    // " ++ [128512]%N ++ runes_of_ascii " emoji
+    Logon ,
+@calculatedFrom(""`tick`""
+) uint32 x
+    // @lengthOf(
+    , i8 u `// not a comment` ,
+// c
+// a // b
+uint64 a1
+,As
+@lengthOf(
+a1) `{ , }`, char[ 7 ]	o , repeat
+// " ++ [27880; 37322]%N ++ runes_of_ascii "
+// packet A { u8 x, }
+len , body
+    Logon , }  root	packet uint8x {
+}
+")).
+Eval vm_compute in ("<<<M1500>>>" ++ check (runes_of_ascii "packet
+T
+{ match repeatCount as	calculatedFrom
+{ [65535 ]	: As	,
+} ,}
+// trailing space 
+")).
+Eval vm_compute in ("<<<M1532>>>" ++ check (runes_of_ascii "packet uint8x { T Foo
+, } root packet A {
+repeat  As
+    //
+    falsey ,@calculatedFrom( ""a\""b""
+)  match zchar as
+    // a // b
+    Foo {0123456789 :
+    T , 00 : x
+, //	t
+} ,
+rootA @calculatedFrom(""a\""b"") `line1
+line2`	, match f32a  as	msg_type { ""// no comment""	:x_y_z ,
+""packet"" // c
+:
+    calculatedFrom, // a // b
+""{,}""	: //x
+Pad
+    , 42
+:
+    zchar [""a	b"" , ""a	b"" , ""1""
+,  ""\" ++ [233]%N ++ runes_of_ascii """
+//
+//	t
+, ""\" ++ [233]%N ++ runes_of_ascii """// @lengthOf(
+]
+// a // b
+// `tick` ""quote"" 'q'
+: zchar	, 65535:lengthOf }  , repeat i8 Z9_ `tab	here` ,// a // b
+uint8x{ options1  {
+char[ // 50% %s
+10 ]
+    // a // b
+    packetx @lengthOf( body
+    ) , //
+zchar { repeat u128 `tab	here` ,int32 trueish@lengthOf( repeatCount ) ,  repeat f64 calculatedFrom
+    ,i32 u
+, },
+repeat
+matchKey , falsey  float `two words` ,
+} , repeat Header ,u8 rootA @lengthOf( x) , // @lengthOf(
+}, }
+")).
+Eval vm_compute in ("<<<T1532>>>" ++ terms [mkTok 35 "packet" 1 0 false; mkTok 42 "uint8x" 1 7 false; mkTok 2 "{" 1 14 false; mkTok 42 "T" 1 16 false; mkTok 42 "Foo" 1 18 false; mkTok 40 "," 2 0 false; mkTok 3 "}" 2 2 false; mkTok 34 "root" 2 4 false; mkTok 35 "packet" 2 9 false; mkTok 42 "A" 2 16 false; mkTok 2 "{" 2 18 false; mkTok 36 "repeat" 3 0 false; mkTok 42 "As" 3 8 false; mkTok 44 "//" 4 4 true; mkTok 42 "falsey" 5 4 false; mkTok 40 "," 5 11 false; mkTok 5 "@calculatedFrom(" 5 12 false; mkTok 31 """a\""b""" 5 29 false; mkTok 6 ")" 6 0 false; mkTok 38 "match" 6 3 false; mkTok 42 "zchar" 6 9 false; mkTok 17 "as" 6 15 false; mkTok 44 "// a // b" 7 4 true; mkTok 42 "Foo" 8 4 false; mkTok 2 "{" 8 8 false; mkTok 30 "0123456789" 8 9 false; mkTok 39 ":" 8 20 false; mkTok 42 "T" 9 4 false; mkTok 40 "," 9 6 false; mkTok 30 "00" 9 8 false; mkTok 39 ":" 9 11 false; mkTok 42 "x" 9 13 false; mkTok 40 "," 10 0 false; mkTok 44 (string_of_bytes [47; 47; 9; 116]%N) 10 2 true; mkTok 3 "}" 11 0 false; mkTok 40 "," 11 2 false; mkTok 42 "rootA" 12 0 false; mkTok 5 "@calculatedFrom(" 12 6 false; mkTok 31 """a\""b""" 12 22 false; mkTok 6 ")" 12 28 false; mkTok 43 (string_of_bytes [96; 108; 105; 110; 101; 49; 10; 108; 105; 110; 101; 50; 96]%N) 12 30 false; mkTok 40 "," 13 7 false; mkTok 38 "match" 13 9 false; mkTok 42 "f32a" 13 15 false; mkTok 17 "as" 13 21 false; mkTok 42 "msg_type" 13 24 false; mkTok 2 "{" 13 33 false; mkTok 31 """// no comment""" 13 35 false; mkTok 39 ":" 13 51 false; mkTok 42 "x_y_z" 13 52 false; mkTok 40 "," 13 58 false; mkTok 31 """packet""" 14 0 false; mkTok 44 "// c" 14 9 true; mkTok 39 ":" 15 0 false; mkTok 42 "calculatedFrom" 16 4 false; mkTok 40 "," 16 18 false; mkTok 44 "// a // b" 16 20 true; mkTok 31 """{,}""" 17 0 false; mkTok 39 ":" 17 6 false; mkTok 44 "//x" 17 8 true; mkTok 42 "Pad" 18 0 false; mkTok 40 "," 19 4 false; mkTok 30 "42" 19 6 false; mkTok 39 ":" 20 0 false; mkTok 42 "zchar" 21 4 false; mkTok 18 "[" 21 10 false; mkTok 31 (string_of_bytes [34; 97; 9; 98; 34]%N) 21 11 false; mkTok 40 "," 21 17 false; mkTok 31 (string_of_bytes [34; 97; 9; 98; 34]%N) 21 19 false; mkTok 40 "," 21 25 false; mkTok 31 """1""" 21 27 false; mkTok 40 "," 22 0 false; mkTok 31 (string_of_bytes [34; 92; 195; 169; 34]%N) 22 3 false; mkTok 44 "//" 23 0 true; mkTok 44 (string_of_bytes [47; 47; 9; 116]%N) 24 0 true; mkTok 40 "," 25 0 false; mkTok 31 (string_of_bytes [34; 92; 195; 169; 34]%N) 25 2 false; mkTok 44 "// @lengthOf(" 25 6 true; mkTok 13 "]" 26 0 false; mkTok 44 "// a // b" 27 0 true; mkTok 44 "// `tick` ""quote"" 'q'" 28 0 true; mkTok 39 ":" 29 0 false; mkTok 42 "zchar" 29 2 false; mkTok 40 "," 29 8 false; mkTok 30 "65535" 29 10 false; mkTok 39 ":" 29 15 false; mkTok 42 "lengthOf" 29 16 false; mkTok 3 "}" 29 25 false; mkTok 40 "," 29 28 false; mkTok 36 "repeat" 29 30 false; mkTok 24 "i8" 29 37 false; mkTok 42 "Z9_" 29 40 false; mkTok 43 (string_of_bytes [96; 116; 97; 98; 9; 104; 101; 114; 101; 96]%N) 29 44 false; mkTok 40 "," 29 55 false; mkTok 44 "// a // b" 29 56 true; mkTok 42 "uint8x" 30 0 false; mkTok 2 "{" 30 6 false; mkTok 42 "options1" 30 8 false; mkTok 2 "{" 30 18 false; mkTok 12 "char[" 31 0 false; mkTok 44 "// 50% %s" 31 6 true; mkTok 30 "10" 32 0 false; mkTok 13 "]" 32 3 false; mkTok 44 "// a // b" 33 4 true; mkTok 42 "packetx" 34 4 false; mkTok 7 "@lengthOf(" 34 12 false; mkTok 42 "body" 34 23 false; mkTok 6 ")" 35 4 false; mkTok 40 "," 35 6 false; mkTok 44 "//" 35 8 true; mkTok 42 "zchar" 36 0 false; mkTok 2 "{" 36 6 false; mkTok 36 "repeat" 36 8 false; mkTok 42 "u128" 36 15 false; mkTok 43 (string_of_bytes [96; 116; 97; 98; 9; 104; 101; 114; 101; 96]%N) 36 20 false; mkTok 40 "," 36 31 false; mkTok 26 "int32" 36 32 false; mkTok 42 "trueish" 36 38 false; mkTok 7 "@lengthOf(" 36 45 false; mkTok 42 "repeatCount" 36 56 false; mkTok 6 ")" 36 68 false; mkTok 40 "," 36 70 false; mkTok 36 "repeat" 36 73 false; mkTok 29 "f64" 36 80 false; mkTok 42 "calculatedFrom" 36 84 false; mkTok 40 "," 37 4 false; mkTok 26 "i32" 37 5 false; mkTok 42 "u" 37 9 false; mkTok 40 "," 38 0 false; mkTok 3 "}" 38 2 false; mkTok 40 "," 38 3 false; mkTok 36 "repeat" 39 0 false; mkTok 42 "matchKey" 40 0 false; mkTok 40 "," 40 9 false; mkTok 42 "falsey" 40 11 false; mkTok 42 "float" 40 19 false; mkTok 43 "`two words`" 40 25 false; mkTok 40 "," 40 37 false; mkTok 3 "}" 41 0 false; mkTok 40 "," 41 2 false; mkTok 36 "repeat" 41 4 false; mkTok 42 "Header" 41 11 false; mkTok 40 "," 41 18 false; mkTok 20 "u8" 41 19 false; mkTok 42 "rootA" 41 22 false; mkTok 7 "@lengthOf(" 41 28 false; mkTok 42 "x" 41 39 false; mkTok 6 ")" 41 40 false; mkTok 40 "," 41 42 false; mkTok 44 "// @lengthOf(" 41 44 true; mkTok 3 "}" 42 0 false; mkTok 40 "," 42 1 false; mkTok 3 "}" 42 3 false; mkTok 0 "<EOF>" 43 0 false] (mkPacket (mkPtok 35 "packet" 1 0 0) (Some (mkPtok 3 "}" 42 3 152)) [(DPacket (mkPacketDef (mkSpan (mkPtok 35 "packet" 1 0 0) (mkPtok 3 "}" 2 2 6)) None (mkPtok 35 "packet" 1 0 0) (mkPtok 42 "uint8x" 1 7 1) (mkPtok 2 "{" 1 14 2) [(mkFieldWithAttr (mkSpan (mkPtok 42 "T" 1 16 3) (mkPtok 40 "," 2 0 5)) [] (ObjectField (mkSpan (mkPtok 42 "T" 1 16 3) (mkPtok 40 "," 2 0 5)) None (mkPtok 42 "T" 1 16 3) (Some (mkPtok 42 "Foo" 1 18 4)) None (mkPtok 40 "," 2 0 5)))] (mkPtok 3 "}" 2 2 6))); (DPacket (mkPacketDef (mkSpan (mkPtok 34 "root" 2 4 7) (mkPtok 3 "}" 42 3 152)) (Some (mkPtok 34 "root" 2 4 7)) (mkPtok 35 "packet" 2 9 8) (mkPtok 42 "A" 2 16 9) (mkPtok 2 "{" 2 18 10) [(mkFieldWithAttr (mkSpan (mkPtok 36 "repeat" 3 0 11) (mkPtok 40 "," 5 11 15)) [] (ObjectField (mkSpan (mkPtok 36 "repeat" 3 0 11) (mkPtok 40 "," 5 11 15)) (Some (mkPtok 36 "repeat" 3 0 11)) (mkPtok 42 "As" 3 8 12) (Some (mkPtok 42 "falsey" 5 4 14)) None (mkPtok 40 "," 5 11 15))); (mkFieldWithAttr (mkSpan (mkPtok 5 "@calculatedFrom(" 5 12 16) (mkPtok 40 "," 11 2 35)) [(FACalculatedFrom (mkSpan (mkPtok 5 "@calculatedFrom(" 5 12 16) (mkPtok 6 ")" 6 0 18)) (mkCalculatedFrom (mkSpan (mkPtok 5 "@calculatedFrom(" 5 12 16) (mkPtok 6 ")" 6 0 18)) (mkPtok 5 "@calculatedFrom(" 5 12 16) (mkPtok 31 """a\""b""" 5 29 17) (mkPtok 6 ")" 6 0 18)))] (MatchField (mkSpan (mkPtok 38 "match" 6 3 19) (mkPtok 40 "," 11 2 35)) (mkMatchFieldDecl (mkSpan (mkPtok 38 "match" 6 3 19) (mkPtok 3 "}" 11 0 34)) (mkPtok 38 "match" 6 3 19) (mkPtok 42 "zchar" 6 9 20) (mkPtok 17 "as" 6 15 21) (mkPtok 42 "Foo" 8 4 23) (mkPtok 2 "{" 8 8 24) [(mkMatchPair (mkSpan (mkPtok 30 "0123456789" 8 9 25) (mkPtok 40 "," 9 6 28)) (MKDigits (mkPtok 30 "0123456789" 8 9 25)) (mkPtok 39 ":" 8 20 26) (mkPtok 42 "T" 9 4 27) (Some (mkPtok 40 "," 9 6 28))); (mkMatchPair (mkSpan (mkPtok 30 "00" 9 8 29) (mkPtok 40 "," 10 0 32)) (MKDigits (mkPtok 30 "00" 9 8 29)) (mkPtok 39 ":" 9 11 30) (mkPtok 42 "x" 9 13 31) (Some (mkPtok 40 "," 10 0 32)))] (mkPtok 3 "}" 11 0 34)) (mkPtok 40 "," 11 2 35))); (mkFieldWithAttr (mkSpan (mkPtok 42 "rootA" 12 0 36) (mkPtok 40 "," 13 7 41)) [] (CheckSumField (mkSpan (mkPtok 42 "rootA" 12 0 36) (mkPtok 40 "," 13 7 41)) (mkChecksumFieldDecl (mkSpan (mkPtok 42 "rootA" 12 0 36) (mkPtok 40 "," 13 7 41)) None (mkPtok 42 "rootA" 12 0 36) (mkCalculatedFrom (mkSpan (mkPtok 5 "@calculatedFrom(" 12 6 37) (mkPtok 6 ")" 12 28 39)) (mkPtok 5 "@calculatedFrom(" 12 6 37) (mkPtok 31 """a\""b""" 12 22 38) (mkPtok 6 ")" 12 28 39)) (Some (mkPtok 43 (string_of_bytes [96; 108; 105; 110; 101; 49; 10; 108; 105; 110; 101; 50; 96]%N) 12 30 40)) (mkPtok 40 "," 13 7 41)))); (mkFieldWithAttr (mkSpan (mkPtok 38 "match" 13 9 42) (mkPtok 40 "," 29 28 88)) [] (MatchField (mkSpan (mkPtok 38 "match" 13 9 42) (mkPtok 40 "," 29 28 88)) (mkMatchFieldDecl (mkSpan (mkPtok 38 "match" 13 9 42) (mkPtok 3 "}" 29 25 87)) (mkPtok 38 "match" 13 9 42) (mkPtok 42 "f32a" 13 15 43) (mkPtok 17 "as" 13 21 44) (mkPtok 42 "msg_type" 13 24 45) (mkPtok 2 "{" 13 33 46) [(mkMatchPair (mkSpan (mkPtok 31 """// no comment""" 13 35 47) (mkPtok 40 "," 13 58 50)) (MKString (mkPtok 31 """// no comment""" 13 35 47)) (mkPtok 39 ":" 13 51 48) (mkPtok 42 "x_y_z" 13 52 49) (Some (mkPtok 40 "," 13 58 50))); (mkMatchPair (mkSpan (mkPtok 31 """packet""" 14 0 51) (mkPtok 40 "," 16 18 55)) (MKString (mkPtok 31 """packet""" 14 0 51)) (mkPtok 39 ":" 15 0 53) (mkPtok 42 "calculatedFrom" 16 4 54) (Some (mkPtok 40 "," 16 18 55))); (mkMatchPair (mkSpan (mkPtok 31 """{,}""" 17 0 57) (mkPtok 40 "," 19 4 61)) (MKString (mkPtok 31 """{,}""" 17 0 57)) (mkPtok 39 ":" 17 6 58) (mkPtok 42 "Pad" 18 0 60) (Some (mkPtok 40 "," 19 4 61))); (mkMatchPair (mkSpan (mkPtok 30 "42" 19 6 62) (mkPtok 42 "zchar" 21 4 64)) (MKDigits (mkPtok 30 "42" 19 6 62)) (mkPtok 39 ":" 20 0 63) (mkPtok 42 "zchar" 21 4 64) None); (mkMatchPair (mkSpan (mkPtok 18 "[" 21 10 65) (mkPtok 40 "," 29 8 83)) (MKList (mkKeyList (mkSpan (mkPtok 18 "[" 21 10 65) (mkPtok 13 "]" 26 0 78)) (mkPtok 18 "[" 21 10 65) (mkPtok 31 (string_of_bytes [34; 97; 9; 98; 34]%N) 21 11 66) [((mkPtok 40 "," 21 17 67), (mkPtok 31 (string_of_bytes [34; 97; 9; 98; 34]%N) 21 19 68)); ((mkPtok 40 "," 21 25 69), (mkPtok 31 """1""" 21 27 70)); ((mkPtok 40 "," 22 0 71), (mkPtok 31 (string_of_bytes [34; 92; 195; 169; 34]%N) 22 3 72)); ((mkPtok 40 "," 25 0 75), (mkPtok 31 (string_of_bytes [34; 92; 195; 169; 34]%N) 25 2 76))] (mkPtok 13 "]" 26 0 78))) (mkPtok 39 ":" 29 0 81) (mkPtok 42 "zchar" 29 2 82) (Some (mkPtok 40 "," 29 8 83))); (mkMatchPair (mkSpan (mkPtok 30 "65535" 29 10 84) (mkPtok 42 "lengthOf" 29 16 86)) (MKDigits (mkPtok 30 "65535" 29 10 84)) (mkPtok 39 ":" 29 15 85) (mkPtok 42 "lengthOf" 29 16 86) None)] (mkPtok 3 "}" 29 25 87)) (mkPtok 40 "," 29 28 88))); (mkFieldWithAttr (mkSpan (mkPtok 36 "repeat" 29 30 89) (mkPtok 40 "," 29 55 93)) [] (MetaField (mkSpan (mkPtok 36 "repeat" 29 30 89) (mkPtok 40 "," 29 55 93)) (Some (mkPtok 36 "repeat" 29 30 89)) (mkMetaDecl (mkSpan (mkPtok 24 "i8" 29 37 90) (mkPtok 40 "," 29 55 93)) (TyBasic (mkSpan (mkPtok 24 "i8" 29 37 90) (mkPtok 24 "i8" 29 37 90)) (mkBasicType (mkSpan (mkPtok 24 "i8" 29 37 90) (mkPtok 24 "i8" 29 37 90)) (mkPtok 24 "i8" 29 37 90))) (mkPtok 42 "Z9_" 29 40 91) (Some (mkPtok 43 (string_of_bytes [96; 116; 97; 98; 9; 104; 101; 114; 101; 96]%N) 29 44 92)) (mkPtok 40 "," 29 55 93)))); (mkFieldWithAttr (mkSpan (mkPtok 42 "uint8x" 30 0 95) (mkPtok 40 "," 42 1 151)) [] (InerObjectField (mkSpan (mkPtok 42 "uint8x" 30 0 95) (mkPtok 40 "," 42 1 151)) None (InerObjectDecl (mkSpan (mkPtok 42 "uint8x" 30 0 95) (mkPtok 3 "}" 42 0 150)) (mkPtok 42 "uint8x" 30 0 95) (mkPtok 2 "{" 30 6 96) [(InerObjectField (mkSpan (mkPtok 42 "options1" 30 8 97) (mkPtok 40 "," 41 2 139)) None (InerObjectDecl (mkSpan (mkPtok 42 "options1" 30 8 97) (mkPtok 3 "}" 41 0 138)) (mkPtok 42 "options1" 30 8 97) (mkPtok 2 "{" 30 18 98) [(LengthField (mkSpan (mkPtok 12 "char[" 31 0 99) (mkPtok 40 "," 35 6 108)) (mkLengthFieldDecl (mkSpan (mkPtok 12 "char[" 31 0 99) (mkPtok 40 "," 35 6 108)) (Some (TyFixed (mkSpan (mkPtok 12 "char[" 31 0 99) (mkPtok 13 "]" 32 3 102)) (mkFixedString (mkSpan (mkPtok 12 "char[" 31 0 99) (mkPtok 13 "]" 32 3 102)) (mkPtok 12 "char[" 31 0 99) (mkPtok 30 "10" 32 0 101) (mkPtok 13 "]" 32 3 102)))) (mkPtok 42 "packetx" 34 4 104) (mkLengthOf (mkSpan (mkPtok 7 "@lengthOf(" 34 12 105) (mkPtok 6 ")" 35 4 107)) (mkPtok 7 "@lengthOf(" 34 12 105) (mkPtok 42 "body" 34 23 106) (mkPtok 6 ")" 35 4 107)) None (mkPtok 40 "," 35 6 108))); (InerObjectField (mkSpan (mkPtok 42 "zchar" 36 0 110) (mkPtok 40 "," 38 3 130)) None (InerObjectDecl (mkSpan (mkPtok 42 "zchar" 36 0 110) (mkPtok 3 "}" 38 2 129)) (mkPtok 42 "zchar" 36 0 110) (mkPtok 2 "{" 36 6 111) [(ObjectField (mkSpan (mkPtok 36 "repeat" 36 8 112) (mkPtok 40 "," 36 31 115)) (Some (mkPtok 36 "repeat" 36 8 112)) (mkPtok 42 "u128" 36 15 113) None (Some (mkPtok 43 (string_of_bytes [96; 116; 97; 98; 9; 104; 101; 114; 101; 96]%N) 36 20 114)) (mkPtok 40 "," 36 31 115)); (LengthField (mkSpan (mkPtok 26 "int32" 36 32 116) (mkPtok 40 "," 36 70 121)) (mkLengthFieldDecl (mkSpan (mkPtok 26 "int32" 36 32 116) (mkPtok 40 "," 36 70 121)) (Some (TyBasic (mkSpan (mkPtok 26 "int32" 36 32 116) (mkPtok 26 "int32" 36 32 116)) (mkBasicType (mkSpan (mkPtok 26 "int32" 36 32 116) (mkPtok 26 "int32" 36 32 116)) (mkPtok 26 "int32" 36 32 116)))) (mkPtok 42 "trueish" 36 38 117) (mkLengthOf (mkSpan (mkPtok 7 "@lengthOf(" 36 45 118) (mkPtok 6 ")" 36 68 120)) (mkPtok 7 "@lengthOf(" 36 45 118) (mkPtok 42 "repeatCount" 36 56 119) (mkPtok 6 ")" 36 68 120)) None (mkPtok 40 "," 36 70 121))); (MetaField (mkSpan (mkPtok 36 "repeat" 36 73 122) (mkPtok 40 "," 37 4 125)) (Some (mkPtok 36 "repeat" 36 73 122)) (mkMetaDecl (mkSpan (mkPtok 29 "f64" 36 80 123) (mkPtok 40 "," 37 4 125)) (TyBasic (mkSpan (mkPtok 29 "f64" 36 80 123) (mkPtok 29 "f64" 36 80 123)) (mkBasicType (mkSpan (mkPtok 29 "f64" 36 80 123) (mkPtok 29 "f64" 36 80 123)) (mkPtok 29 "f64" 36 80 123))) (mkPtok 42 "calculatedFrom" 36 84 124) None (mkPtok 40 "," 37 4 125))); (MetaField (mkSpan (mkPtok 26 "i32" 37 5 126) (mkPtok 40 "," 38 0 128)) None (mkMetaDecl (mkSpan (mkPtok 26 "i32" 37 5 126) (mkPtok 40 "," 38 0 128)) (TyBasic (mkSpan (mkPtok 26 "i32" 37 5 126) (mkPtok 26 "i32" 37 5 126)) (mkBasicType (mkSpan (mkPtok 26 "i32" 37 5 126) (mkPtok 26 "i32" 37 5 126)) (mkPtok 26 "i32" 37 5 126))) (mkPtok 42 "u" 37 9 127) None (mkPtok 40 "," 38 0 128)))] (mkPtok 3 "}" 38 2 129)) (mkPtok 40 "," 38 3 130)); (ObjectField (mkSpan (mkPtok 36 "repeat" 39 0 131) (mkPtok 40 "," 40 9 133)) (Some (mkPtok 36 "repeat" 39 0 131)) (mkPtok 42 "matchKey" 40 0 132) None None (mkPtok 40 "," 40 9 133)); (ObjectField (mkSpan (mkPtok 42 "falsey" 40 11 134) (mkPtok 40 "," 40 37 137)) None (mkPtok 42 "falsey" 40 11 134) (Some (mkPtok 42 "float" 40 19 135)) (Some (mkPtok 43 "`two words`" 40 25 136)) (mkPtok 40 "," 40 37 137))] (mkPtok 3 "}" 41 0 138)) (mkPtok 40 "," 41 2 139)); (ObjectField (mkSpan (mkPtok 36 "repeat" 41 4 140) (mkPtok 40 "," 41 18 142)) (Some (mkPtok 36 "repeat" 41 4 140)) (mkPtok 42 "Header" 41 11 141) None None (mkPtok 40 "," 41 18 142)); (LengthField (mkSpan (mkPtok 20 "u8" 41 19 143) (mkPtok 40 "," 41 42 148)) (mkLengthFieldDecl (mkSpan (mkPtok 20 "u8" 41 19 143) (mkPtok 40 "," 41 42 148)) (Some (TyBasic (mkSpan (mkPtok 20 "u8" 41 19 143) (mkPtok 20 "u8" 41 19 143)) (mkBasicType (mkSpan (mkPtok 20 "u8" 41 19 143) (mkPtok 20 "u8" 41 19 143)) (mkPtok 20 "u8" 41 19 143)))) (mkPtok 42 "rootA" 41 22 144) (mkLengthOf (mkSpan (mkPtok 7 "@lengthOf(" 41 28 145) (mkPtok 6 ")" 41 40 147)) (mkPtok 7 "@lengthOf(" 41 28 145) (mkPtok 42 "x" 41 39 146) (mkPtok 6 ")" 41 40 147)) None (mkPtok 40 "," 41 42 148)))] (mkPtok 3 "}" 42 0 150)) (mkPtok 40 "," 42 1 151)))] (mkPtok 3 "}" 42 3 152)))])).
+Eval vm_compute in ("<<<M1564>>>" ++ check (runes_of_ascii "packet matchKey  {rootA{ crc // 50% %s
+,
+match//
+o as
+asx {""\" ++ [233]%N ++ runes_of_ascii """// " ++ [128512]%N ++ runes_of_ascii " emoji
+:len
+,
+    // 50% %s
+    ""CRC32"" :
+int // packet A { u8 x, }
+,
+1 : calculatedFrom
+, [ """"
+] : uint8x } ,
+repeat float32 // @lengthOf(
+lengthOf ,
+// 50% %s
+// a // b
+} ,
+    @tag( 65535 )//
+@tag(
+3
+    // @lengthOf(
+    ) @leftPad
+( '0'
+)
+    char[]	T `two words`
+    //x
+    , @calculatedFrom(
+""\n"" ) // packet A { u8 x, }
+BodyLength
+, }
+")).
+Eval vm_compute in ("<<<M1596>>>" ++ check (runes_of_ascii "//x
+options
+    { lengthOf
+    = ""1""  ;
+}
+")).
+Eval vm_compute in ("<<<M1628>>>" ++ check (runes_of_ascii "
+packet body {zchar[ 65535
+    ]Z9_ `` , } root
+//	t
+// c
+packet
+    charz
+    { @calculatedFrom(
+""CRC32""
+) match
+BodyLength
+as string_
+{  42 : calculatedFrom
+, }, @leftPad  ( '\x00' )
+repeat u ,
+    string A ,repeat
+    zchar[ 00// c
+]
+a1 , match packetx as
+    uint8x
+{0123456789:stringy }
+,
+match rootA as
+falsey {// packet A { u8 x, }
+""\n"" : Header } , } packet len{ }
+packet	Foo
+    {
+@calculatedFrom( ""it's"") crc
+/// triple
+// a // b
+{ tag Z9_`a\`
+// @lengthOf(
+// trailing space 
+,
+}  , }")).
+Eval vm_compute in ("<<<M1660>>>" ++ check (runes_of_ascii "// @lengthOf(
+MetaData
+a1{
+string zchar , } options {int
+= ""// no comment"" ;f32a =	false body
+=// " ++ [128512]%N ++ runes_of_ascii " emoji
+false ; asx= 00;
+}")).
+Eval vm_compute in ("<<<M1692>>>" ++ check (runes_of_ascii "MetaData crc
+{i8i8 i8i8 `" ++ [233]%N ++ runes_of_ascii "`
+    ,
+    u8 string_
+, uint8x MetaDataX ,	zchar[ 7 ] _x`` , zchar lengthOf// " ++ [27880; 37322]%N ++ runes_of_ascii "
+,	int8 Pad
+``
+//x
+// @lengthOf(
+, } packet A {
+i16 i8i8
+// `tick` ""quote"" 'q'
+//	t
+, @calculatedFrom(""CRC32"")
+@lengthOf( i8i8) int16 chars @calculatedFrom(""" ++ [233]%N ++ runes_of_ascii "t" ++ [233]%N ++ runes_of_ascii """  )	,
+roots , @rightPad( '0' )@tag( 0
+)@leftPad (	' ' ) i64_ `line1
+line2` // " ++ [128512]%N ++ runes_of_ascii " emoji
+,}
+
+")).
+Eval vm_compute in ("<<<M1724>>>" ++ check (runes_of_ascii "
+packet asx{@leftPad(// 50% %s
+'\x00'
+)
+@tag(
+3) calculatedFrom int ,
+    } packet o { uint64 MetaDataX
+// c
+// 50% %s
+, }")).
+Eval vm_compute in ("<<<M1756>>>" ++ check (runes_of_ascii "MetaData i8i8	{
+    a1 Header
+    , f32 tag `" ++ [233]%N ++ runes_of_ascii "`
+    , a1
+uint8x, packetx pack ,
+}
+packet options1  {	@calculatedFrom( ""packet"" )	repeat char
+asx	`" ++ [233]%N ++ runes_of_ascii "`
+    , // packet A { u8 x, }
+char[
+4294967296
+    ] falsey,}
+")).
+Eval vm_compute in ("<<<T1756>>>" ++ terms [mkTok 37 "MetaData" 1 0 false; mkTok 42 "i8i8" 1 9 false; mkTok 2 "{" 1 14 false; mkTok 42 "a1" 2 4 false; mkTok 42 "Header" 2 7 false; mkTok 40 "," 3 4 false; mkTok 28 "f32" 3 6 false; mkTok 42 "tag" 3 10 false; mkTok 43 (string_of_bytes [96; 195; 169; 96]%N) 3 14 false; mkTok 40 "," 4 4 false; mkTok 42 "a1" 4 6 false; mkTok 42 "uint8x" 5 0 false; mkTok 40 "," 5 6 false; mkTok 42 "packetx" 5 8 false; mkTok 42 "pack" 5 16 false; mkTok 40 "," 5 21 false; mkTok 3 "}" 6 0 false; mkTok 35 "packet" 7 0 false; mkTok 42 "options1" 7 7 false; mkTok 2 "{" 7 17 false; mkTok 5 "@calculatedFrom(" 7 19 false; mkTok 31 """packet""" 7 36 false; mkTok 6 ")" 7 45 false; mkTok 36 "repeat" 7 47 false; mkTok 19 "char" 7 54 false; mkTok 42 "asx" 8 0 false; mkTok 43 (string_of_bytes [96; 195; 169; 96]%N) 8 4 false; mkTok 40 "," 9 4 false; mkTok 44 "// packet A { u8 x, }" 9 6 true; mkTok 12 "char[" 10 0 false; mkTok 30 "4294967296" 11 0 false; mkTok 13 "]" 12 4 false; mkTok 42 "falsey" 12 6 false; mkTok 40 "," 12 12 false; mkTok 3 "}" 12 13 false; mkTok 0 "<EOF>" 13 0 false] (mkPacket (mkPtok 37 "MetaData" 1 0 0) (Some (mkPtok 3 "}" 12 13 34)) [(DMeta (mkMetaDef (mkSpan (mkPtok 37 "MetaData" 1 0 0) (mkPtok 3 "}" 6 0 16)) (mkPtok 37 "MetaData" 1 0 0) (mkPtok 42 "i8i8" 1 9 1) (mkPtok 2 "{" 1 14 2) [(MIRef (mkRefMetaDecl (mkSpan (mkPtok 42 "a1" 2 4 3) (mkPtok 40 "," 3 4 5)) (mkPtok 42 "a1" 2 4 3) (mkPtok 42 "Header" 2 7 4) None (mkPtok 40 "," 3 4 5))); (MIDecl (mkMetaDecl (mkSpan (mkPtok 28 "f32" 3 6 6) (mkPtok 40 "," 4 4 9)) (TyBasic (mkSpan (mkPtok 28 "f32" 3 6 6) (mkPtok 28 "f32" 3 6 6)) (mkBasicType (mkSpan (mkPtok 28 "f32" 3 6 6) (mkPtok 28 "f32" 3 6 6)) (mkPtok 28 "f32" 3 6 6))) (mkPtok 42 "tag" 3 10 7) (Some (mkPtok 43 (string_of_bytes [96; 195; 169; 96]%N) 3 14 8)) (mkPtok 40 "," 4 4 9))); (MIRef (mkRefMetaDecl (mkSpan (mkPtok 42 "a1" 4 6 10) (mkPtok 40 "," 5 6 12)) (mkPtok 42 "a1" 4 6 10) (mkPtok 42 "uint8x" 5 0 11) None (mkPtok 40 "," 5 6 12))); (MIRef (mkRefMetaDecl (mkSpan (mkPtok 42 "packetx" 5 8 13) (mkPtok 40 "," 5 21 15)) (mkPtok 42 "packetx" 5 8 13) (mkPtok 42 "pack" 5 16 14) None (mkPtok 40 "," 5 21 15)))] (mkPtok 3 "}" 6 0 16))); (DPacket (mkPacketDef (mkSpan (mkPtok 35 "packet" 7 0 17) (mkPtok 3 "}" 12 13 34)) None (mkPtok 35 "packet" 7 0 17) (mkPtok 42 "options1" 7 7 18) (mkPtok 2 "{" 7 17 19) [(mkFieldWithAttr (mkSpan (mkPtok 5 "@calculatedFrom(" 7 19 20) (mkPtok 40 "," 9 4 27)) [(FACalculatedFrom (mkSpan (mkPtok 5 "@calculatedFrom(" 7 19 20) (mkPtok 6 ")" 7 45 22)) (mkCalculatedFrom (mkSpan (mkPtok 5 "@calculatedFrom(" 7 19 20) (mkPtok 6 ")" 7 45 22)) (mkPtok 5 "@calculatedFrom(" 7 19 20) (mkPtok 31 """packet""" 7 36 21) (mkPtok 6 ")" 7 45 22)))] (MetaField (mkSpan (mkPtok 36 "repeat" 7 47 23) (mkPtok 40 "," 9 4 27)) (Some (mkPtok 36 "repeat" 7 47 23)) (mkMetaDecl (mkSpan (mkPtok 19 "char" 7 54 24) (mkPtok 40 "," 9 4 27)) (TyBasic (mkSpan (mkPtok 19 "char" 7 54 24) (mkPtok 19 "char" 7 54 24)) (mkBasicType (mkSpan (mkPtok 19 "char" 7 54 24) (mkPtok 19 "char" 7 54 24)) (mkPtok 19 "char" 7 54 24))) (mkPtok 42 "asx" 8 0 25) (Some (mkPtok 43 (string_of_bytes [96; 195; 169; 96]%N) 8 4 26)) (mkPtok 40 "," 9 4 27)))); (mkFieldWithAttr (mkSpan (mkPtok 12 "char[" 10 0 29) (mkPtok 40 "," 12 12 33)) [] (MetaField (mkSpan (mkPtok 12 "char[" 10 0 29) (mkPtok 40 "," 12 12 33)) None (mkMetaDecl (mkSpan (mkPtok 12 "char[" 10 0 29) (mkPtok 40 "," 12 12 33)) (TyFixed (mkSpan (mkPtok 12 "char[" 10 0 29) (mkPtok 13 "]" 12 4 31)) (mkFixedString (mkSpan (mkPtok 12 "char[" 10 0 29) (mkPtok 13 "]" 12 4 31)) (mkPtok 12 "char[" 10 0 29) (mkPtok 30 "4294967296" 11 0 30) (mkPtok 13 "]" 12 4 31))) (mkPtok 42 "falsey" 12 6 32) None (mkPtok 40 "," 12 12 33))))] (mkPtok 3 "}" 12 13 34)))])).
+Eval vm_compute in ("<<<M1788>>>" ++ check (runes_of_ascii "root  packet
+    u128 {
+    @tag( 65535 ) // trailing space 
+repeat repeatCount ,
+    @tag(  0123456789 ) repeat Pad
+{ u8x T, _x {match
+    // trailing space 
+    crc as u { 00 :  stringy 42:
+    // 50% %s
+    metadata,
+7	: Z9_
+, } ,repeat float64
+metadata `line1
+line2`  , roots
+    @calculatedFrom(	""a\\"" )
+`{ , }` ,  }
+,uint64
+lengthOf, chars `{ , }`,
+}	, @leftPad (
+'\x00') u16 leftPad ,i32 // trailing space 
+x
+, }
+    options { chars
+    // c
+    =string  ;
+}")).
+Eval vm_compute in ("<<<M1820>>>" ++ check (runes_of_ascii "options
+    { }
+")).
+Eval vm_compute in ("<<<M1852>>>" ++ check (runes_of_ascii "packet msg_type
+{ match
+charz as
+Z9_  {[
+    007, """" ,0123456789, ""`tick`"" , ""CRC32"" , 00 ,""// no comment""]
+// trailing space 
+// trailing space 
+: asx
+//	t
+//	t
+},
+@calculatedFrom( """ ++ [233]%N ++ runes_of_ascii "t" ++ [233]%N ++ runes_of_ascii """
+    )
+    repeat i8i8 pack , match u128 as charz {1 : stringy ,
+    ""it's"" :calculatedFrom """ ++ [28040; 24687]%N ++ runes_of_ascii """ : string_ , ""it's""
+: // 50% %s
+u8x ""CRC32"": _x
+} , zchar @lengthOf( repeatCount ), string msg_type
+    @lengthOf(
+    //	t
+    i64_) ,	i16 BodyLength , @rightPad ( ) repeat int16
+matchKey `crlf
+line` ,
+    stringy
+@lengthOf(options1)`a\` , @leftPad ( )@calculatedFrom(""CRC32"" // 50% %s
+)  @rightPad ( )
+    // 50% %s
+    repeat
+// " ++ [128512]%N ++ runes_of_ascii " emoji
+// 50% %s
+char[] _x , } // a // b")).
+Eval vm_compute in ("<<<M1884>>>" ++ check (runes_of_ascii "packet T{ // " ++ [128512]%N ++ runes_of_ascii " emoji
+}")).
+Eval vm_compute in ("<<<M1916>>>" ++ check (runes_of_ascii "// 50% %s
+packet matchKey
+    //
+    { repeat
+    Logon f32a
+`u8 x,`, } packet tag{ @rightPad ('0')
+len { zchar[7 ] o
+    `" ++ [28040; 24687; 31867; 22411]%N ++ runes_of_ascii "`
+,}
+,} options	{ } options {body
+    = // " ++ [27880; 37322]%N ++ runes_of_ascii "
+""" ++ [128512]%N ++ runes_of_ascii """ leftPad =
+    """ ++ [128512]%N ++ runes_of_ascii """ chars =int64 ; u128 = string // packet A { u8 x, }
+; _x	= '\x00' ; }
+")).
+Eval vm_compute in ("<<<M1948>>>" ++ check (runes_of_ascii "
+packet uint8x{ packetx @lengthOf(
+falsey )
+    , @rightPad (' '
+) @leftPad
+    ( ' ' ) @leftPad  ('\x00'
+) MetaDataX  @calculatedFrom( ""CRC32"" )
+, stringy
+    /// triple
+    matchKey
+    // packet A { u8 x, }
+    , match float as x { 00 :
+matchKey[ 3// packet A { u8 x, }
+]	:body  , [  """ ++ [28040; 24687]%N ++ runes_of_ascii """ , 10]: float ,""\" ++ [233]%N ++ runes_of_ascii """ : tag, ""// no comment""
+:  Header	,} ,@tag( 10 ) f64 o , A zchar
+    `line1
+line2` , }")).
+Eval vm_compute in ("<<<M1980>>>" ++ check (runes_of_ascii "MetaData
+    // packet A { u8 x, }
+    msg_type { // trailing space 
+string_ len `tab	here`  ,roots calculatedFrom ,
+i32 Pad ,char[
+255 ]
+u `u8 x,`	, // " ++ [27880; 37322]%N ++ runes_of_ascii "
+}options
+{}")).
+Eval vm_compute in ("<<<T1980>>>" ++ terms [mkTok 37 "MetaData" 1 0 false; mkTok 44 "// packet A { u8 x, }" 2 4 true; mkTok 42 "msg_type" 3 4 false; mkTok 2 "{" 3 13 false; mkTok 44 "// trailing space " 3 15 true; mkTok 42 "string_" 4 0 false; mkTok 42 "len" 4 8 false; mkTok 43 (string_of_bytes [96; 116; 97; 98; 9; 104; 101; 114; 101; 96]%N) 4 12 false; mkTok 40 "," 4 24 false; mkTok 42 "roots" 4 25 false; mkTok 42 "calculatedFrom" 4 31 false; mkTok 40 "," 4 46 false; mkTok 26 "i32" 5 0 false; mkTok 42 "Pad" 5 4 false; mkTok 40 "," 5 8 false; mkTok 12 "char[" 5 9 false; mkTok 30 "255" 6 0 false; mkTok 13 "]" 6 4 false; mkTok 42 "u" 7 0 false; mkTok 43 "`u8 x,`" 7 2 false; mkTok 40 "," 7 10 false; mkTok 44 (string_of_bytes [47; 47; 32; 230; 179; 168; 233; 135; 138]%N) 7 12 true; mkTok 3 "}" 8 0 false; mkTok 1 "options" 8 1 false; mkTok 2 "{" 9 0 false; mkTok 3 "}" 9 1 false; mkTok 0 "<EOF>" 9 2 false] (mkPacket (mkPtok 37 "MetaData" 1 0 0) (Some (mkPtok 3 "}" 9 1 25)) [(DMeta (mkMetaDef (mkSpan (mkPtok 37 "MetaData" 1 0 0) (mkPtok 3 "}" 8 0 22)) (mkPtok 37 "MetaData" 1 0 0) (mkPtok 42 "msg_type" 3 4 2) (mkPtok 2 "{" 3 13 3) [(MIRef (mkRefMetaDecl (mkSpan (mkPtok 42 "string_" 4 0 5) (mkPtok 40 "," 4 24 8)) (mkPtok 42 "string_" 4 0 5) (mkPtok 42 "len" 4 8 6) (Some (mkPtok 43 (string_of_bytes [96; 116; 97; 98; 9; 104; 101; 114; 101; 96]%N) 4 12 7)) (mkPtok 40 "," 4 24 8))); (MIRef (mkRefMetaDecl (mkSpan (mkPtok 42 "roots" 4 25 9) (mkPtok 40 "," 4 46 11)) (mkPtok 42 "roots" 4 25 9) (mkPtok 42 "calculatedFrom" 4 31 10) None (mkPtok 40 "," 4 46 11))); (MIDecl (mkMetaDecl (mkSpan (mkPtok 26 "i32" 5 0 12) (mkPtok 40 "," 5 8 14)) (TyBasic (mkSpan (mkPtok 26 "i32" 5 0 12) (mkPtok 26 "i32" 5 0 12)) (mkBasicType (mkSpan (mkPtok 26 "i32" 5 0 12) (mkPtok 26 "i32" 5 0 12)) (mkPtok 26 "i32" 5 0 12))) (mkPtok 42 "Pad" 5 4 13) None (mkPtok 40 "," 5 8 14))); (MIDecl (mkMetaDecl (mkSpan (mkPtok 12 "char[" 5 9 15) (mkPtok 40 "," 7 10 20)) (TyFixed (mkSpan (mkPtok 12 "char[" 5 9 15) (mkPtok 13 "]" 6 4 17)) (mkFixedString (mkSpan (mkPtok 12 "char[" 5 9 15) (mkPtok 13 "]" 6 4 17)) (mkPtok 12 "char[" 5 9 15) (mkPtok 30 "255" 6 0 16) (mkPtok 13 "]" 6 4 17))) (mkPtok 42 "u" 7 0 18) (Some (mkPtok 43 "`u8 x,`" 7 2 19)) (mkPtok 40 "," 7 10 20)))] (mkPtok 3 "}" 8 0 22))); (DOption (mkOptionDef (mkSpan (mkPtok 1 "options" 8 1 23) (mkPtok 3 "}" 9 1 25)) (mkPtok 1 "options" 8 1 23) (mkPtok 2 "{" 9 0 24) [] (mkPtok 3 "}" 9 1 25)))])).
+Eval vm_compute in ("<<<M2012>>>" ++ check (runes_of_ascii "int64 repeatCount { float64 packetx,
+} root packet  metadata {
+char _x @lengthOf( trueish ), @leftPad
+( ' '// " ++ [27880; 37322]%N ++ runes_of_ascii "
+)/// triple
+char[] len`doc` , // packet A { u8 x, }
+repeatCount , }
+")).
+Eval vm_compute in ("<<<M2044>>>" ++ check (runes_of_ascii "MetaData repeatCount { float64 packetx,
+}  packet  metadata {
+char _x @lengthOf( trueish ), @leftPad
+( ' '// " ++ [27880; 37322]%N ++ runes_of_ascii "
+)/// triple
+char[] len`doc` , // packet A { u8 x, }
+repeatCount , }
+")).
+Eval vm_compute in ("<<<M2076>>>" ++ check (runes_of_ascii "MetaData repeatCount { float64 packetx,
+} root packet  metadata {
+char _x trueish @lengthOf( ), @leftPad
+( ' '// " ++ [27880; 37322]%N ++ runes_of_ascii "
+)/// triple
+char[] len`doc` , // packet A { u8 x, }
+repeatCount , }
+")).
+Eval vm_compute in ("<<<M2108>>>" ++ check (runes_of_ascii "MetaData repeatCount { float64 packetx,
+} root packet  metadata {
+char _x @lengthOf( trueish ), @leftPad
+(")).
+Eval vm_compute in ("<<<M2140>>>" ++ check (runes_of_ascii "MetaData repeatCount { float64 packetx,
+} root packet  metadata {
+char _x @lengthOf( trueish ), @leftPad
+( ' '// " ++ [27880; 37322]%N ++ runes_of_ascii "
+)/// triple
+char[] len`doc` , // packet A { u8 x, }
+repeatCount , , }
+")).
+Eval vm_compute in ("<<<M2172>>>" ++ check (runes_of_ascii "{options
+leftPad
+    =65535
+;
+a1 = true ; packetx=  '\x00' ; packetx
+=  """ ++ [28040; 24687]%N ++ runes_of_ascii """MetaDataX= // " ++ [27880; 37322]%N ++ runes_of_ascii "
+false }root // c
+packet // packet A { u8 x, }
+Pad { repeat
+u8 Header
+// packet A { u8 x, }
+//	t
+`{ , }`
+// a // b
+//x
+, }
+")).
+Eval vm_compute in ("<<<M2204>>>" ++ check (runes_of_ascii "options{
+leftPad
+    =65535
+;")).
+Eval vm_compute in ("<<<M2236>>>" ++ check (runes_of_ascii "options{
+leftPad
+    =65535
+;
+a1 = true ; packetx=  '\x00' ; ; packetx
+=  """ ++ [28040; 24687]%N ++ runes_of_ascii """MetaDataX= // " ++ [27880; 37322]%N ++ runes_of_ascii "
+false }root // c
+packet // packet A { u8 x, }
+Pad { repeat
+u8 Header
+// packet A { u8 x, }
+//	t
+`{ , }`
+// a // b
+//x
+, }
+")).
+Eval vm_compute in ("<<<M2268>>>" ++ check (runes_of_ascii "options{
+leftPad
+    =65535
+;
+a1 = true ; packetx=  '\x00' ; packetx
+=  """ ++ [28040; 24687]%N ++ runes_of_ascii """MetaDataX= // " ++ [27880; 37322]%N ++ runes_of_ascii "
+repeat }root // c
+packet // packet A { u8 x, }
+Pad { repeat
+u8 Header
+// packet A { u8 x, }
+//	t
+`{ , }`
+// a // b
+//x
+, }
+")).
+Eval vm_compute in ("<<<M2300>>>" ++ check (runes_of_ascii "options{
+leftPad
+    =65535
+;
+a1 = true ; packetx=  '\x00' ; packetx
+=  """ ++ [28040; 24687]%N ++ runes_of_ascii """MetaDataX= // " ++ [27880; 37322]%N ++ runes_of_ascii "
+false }root // c
+packet // packet A { u8 x, }
+Pad { repeat
+ Header
+// packet A { u8 x, }
+//	t
+`{ , }`
+// a // b
+//x
+, }
+")).
+Eval vm_compute in ("<<<M2332>>>" ++ check (runes_of_ascii "options{
+leftPad
+    =65535
+;
+a1 = true ; packetx=  '\x00' ; packetx
+=  """ ++ [28040; 24687]%N ++ runes_of_ascii """MetaDataX= // " ++ [27880; 37322]%N ++ runes_of_ascii "
+false }root // c
+packet // packet A { '1'u8 x, }
+Pad { repeat
+u8 Header
+// packet A { u8 x, }
+//	t
+`{ , }`
+// a // b
+//x
+, }
+")).
+Eval vm_compute in ("<<<T2332>>>" ++ terms [mkTok 1 "options" 1 0 false; mkTok 2 "{" 1 7 false; mkTok 42 "leftPad" 2 0 false; mkTok 4 "=" 3 4 false; mkTok 30 "65535" 3 5 false; mkTok 41 ";" 4 0 false; mkTok 42 "a1" 5 0 false; mkTok 4 "=" 5 3 false; mkTok 10 "true" 5 5 false; mkTok 41 ";" 5 10 false; mkTok 42 "packetx" 5 12 false; mkTok 4 "=" 5 19 false; mkTok 33 "'\x00'" 5 22 false; mkTok 41 ";" 5 29 false; mkTok 42 "packetx" 5 31 false; mkTok 4 "=" 6 0 false; mkTok 31 (string_of_bytes [34; 230; 182; 136; 230; 129; 175; 34]%N) 6 3 false; mkTok 42 "MetaDataX" 6 7 false; mkTok 4 "=" 6 16 false; mkTok 44 (string_of_bytes [47; 47; 32; 230; 179; 168; 233; 135; 138]%N) 6 18 true; mkTok 11 "false" 7 0 false; mkTok 3 "}" 7 6 false; mkTok 34 "root" 7 7 false; mkTok 44 "// c" 7 12 true; mkTok 35 "packet" 8 0 false; mkTok 44 "// packet A { '1'u8 x, }" 8 7 true; mkTok 42 "Pad" 9 0 false; mkTok 2 "{" 9 4 false; mkTok 36 "repeat" 9 6 false; mkTok 20 "u8" 10 0 false; mkTok 42 "Header" 10 3 false; mkTok 44 "// packet A { u8 x, }" 11 0 true; mkTok 44 (string_of_bytes [47; 47; 9; 116]%N) 12 0 true; mkTok 43 "`{ , }`" 13 0 false; mkTok 44 "// a // b" 14 0 true; mkTok 44 "//x" 15 0 true; mkTok 40 "," 16 0 false; mkTok 3 "}" 16 2 false; mkTok 0 "<EOF>" 17 0 false] (mkPacket (mkPtok 1 "options" 1 0 0) (Some (mkPtok 3 "}" 16 2 37)) [(DOption (mkOptionDef (mkSpan (mkPtok 1 "options" 1 0 0) (mkPtok 3 "}" 7 6 21)) (mkPtok 1 "options" 1 0 0) (mkPtok 2 "{" 1 7 1) [(mkOptionDecl (mkSpan (mkPtok 42 "leftPad" 2 0 2) (mkPtok 41 ";" 4 0 5)) (mkPtok 42 "leftPad" 2 0 2) (mkPtok 4 "=" 3 4 3) (VDigits (mkSpan (mkPtok 30 "65535" 3 5 4) (mkPtok 30 "65535" 3 5 4)) (mkPtok 30 "65535" 3 5 4)) (Some (mkPtok 41 ";" 4 0 5))); (mkOptionDecl (mkSpan (mkPtok 42 "a1" 5 0 6) (mkPtok 41 ";" 5 10 9)) (mkPtok 42 "a1" 5 0 6) (mkPtok 4 "=" 5 3 7) (VTrue (mkSpan (mkPtok 10 "true" 5 5 8) (mkPtok 10 "true" 5 5 8)) (mkPtok 10 "true" 5 5 8)) (Some (mkPtok 41 ";" 5 10 9))); (mkOptionDecl (mkSpan (mkPtok 42 "packetx" 5 12 10) (mkPtok 41 ";" 5 29 13)) (mkPtok 42 "packetx" 5 12 10) (mkPtok 4 "=" 5 19 11) (VPaddingChar (mkSpan (mkPtok 33 "'\x00'" 5 22 12) (mkPtok 33 "'\x00'" 5 22 12)) (mkPtok 33 "'\x00'" 5 22 12)) (Some (mkPtok 41 ";" 5 29 13))); (mkOptionDecl (mkSpan (mkPtok 42 "packetx" 5 31 14) (mkPtok 31 (string_of_bytes [34; 230; 182; 136; 230; 129; 175; 34]%N) 6 3 16)) (mkPtok 42 "packetx" 5 31 14) (mkPtok 4 "=" 6 0 15) (VString (mkSpan (mkPtok 31 (string_of_bytes [34; 230; 182; 136; 230; 129; 175; 34]%N) 6 3 16) (mkPtok 31 (string_of_bytes [34; 230; 182; 136; 230; 129; 175; 34]%N) 6 3 16)) (mkPtok 31 (string_of_bytes [34; 230; 182; 136; 230; 129; 175; 34]%N) 6 3 16)) None); (mkOptionDecl (mkSpan (mkPtok 42 "MetaDataX" 6 7 17) (mkPtok 11 "false" 7 0 20)) (mkPtok 42 "MetaDataX" 6 7 17) (mkPtok 4 "=" 6 16 18) (VFalse (mkSpan (mkPtok 11 "false" 7 0 20) (mkPtok 11 "false" 7 0 20)) (mkPtok 11 "false" 7 0 20)) None)] (mkPtok 3 "}" 7 6 21))); (DPacket (mkPacketDef (mkSpan (mkPtok 34 "root" 7 7 22) (mkPtok 3 "}" 16 2 37)) (Some (mkPtok 34 "root" 7 7 22)) (mkPtok 35 "packet" 8 0 24) (mkPtok 42 "Pad" 9 0 26) (mkPtok 2 "{" 9 4 27) [(mkFieldWithAttr (mkSpan (mkPtok 36 "repeat" 9 6 28) (mkPtok 40 "," 16 0 36)) [] (MetaField (mkSpan (mkPtok 36 "repeat" 9 6 28) (mkPtok 40 "," 16 0 36)) (Some (mkPtok 36 "repeat" 9 6 28)) (mkMetaDecl (mkSpan (mkPtok 20 "u8" 10 0 29) (mkPtok 40 "," 16 0 36)) (TyBasic (mkSpan (mkPtok 20 "u8" 10 0 29) (mkPtok 20 "u8" 10 0 29)) (mkBasicType (mkSpan (mkPtok 20 "u8" 10 0 29) (mkPtok 20 "u8" 10 0 29)) (mkPtok 20 "u8" 10 0 29))) (mkPtok 42 "Header" 10 3 30) (Some (mkPtok 43 "`{ , }`" 13 0 33)) (mkPtok 40 "," 16 0 36))))] (mkPtok 3 "}" 16 2 37)))])).
+Eval vm_compute in ("<<<M2364>>>" ++ check (runes_of_ascii "
+packet float
+{	char[] """ ++ [233]%N ++ runes_of_ascii "t" ++ [233]%N ++ runes_of_ascii """ )
+@rightPad ( '\x00' )
+    @calculatedFrom( ""x y"" ) string chars  ,
+    // a // b
+    char[0 ]
+    u	@lengthOf( i8i8 ) `{ , }` ,repeat char[] o //x
+`// not a comment`, } // c")).
+Eval vm_compute in ("<<<M2396>>>" ++ check (runes_of_ascii "
+packet float
+{	@calculatedFrom( """ ++ [233]%N ++ runes_of_ascii "t" ++ [233]%N ++ runes_of_ascii """ )
+@rightPad ( '\x00' )
+     ""x y"" ) string chars  ,
+    // a // b
+    char[0 ]
+    u	@lengthOf( i8i8 ) `{ , }` ,repeat char[] o //x
+`// not a comment`, } // c")).
+Eval vm_compute in ("<<<M2428>>>" ++ check (runes_of_ascii "
+packet float
+{	@calculatedFrom( """ ++ [233]%N ++ runes_of_ascii "t" ++ [233]%N ++ runes_of_ascii """ )
+@rightPad ( '\x00' )
+    @calculatedFrom( ""x y"" ) string chars  ,
+    // a // b
+    0 char[ ]
+    u	@lengthOf( i8i8 ) `{ , }` ,repeat char[] o //x
+`// not a comment`, } // c")).
+Eval vm_compute in ("<<<M2460>>>" ++ check (runes_of_ascii "
+packet float
+{	@calculatedFrom( """ ++ [233]%N ++ runes_of_ascii "t" ++ [233]%N ++ runes_of_ascii """ )
+@rightPad ( '\x00' )
+    @calculatedFrom( ""x y"" ) string chars  ,
+    // a // b
+    char[0 ]
+    u	@lengthOf( i8i8")).
+Eval vm_compute in ("<<<M2492>>>" ++ check (runes_of_ascii "
+packet float
+{	@calculatedFrom( """ ++ [233]%N ++ runes_of_ascii "t" ++ [233]%N ++ runes_of_ascii """ )
+@rightPad ( '\x00' )
+    @calculatedFrom( ""x y"" ) string chars  ,
+    // a // b
+    char[0 ]
+    u	@lengthOf( i8i8 ) `{ , }` ,repeat char[] o //x
+`// not a comment`, , } // c")).
+Eval vm_compute in ("<<<M2524>>>" ++ check (runes_of_ascii "packet root u128{
+    repeat
+    zchar[ 65535 ] u `" ++ [28040; 24687; 31867; 22411]%N ++ runes_of_ascii "` ,// `tick` ""quote"" 'q'
+} packet i64_ {repeatCount
+    `
+` ,	} // " ++ [128512]%N ++ runes_of_ascii " emoji")).
+Eval vm_compute in ("<<<M2556>>>" ++ check (runes_of_ascii "root packet u128{
+    repeat
+    zchar[")).
+Eval vm_compute in ("<<<M2588>>>" ++ check (runes_of_ascii "root packet u128{
+    repeat
+    zchar[ 65535 ] u `" ++ [28040; 24687; 31867; 22411]%N ++ runes_of_ascii "` ,// `tick` ""quote"" 'q'
+} packet i64_ i64_ {repeatCount
+    `
+` ,	} // " ++ [128512]%N ++ runes_of_ascii " emoji")).
+Eval vm_compute in ("<<<M2620>>>" ++ check (runes_of_ascii "root packet u128{
+    repeat
+    zchar[ 65535 ] u `" ++ [28040; 24687; 31867; 22411]%N ++ runes_of_ascii "` ,// `tick` ""quote"" 'q'
+} packet i64_ ")).
+Eval vm_compute in ("<<<M2652>>>" ++ check (runes_of_ascii "
+MetaData
+roots")).
+Eval vm_compute in ("<<<M2684>>>" ++ check (runes_of_ascii "
+MetaData
+roots { int8
+  |  BodyLength ,//	t
+}
+")).
+Eval vm_compute in ("<<<M2716>>>" ++ check (runes_of_ascii "options {Packet = i8i8""CRC32"" = false; leftPad =
+    '\x00'
+    // `tick` ""quote"" 'q'
+    ; o=255  ;
+    // packet A { u8 x, }
+    }")).
+Eval vm_compute in ("<<<M2748>>>" ++ check (runes_of_ascii "options {Packet = ""CRC32""i8i8 = false; leftPad")).
+Eval vm_compute in ("<<<M2780>>>" ++ check (runes_of_ascii "options {Packet = ""CRC32""i8i8 = false; leftPad =
+    '\x00'
+    // `tick` ""quote"" 'q'
+    ; o=255  ;
+    // packet A { u8 x, }
+    } }")).
 Eval vm_compute in ("<<<M2812>>>" ++ check (runes_of_ascii "
-options options
-    {msg_type =
-    float32  }root
-packet Z9_{ char /// triple
-crc @lengthOf(
-options1 ) //
-,} MetaData a1{}
-")).
+packet { metadata @rightPad (
+    // packet A { u8 x, }
+    ' ' ) repeat u32	A
+,matchKey ,
+    @lengthOf( string_ ) @lengthOf( body )
+    // a // b
+    @lengthOf(float  )	repeat
+int32 u8x
+    // c
+    `tab	here`
+, } // a // b")).
 Eval vm_compute in ("<<<M2844>>>" ++ check (runes_of_ascii "
-options
-    {msg_type =
-    float32  }@lengthOf(
-packet Z9_{ char /// triple
-crc @lengthOf(
-options1 ) //
-,} MetaData a1{}
-")).
+packet metadata { @rightPad (
+    // packet A { u8 x, }
+    ' ' )")).
 Eval vm_compute in ("<<<M2876>>>" ++ check (runes_of_ascii "
-options
-    {msg_type =
-    float32  }root
-packet Z9_{ char /// triple
-crc @lengthOf(
- ) //
-,} MetaData a1{}
-")).
+packet metadata { @rightPad (
+    // packet A { u8 x, }
+    ' ' ) repeat u32	A
+,matchKey ,
+    @lengthOf( string_ string_ ) @lengthOf( body )
+    // a // b
+    @lengthOf(float  )	repeat
+int32 u8x
+    // c
+    `tab	here`
+, } // a // b")).
 Eval vm_compute in ("<<<M2908>>>" ++ check (runes_of_ascii "
-options
-    {msg_type =
-    float32  }root
-packet Z9_{ char /// triple
-crc @lengthOf(
-options1 ) //
-,} MetaData a1}{
+packet metadata { @rightPad (
+    // packet A { u8 x, }
+    ' ' ) repeat u32	A
+,matchKey ,
+    @lengthOf( string_ ) @lengthOf( body )
+    // a // b
+    @lengthOf(u64  )	repeat
+int32 u8x
+    // c
+    `tab	here`
+, } // a // b")).
+Eval vm_compute in ("<<<M2940>>>" ++ check (runes_of_ascii "
+packet metadata { @rightPad (
+    // packet A { u8 x, }
+    ' ' ) repeat u32	A
+,matchKey ,
+    @lengthOf( string_ ) @lengthOf( body )
+    // a // b
+    @lengthOf(float  )	repeat
+int32 u8x
+    // c
+    `tab	here`
+,  // a // b")).
+Eval vm_compute in ("<<<M2972>>>" ++ check (runes_of_ascii "packet x x{
+string
+zchar , //	t
+}
 ")).
-Eval vm_compute in ("<<<M2940>>>" ++ check (runes_of_ascii "' ' crc{ // " ++ [128512]%N ++ runes_of_ascii " emoji
-repeat string i8i8
-`a\`, }
-")).
-Eval vm_compute in ("<<<M2972>>>" ++ check (runes_of_ascii "packet crc{ // " ++ [128512]%N ++ runes_of_ascii " emoji
-repeat string i8i8
-`a\` }
-")).
-Eval vm_compute in ("<<<M3004>>>" ++ check (runes_of_ascii "packet packet BodyLength {} MetaData zchar{ zchar[// @lengthOf(
-42 ]
-    pack , string_
-A , char[]crc , _x trueish ,
-// " ++ [27880; 37322]%N ++ runes_of_ascii "
-// " ++ [128512]%N ++ runes_of_ascii " emoji
-zchar[
-    3 ]	T // trailing space 
-, } packet body
+Eval vm_compute in ("<<<M3004>>>" ++ check (runes_of_ascii "packet x{
+string
+zch")).
+Eval vm_compute in ("<<<M3036>>>" ++ check (runes_of_ascii "
+MetaData Logon")).
+Eval vm_compute in ("<<<M3068>>>" ++ check (runes_of_ascii "
+MetaData Logon
+{ // c
+}root packet
+    Pad {
+    } options options
 {
-    }
-")).
-Eval vm_compute in ("<<<M3036>>>" ++ check (runes_of_ascii "packet BodyLength {} MetaData zchar string zchar[// @lengthOf(
-42 ]
-    pack , string_
-A , char[]crc , _x trueish ,
-// " ++ [27880; 37322]%N ++ runes_of_ascii "
-// " ++ [128512]%N ++ runes_of_ascii " emoji
-zchar[
-    3 ]	T // trailing space 
-, } packet body
+u
+    =
+    ""CRC32""
+    // " ++ [128512]%N ++ runes_of_ascii " emoji
+    i64_ = u16;
+T =65535 x = ' '
+    ; u128
+= true ; }")).
+Eval vm_compute in ("<<<M3100>>>" ++ check (runes_of_ascii "
+MetaData Logon
+{ // c
+}root packet
+    Pad {
+    } options
 {
-    }
-")).
-Eval vm_compute in ("<<<M3068>>>" ++ check (runes_of_ascii "packet BodyLength {} MetaData zchar{ zchar[// @lengthOf(
-42 ]
-    pack , string_
- , char[]crc , _x trueish ,
-// " ++ [27880; 37322]%N ++ runes_of_ascii "
-// " ++ [128512]%N ++ runes_of_ascii " emoji
-zchar[
-    3 ]	T // trailing space 
-, } packet body
+u
+    =
+    ""CRC32""
+    // " ++ [128512]%N ++ runes_of_ascii " emoji
+    i64_ } u16;
+T =65535 x = ' '
+    ; u128
+= true ; }")).
+Eval vm_compute in ("<<<M3132>>>" ++ check (runes_of_ascii "
+MetaData Logon
+{ // c
+}root packet
+    Pad {
+    } options
 {
-    }
-")).
-Eval vm_compute in ("<<<M3100>>>" ++ check (runes_of_ascii "packet BodyLength {} MetaData zchar{ zchar[// @lengthOf(
-42 ]
-    pack , string_
-A , char[]crc , _x , trueish
-// " ++ [27880; 37322]%N ++ runes_of_ascii "
-// " ++ [128512]%N ++ runes_of_ascii " emoji
-zchar[
-    3 ]	T // trailing space 
-, } packet body
+u
+    =
+    ""CRC32""
+    // " ++ [128512]%N ++ runes_of_ascii " emoji
+    i64_ = u16;
+T =65535 x  ' '
+    ; u128
+= true ; }")).
+Eval vm_compute in ("<<<M3164>>>" ++ check (runes_of_ascii "
+MetaData Logon
+{ // c
+}root packet
+    Pad {
+    } options
 {
-    }
+u
+    =
+    ""CRC32""
+    // " ++ [128512]%N ++ runes_of_ascii " emoji
+    i64_ = u16;
+T =65535 x = ' '
+    ; u128
+= true } ;")).
+Eval vm_compute in ("<<<M3196>>>" ++ check (runes_of_ascii "u32 body{}
+packet	Packet { x_y_z @calculatedFrom(  ""a\\"")// `tick` ""quote"" 'q'
+, }
 ")).
-Eval vm_compute in ("<<<M3132>>>" ++ check (runes_of_ascii "packet BodyLength {} MetaData zchar{ zchar[// @lengthOf(
-42 ]
-    pack , string_
-A , char[]crc , _x trueish ,
-// " ++ [27880; 37322]%N ++ runes_of_ascii "
-// " ++ [128512]%N ++ runes_of_ascii " emoji
-zchar[
-    3 ]	T")).
-Eval vm_compute in ("<<<M3164>>>" ++ check (runes_of_ascii "packet BodyLength {} MetaData zchar{ zchar[// @lengthOf(
-42 ]
-    # pack , string_
-A , char[]crc , _x trueish ,
-// " ++ [27880; 37322]%N ++ runes_of_ascii "
-// " ++ [128512]%N ++ runes_of_ascii " emoji
-zchar[
-    3 ]	T // trailing space 
-, } packet body
-{
-    }
+Eval vm_compute in ("<<<M3228>>>" ++ check (runes_of_ascii "MetaData body{}
+packet	Packet {  @calculatedFrom(  ""a\\"")// `tick` ""quote"" 'q'
+, }
 ")).
-Eval vm_compute in ("<<<M3196>>>" ++ check (runes_of_ascii "packet
-string_ {int @lengthOf( ) match packetx as f32a {
-    1 :	calculatedFrom , }  ,
-    } packet len
-    //	t
-    { @calculatedFrom( """ ++ [233]%N ++ runes_of_ascii "t" ++ [233]%N ++ runes_of_ascii """ ) body Header , char[] lengthOf  `two words` ,chars{repeat string_ matchKey ,
-    } ,
-    }
+Eval vm_compute in ("<<<M3260>>>" ++ check (runes_of_ascii "MetaData body")).
+Eval vm_compute in ("<<<M3292>>>" ++ check (runes_of_ascii "packet f32a f64} root packet len {repeat u // " ++ [128512]%N ++ runes_of_ascii " emoji
+`{ , }` , }
 ")).
-Eval vm_compute in ("<<<M3228>>>" ++ check (runes_of_ascii "packet
-string_ {@lengthOf( int ) match packetx as")).
-Eval vm_compute in ("<<<M3260>>>" ++ check (runes_of_ascii "packet
-string_ {@lengthOf( int ) match packetx as f32a {
-    1 :	calculatedFrom , }  , ,
-    } packet len
-    //	t
-    { @calculatedFrom( """ ++ [233]%N ++ runes_of_ascii "t" ++ [233]%N ++ runes_of_ascii """ ) body Header , char[] lengthOf  `two words` ,chars{repeat string_ matchKey ,
-    } ,
-    }
+Eval vm_compute in ("<<<M3324>>>" ++ check (runes_of_ascii "packet f32a {} root packet len {repeat  // " ++ [128512]%N ++ runes_of_ascii " emoji
+`{ , }` , }
 ")).
-Eval vm_compute in ("<<<M3292>>>" ++ check (runes_of_ascii "packet
-string_ {@lengthOf( int ) match packetx as f32a {
-    1 :	calculatedFrom , }  ,
-    } packet len
-    //	t
-    { @calculatedFrom( = ) body Header , char[] lengthOf  `two words` ,chars{repeat string_ matchKey ,
-    } ,
-    }
+Eval vm_compute in ("<<<M3356>>>" ++ check (runes_of_ascii "packet f32a {} root packet ~len {repeat u // " ++ [128512]%N ++ runes_of_ascii " emoji
+`{ , }` , }
 ")).
-Eval vm_compute in ("<<<M3324>>>" ++ check (runes_of_ascii "packet
-string_ {@lengthOf( int ) match packetx as f32a {
-    1 :	calculatedFrom , }  ,
-    } packet len
-    //	t
-    { @calculatedFrom( """ ++ [233]%N ++ runes_of_ascii "t" ++ [233]%N ++ runes_of_ascii """ ) body Header , char[] lengthOf   ,chars{repeat string_ matchKey ,
-    } ,
-    }
-")).
-Eval vm_compute in ("<<<M3356>>>" ++ check (runes_of_ascii "packet
-string_ {@lengthOf( int ) match packetx as f32a {
-    1 :	calculatedFrom , }  ,
-    } packet len
-    //	t
-    { @calculatedFrom( """ ++ [233]%N ++ runes_of_ascii "t" ++ [233]%N ++ runes_of_ascii """ ) body Header , char[] lengthOf  `two words` ,chars{repeat string_ , matchKey
-    } ,
-    }
-")).
-Eval vm_compute in ("<<<M3388>>>" ++ check (runes_of_ascii "packet
-string_ {@lengthOf( int ) match packetx as f32a {
-    1 :	calculatedFrom , }  ,
-    } packet len
-    //	t
-    { @calculatedFrom( """ ++ [233]%N ++ runes_of_ascii "t" ++ [233]%N ++ runes_of_ascii "~"" ) body Header , char[] lengthOf  `two words` ,chars{repeat string_ matchKey ,
-    } ,
-    }
-")).
-Eval vm_compute in ("<<<M3420>>>" ++ check (runes_of_ascii "/// triple
-root
-packet // packet A { u8 x, }
-chars { @lengthOf(charz )
-stringy,  @tag(  0 ) // a // b
-asx
-    As
-,
-// trailing space 
-// trailing space 
-f64 {
-repeat i16 charz , } ,	int16  crc ,}
-")).
-Eval vm_compute in ("<<<M3452>>>" ++ check (runes_of_ascii "/// triple
-root
-packet // packet A { u8 x, }
-chars { @lengthOf(charz )
-stringy,  @tag(  0 ) // a // b
-asx
-    As
-,
-// trailing space 
-// trailing space 
-x_y_z {
-repeat i16 charz , } ,	int16  crc")).
-Eval vm_compute in ("<<<M3484>>>" ++ check (runes_of_ascii "/// t" ++ [0]%N ++ runes_of_ascii "riple
-root
-packet // packet A { u8 x, }
-chars { @lengthOf(charz )
-stringy,  @tag(  0 ) // a // b
-asx
-    As
-,
-// trailing space 
-// trailing space 
-x_y_z {
-repeat i16 charz , } ,	int16  crc ,}
-")).
+Eval vm_compute in ("<<<M3388>>>" ++ check (runes_of_ascii "options{ _x=""\" ++ [233]%N ++ runes_of_ascii """;
+    Logon = 10	; Foo= 7;
+i64_= char[]} options {
+matchKey = ""// no comment"" // a // b
+falsey = string
+; trueish =
+    4294967296
+options1=
+    ""it's"" string_	@rightPad true } options {
+    /// triple
+    }")).
+Eval vm_compute in ("<<<M3420>>>" ++ check (runes_of_ascii "options{ _x=""\" ++ [233]%N ++ runes_of_ascii """;
+    Logon = 10	; Foo= 7;
+i64_= char[]} options {
+matchKey = ""// no comment"" // a // b
+falsey = string
+; trueish =
+    :
+options1=
+    ""it's"" string_	= true } options {
+    /// triple
+    }")).
+Eval vm_compute in ("<<<M3452>>>" ++ check (runes_of_ascii "options{ _x=""\" ++ [233]%N ++ runes_of_ascii """;
+    Logon = 10	; Foo= 7;
+i64_= char[]} options {
+matchKey = ""// no comment"" // a // b
+falsey string =
+; trueish =
+    4294967296
+options1=
+    ""it's"" string_	= true } options {
+    /// triple
+    }")).
+Eval vm_compute in ("<<<M3484>>>" ++ check (runes_of_ascii "options{ _x=""\" ++ [233]%N ++ runes_of_ascii """?;
+    Logon = 10	; Foo= 7;
+i64_= char[]} options {
+matchKey = ""// no comment"" // a // b
+falsey = string
+; trueish =
+    4294967296
+options1=
+    ""it's"" string_	= true } options {
+    /// triple
+    }")).
 Eval vm_compute in ("<<<M3516>>>" ++ check (runes_of_ascii "as")).
 Eval vm_compute in ("<<<M3548>>>" ++ check (runes_of_ascii "@leftPad(")).
 Eval vm_compute in ("<<<M3580>>>" ++ check (runes_of_ascii """ab""")).
@@ -1731,13 +1850,11 @@ Eval vm_compute in ("<<<M3644>>>" ++ check (runes_of_ascii "packet A { u8 x `d` 
 Eval vm_compute in ("<<<M3676>>>" ++ check (runes_of_ascii "packet A { match k as n { [1 2] : B }, }")).
 Eval vm_compute in ("<<<M3708>>>" ++ check (runes_of_ascii "root MetaData M { }")).
 Eval vm_compute in ("<<<M3740>>>" ++ check (runes_of_ascii "options A { }")).
-Eval vm_compute in ("<<<M3772>>>" ++ check ([65533]%N ++ runes_of_ascii "
-6}")).
-Eval vm_compute in ("<<<M3804>>>" ++ check (runes_of_ascii "S" ++ [65533; 28]%N ++ runes_of_ascii "H" ++ [65533]%N ++ runes_of_ascii "~" ++ [65533; 65533; 1215]%N ++ runes_of_ascii "A" ++ [65533]%N ++ runes_of_ascii "g" ++ [65533]%N ++ runes_of_ascii "n" ++ [65533]%N ++ runes_of_ascii "a" ++ [65533; 17]%N ++ runes_of_ascii "4" ++ [65533; 65533]%N)).
-Eval vm_compute in ("<<<M3836>>>" ++ check (runes_of_ascii "W")).
-Eval vm_compute in ("<<<M3868>>>" ++ check (runes_of_ascii "l" ++ [15; 65533; 65533]%N ++ runes_of_ascii "XH" ++ [65533]%N ++ runes_of_ascii "	>" ++ [65533]%N ++ runes_of_ascii "WG")).
-Eval vm_compute in ("<<<M3900>>>" ++ check ([65533; 65533; 65533]%N ++ runes_of_ascii "CM" ++ [65533]%N ++ runes_of_ascii "e" ++ [65533; 1780; 65533; 12]%N ++ runes_of_ascii "S-	_b/" ++ [26]%N ++ runes_of_ascii "~" ++ [65533; 65533]%N)).
-Eval vm_compute in ("<<<M3932>>>" ++ check ([65533]%N ++ runes_of_ascii "x" ++ [65533]%N ++ runes_of_ascii "t}{" ++ [65533; 65533]%N ++ runes_of_ascii "O" ++ [65533]%N ++ runes_of_ascii "?N" ++ [65533; 29; 65533; 65533; 6; 65533; 65533; 65533; 65533]%N ++ runes_of_ascii "|" ++ [65533]%N ++ runes_of_ascii "]" ++ [65533; 65533; 65533; 27; 65533; 982; 65533]%N ++ runes_of_ascii "
-")).
-Eval vm_compute in ("<<<M3964>>>" ++ check ([65533]%N ++ runes_of_ascii "b" ++ [16]%N ++ runes_of_ascii "D)" ++ [65533; 65533]%N ++ runes_of_ascii "?" ++ [65533]%N ++ runes_of_ascii "A" ++ [65533]%N ++ runes_of_ascii "E~S" ++ [65533]%N)).
-Eval vm_compute in ("<<<M3996>>>" ++ check ([65533; 65533; 27279]%N ++ runes_of_ascii "D" ++ [31]%N ++ runes_of_ascii "fl{" ++ [65533; 65533; 65533; 65533]%N ++ runes_of_ascii "dj" ++ [65533]%N ++ runes_of_ascii "]v" ++ [240]%N ++ runes_of_ascii "K" ++ [65533]%N ++ runes_of_ascii "|4P")).
+Eval vm_compute in ("<<<M3772>>>" ++ check ([1; 65533]%N ++ runes_of_ascii "FS" ++ [65533]%N ++ runes_of_ascii "8" ++ [1]%N ++ runes_of_ascii "Fv" ++ [65533]%N)).
+Eval vm_compute in ("<<<M3804>>>" ++ check (runes_of_ascii "YL" ++ [1]%N ++ runes_of_ascii "I" ++ [65533; 6]%N ++ runes_of_ascii "r" ++ [65533]%N)).
+Eval vm_compute in ("<<<M3836>>>" ++ check ([8]%N ++ runes_of_ascii "H" ++ [11; 65533; 65533]%N ++ runes_of_ascii "o/" ++ [65533]%N ++ runes_of_ascii "F" ++ [65533; 65533]%N ++ runes_of_ascii "BLE" ++ [65533; 65533; 65533]%N ++ runes_of_ascii "%c" ++ [65533]%N ++ runes_of_ascii "y" ++ [65533; 11]%N ++ runes_of_ascii "(" ++ [65533]%N ++ runes_of_ascii "y" ++ [65533]%N)).
+Eval vm_compute in ("<<<M3868>>>" ++ check ([65533]%N ++ runes_of_ascii "z" ++ [65533; 65533; 65533; 65533; 65533]%N ++ runes_of_ascii "c" ++ [65533; 495]%N ++ runes_of_ascii "1n%" ++ [65533]%N ++ runes_of_ascii "dHD" ++ [65533; 65533; 65533]%N ++ runes_of_ascii "1" ++ [65533; 65533]%N ++ runes_of_ascii "6" ++ [65533]%N ++ runes_of_ascii "`" ++ [65533]%N ++ runes_of_ascii "Zx" ++ [65533; 6]%N ++ runes_of_ascii "?" ++ [65533]%N ++ runes_of_ascii "	3&!5" ++ [65533]%N)).
+Eval vm_compute in ("<<<M3900>>>" ++ check ([65533; 65533]%N ++ runes_of_ascii "?0p" ++ [65533; 65533; 65533; 65533; 1283]%N ++ runes_of_ascii "_0f<" ++ [1815]%N ++ runes_of_ascii "]" ++ [65533]%N ++ runes_of_ascii "g" ++ [65533; 65533]%N ++ runes_of_ascii "d" ++ [65533; 7; 31]%N)).
+Eval vm_compute in ("<<<M3932>>>" ++ check (runes_of_ascii "E" ++ [65533; 65533]%N ++ runes_of_ascii "$P{" ++ [12]%N ++ runes_of_ascii "," ++ [65533; 65533]%N ++ runes_of_ascii "~" ++ [65533; 0]%N ++ runes_of_ascii "g" ++ [23; 65533; 65533]%N ++ runes_of_ascii "[" ++ [65533; 65533; 65533; 65533; 65533]%N ++ runes_of_ascii "m")).
+Eval vm_compute in ("<<<M3964>>>" ++ check ([127]%N ++ runes_of_ascii "*" ++ [65533; 65533]%N)).
+Eval vm_compute in ("<<<M3996>>>" ++ check ([65533; 65533; 65533; 65533; 65533; 65533; 65533; 5; 65533; 1627; 65533]%N)).
